@@ -46,11 +46,14 @@ Record PR1 (fx : fixes) (st : state) (r : round) : Prop := {
               p_rpc pe = mk_encode (rd_gen r) (nth (Z.to_nat RS_N) (e_hosts e) 0) (e_base e);
   pi_stamp : forall p h s, In p (rd_tracts r) -> zget (pt_stamps p) h = Some s ->
                exists rep, rget (s_reps st) (h, pt_tk p) = Some rep /\ sle s (stamp_of st h (pt_tk p));
-  pi_piece : forall e i, In e (rd_encs r) -> live e -> piece_ok fx st r e i
+  pi_piece : forall e i, In e (rd_encs r) -> live e -> piece_ok fx st r e i;
+  pi_fill : forall e, In e (rd_encs r) -> e_stage e = 2 ->
+              Z.of_nat (length (e_errs e)) + e_wait e = RS_N /\ NoDup (map fst (e_errs e)) /\ forall i v, In (i, v) (e_errs e) -> 0 <= i < RS_N
 }.
 
 Record PInv (fx : fixes) (st : state) : Prop := {
   pv_gen : NoDup (map rd_gen (s_rounds st));
+  pv_ops : NoDup (map rd_op (s_rounds st));
   pv_gd : forall r1 r2 e1 e2 c, In r1 (s_rounds st) -> In r2 (s_rounds st) -> In e1 (rd_encs r1) -> In e2 (rd_encs r2) ->
             in_range e1 c = true -> in_range e2 c = true -> rd_gen r1 = rd_gen r2;
   pv_own : forall pe, In pe (s_pool st) -> k_kind (p_rpc pe) = K_PackTracts \/ k_kind (p_rpc pe) = K_RSEncode ->
@@ -58,6 +61,7 @@ Record PInv (fx : fixes) (st : state) : Prop := {
   pv_gc : forall pe, In pe (s_pool st) -> k_kind (p_rpc pe) = K_GCTract ->
             chunk_of (p_rpc pe) < s_nextchunk st /\
             forall r e, In r (s_rounds st) -> In e (rd_encs r) -> live e -> in_range e (chunk_of (p_rpc pe)) = false;
+  pv_alloc : forall pe, In pe (s_pool st) -> k_kind (p_rpc pe) = K_Alloc -> 0 <= nth 0 (k_aux (p_rpc pe)) 0;
   pv_rounds : forall r, In r (s_rounds st) -> PR1 fx st r
 }.
 
@@ -102,4 +106,2081 @@ Proof.
   destruct (Fz S5) as [[rep' [Rg' [Ra' _]]]|No].
   - rewrite Ptk, Rg in Rg'. injection Rg' as <-. exact Ra'.
   - exfalso. apply No. exists d. rewrite Ptk. split; [exact Dg|]. split; [lia|exact Dr].
+Qed.
+
+(* ------------------------------------------------------------------ clients and fixVersion never issue Pack / Encode / GC calls *)
+Definition notpeg (rp : rpc) : bool :=
+  negb ((k_kind rp =? K_PackTracts) || (k_kind rp =? K_RSEncode) || (k_kind rp =? K_GCTract)).
+Definition notpk (rp : rpc) : bool := notpeg rp && negb (k_kind rp =? K_Alloc).
+Definition NK (st st' : state) : Prop := forall x, In x (s_pool st') -> In x (s_pool st) \/ notpk (p_rpc x) = true.
+
+Lemma NK_refl st : NK st st. Proof. intros x Hx. left. exact Hx. Qed.
+Lemma NK_trans a b c : NK a b -> NK b c -> NK a c.
+Proof. intros H1 H2 x Hx. destruct (H2 x Hx) as [K|K]; [exact (H1 x K)|right; exact K]. Qed.
+Lemma NKr_eq st s s' : s_pool s' = s_pool s -> NK st s -> NK st s'.
+Proof. intros H K x Hx. rewrite H in Hx. exact (K x Hx). Qed.
+Lemma NKr_issue st s r o : notpk r = true -> NK st s -> NK st (issue s r o).
+Proof.
+  intros Hn K x Hx. cbn [s_pool issue set_pool] in Hx. apply in_app_or in Hx. destruct Hx as [Hx|[<-|[]]]; [exact (K x Hx)|right; exact Hn].
+Qed.
+Lemma NKr_remove st s id : NK st s -> NK st (set_pool s (pool_remove (s_pool s) id) (s_next s)).
+Proof. intros K x Hx. cbn [s_pool set_pool] in Hx. unfold pool_remove in Hx. apply filter_In in Hx. apply K. tauto. Qed.
+Lemma NKr_set_wops st s l : NK st s -> NK st (set_wops s l). Proof. apply NKr_eq. reflexivity. Qed.
+Lemma NKr_set_cache st s l : NK st s -> NK st (set_cache s l). Proof. apply NKr_eq. reflexivity. Qed.
+Lemma NKr_set_fix st s l n : NK st s -> NK st (set_fix s l n). Proof. apply NKr_eq. reflexivity. Qed.
+Lemma NKr_set_fixes st s l : NK st s -> NK st (set_fixes s l). Proof. apply NKr_eq. reflexivity. Qed.
+Lemma NKr_add_fin st s a b c : NK st s -> NK st (add_fin s a b c). Proof. apply NKr_eq. reflexivity. Qed.
+Lemma NKr_finish_w st s w n e : NK st s -> NK st (finish_w s w n e).
+Proof. apply NKr_eq. apply (fr_finish_w _ s_pool); fr. Qed.
+Lemma NKr_fold {A} (f : state -> A -> state) l : (forall st s x, NK st s -> NK st (f s x)) -> forall st s, NK st s -> NK st (fold_left f l s).
+Proof. intros H. induction l; intros; cbn; auto. Qed.
+
+Ltac nks :=
+  repeat first
+    [ apply NKr_issue; [reflexivity|] | apply NKr_remove | apply NKr_set_wops | apply NKr_set_cache
+    | apply NKr_set_fix | apply NKr_set_fixes | apply NKr_add_fin | apply NKr_finish_w ];
+  try assumption.
+
+Lemma NKr_w_after_entry fx st s w e c : NK st s -> NK st (w_after_entry fx s w e c).
+Proof.
+  intros K. unfold w_after_entry. prd; nks.
+  apply NKr_fold; [intros st0 s0 [h k] K0; nks|]. nks.
+Qed.
+Lemma NKr_w_get fx st s w : NK st s -> NK st (w_get fx s w).
+Proof. intros K. unfold w_get. prd; first [apply NKr_w_after_entry; assumption | nks]. Qed.
+Lemma NKr_cli_reply fx st s op r res en : NK st s -> NK st (cli_reply fx s op r res en).
+Proof.
+  intros K. unfold cli_reply. prd; try assumption;
+  first [apply NKr_w_get; assumption | apply NKr_w_after_entry; nks | nks].
+Qed.
+Lemma NKr_finish_fix fx st s f e : NK st s -> NK st (finish_fix fx s f e).
+Proof. intros K. unfold finish_fix. prd; first [apply NKr_cli_reply; nks | nks]. Qed.
+Lemma NKr_activate_fix fx st s f : NK st s -> NK st (activate_fix fx s f).
+Proof.
+  intros K. unfold activate_fix. prd; try (apply NKr_finish_fix; assumption).
+  apply NKr_fold; [intros; nks|]. nks.
+Qed.
+Lemma NKr_wake fx n : forall st s, NK st s -> NK st (wake fx n s).
+Proof. induction n; intros st s K; cbn [wake]; [exact K|]. destruct (find _ _); [|exact K]. apply IHn. apply NKr_activate_fix. exact K. Qed.
+Lemma NKr_start_fix fx st s g tk c b r : NK st s -> NK st (start_fix fx s g tk c b r).
+Proof. intros K. unfold start_fix. prd; apply NKr_wake; [apply NKr_finish_fix|]; nks. Qed.
+Lemma NKr_fix_reply fx st s id err : NK st s -> NK st (fix_reply fx s id err).
+Proof.
+  intros K. unfold fix_reply. destruct (find_fix _ _) as [f|]; [|exact K].
+  destruct (negb _); [apply NKr_wake; apply NKr_finish_fix; exact K|].
+  destruct (1 <? f_wait f); [nks|].
+  pose proof (fr_change_tract _ s_pool ltac:(fr) s (f_term f) (f_tk f) (f_dv f + 1) (f_hosts f)) as Q.
+  destruct (change_tract _ _ _ _ _) as [s1 e]. cbn [fst] in Q.
+  apply NKr_wake. apply NKr_finish_fix. eapply NKr_eq; [exact Q|exact K].
+Qed.
+
+(* ------------------------------------------------------------------ transfer along steps that leave rounds, pieces and the Store alone *)
+Definition pPI (st : state) := (s_rounds st, s_pieces st, s_reps st, s_stamps st, s_epoch st).
+
+Lemma stamp_of_pPI st st' ts tk : pPI st' = pPI st -> stamp_of st' ts tk = stamp_of st ts tk.
+Proof. unfold pPI. intros H. injection H as _ _ _ H4 H5. unfold stamp_of, epoch_of. rewrite H4, H5. reflexivity. Qed.
+
+Lemma src_transfer fx st st' r e tk app : pPI st' = pPI st ->
+  (forall p h, In p (rd_tracts r) -> frozen st p h app -> frozen st' p h app) ->
+  src fx st r e tk app -> src fx st' r e tk app.
+Proof.
+  intros HP Hfz [p [h0 [s0 [rep [Fp [Hf [Zs [Rg [Ca [C5 C4]]]]]]]]]].
+  pose proof (stamp_of_pPI st st' h0 tk HP) as Es. unfold pPI in HP. injection HP as _ _ H3 _ _.
+  exists p, h0, s0, rep. rewrite H3, Es. repeat split; try assumption.
+  - intros S. apply Hfz; [exact (find_ptr_in _ _ _ Fp)|exact (C5 S)].
+  - intros S Z0. apply Hfz; [exact (find_ptr_in _ _ _ Fp)|exact (C4 S Z0)].
+Qed.
+
+Lemma PInv_sub fx st st' :
+  pPI st' = pPI st -> s_nextchunk st' = s_nextchunk st -> NK st st' ->
+  (forall r p h app, In r (s_rounds st) -> In p (rd_tracts r) -> frozen st p h app -> frozen st' p h app) ->
+  PInv fx st -> PInv fx st'.
+Proof.
+  intros HP Hn HK Hfz [A A' B C D Al E]. pose proof HP as HP0. unfold pPI in HP0. injection HP0 as H1 H2 H3 H4 H5.
+  assert (Pk: forall pe, In pe (s_pool st') -> notpk (p_rpc pe) = false -> In pe (s_pool st)).
+  { intros pe Hpe N. destruct (HK pe Hpe) as [K|K]; [exact K|congruence]. }
+  assert (N1: forall pe, k_kind (p_rpc pe) = K_PackTracts -> notpk (p_rpc pe) = false) by (intros pe K; unfold notpk, notpeg; rewrite K; reflexivity).
+  assert (N2: forall pe, k_kind (p_rpc pe) = K_RSEncode -> notpk (p_rpc pe) = false) by (intros pe K; unfold notpk, notpeg; rewrite K; reflexivity).
+  assert (N3: forall pe, k_kind (p_rpc pe) = K_GCTract -> notpk (p_rpc pe) = false) by (intros pe K; unfold notpk, notpeg; rewrite K; reflexivity).
+  assert (N4: forall pe, k_kind (p_rpc pe) = K_Alloc -> notpk (p_rpc pe) = false) by (intros pe K; unfold notpk, notpeg; rewrite K; reflexivity).
+  constructor; rewrite ?H1, ?Hn.
+  - exact A.
+  - exact A'.
+  - exact B.
+  - intros pe Hpe [K|K]; [apply C; [apply Pk; [exact Hpe|exact (N1 pe K)]|left; exact K]|apply C; [apply Pk; [exact Hpe|exact (N2 pe K)]|right; exact K]].
+  - intros pe Hpe K. apply D; [apply Pk; [exact Hpe|exact (N3 pe K)]|exact K].
+  - intros pe Hpe K. apply Al; [apply Pk; [exact Hpe|exact (N4 pe K)]|exact K].
+  - intros r Hr. destruct (E r Hr) as [Q1 Q2 Q3 Q4 Q5 Q6 Q7 Q8]. constructor; rewrite ?Hn.
+    + exact Q1.
+    + exact Q2.
+    + intros pe e Hpe O K. apply Q3; [apply Pk; [exact Hpe|exact (N1 pe K)]|exact O|exact K].
+    + intros pe1 pe2 P1 P2 O1 O2 K1 K2. apply Q4; try assumption; apply Pk; try assumption; [exact (N1 pe1 K1)|exact (N1 pe2 K2)].
+    + intros pe e Hpe O K. apply Q5; [apply Pk; [exact Hpe|exact (N2 pe K)]|exact O|exact K].
+    + intros p h s Hp Zs. destruct (Q6 p h s Hp Zs) as [rep [Rg Sl]]. exists rep. rewrite H3, (stamp_of_pPI st st' h (pt_tk p) HP). auto.
+    + intros e i He Lv tk off len Ni Ps. destruct (Q7 e i He Lv tk off len Ni Ps) as [app [tgt [Pg Sr]]]. exists app, tgt. rewrite H2.
+      split; [exact Pg|]. apply (src_transfer fx st st'); [exact HP| |exact Sr]. intros p h Hp. apply (Hfz r); assumption.
+    + exact Q8.
+Qed.
+
+Lemma frozen_dstep st st' p h app : s_reps st' = s_reps st -> ptr_ok (s_dtr st) p -> dstep (s_dtr st) (s_dtr st') ->
+  frozen st p h app -> frozen st' p h app.
+Proof.
+  intros Hr [d [Dg [Dv _]]] Ds [F|No]; [left; rewrite Hr; exact F|right].
+  intros [d' [Dg' [Dv' Dr']]]. apply No. destruct (Ds _ _ Dg) as [d2 [D2 [V2 K2]]]. unfold dget in Dg'. rewrite Dg' in D2. injection D2 as <-.
+  exists d. split; [exact Dg|]. split; [lia|exact (proj1 (K2 Dr'))].
+Qed.
+
+Lemma frozen_same st st' p h app : s_reps st' = s_reps st -> s_dtr st' = s_dtr st -> frozen st p h app -> frozen st' p h app.
+Proof. intros Hr Hd. unfold frozen, dget. rewrite Hr, Hd. auto. Qed.
+
+Definition pPJ (st : state) := (pPI st, s_nextchunk st, s_dtr st).
+
+Lemma PInv_pPJ_NK fx st st' : pPJ st' = pPJ st -> NK st st' -> PInv fx st -> PInv fx st'.
+Proof.
+  unfold pPJ. intros H HK.
+  assert (H1: pPI st' = pPI st) by (exact (f_equal (fun x => fst (fst x)) H)).
+  assert (H2: s_nextchunk st' = s_nextchunk st) by (exact (f_equal (fun x => snd (fst x)) H)).
+  assert (H3: s_dtr st' = s_dtr st) by (exact (f_equal snd H)).
+  apply PInv_sub; [exact H1|exact H2|exact HK|].
+  intros r p h app _ _. apply frozen_same; [|exact H3]. exact (f_equal (fun x => snd (fst (fst x))) H1).
+Qed.
+
+Lemma PInv_rm fx st pe : PInv fx st -> PInv fx (rm_pool st pe).
+Proof. apply PInv_pPJ_NK; [reflexivity|]. apply NKr_remove. apply NK_refl. Qed.
+
+Lemma PInv_cli_reply fx st op r res en : PInv fx st -> PInv fx (cli_reply fx st op r res en).
+Proof. apply PInv_pPJ_NK; [apply (fr_cli_reply _ pPJ); fr|apply NKr_cli_reply; apply NK_refl]. Qed.
+
+Lemma PInv_start_fix fx st g tk c b rid : PInv fx st -> PInv fx (start_fix fx st g tk c b rid).
+Proof. apply PInv_pPJ_NK; [apply (fr_start_fix _ pPJ); fr|apply NKr_start_fix; apply NK_refl]. Qed.
+
+Lemma PInv_fix_reply fx st id err : DInv st -> PInv fx st -> PInv fx (fix_reply fx st id err).
+Proof.
+  intros HD. apply PInv_sub.
+  - apply (fr_fix_reply _ pPI); fr.
+  - unfold fix_reply. destruct (find_fix _ _) as [f|]; [|reflexivity].
+    destruct (negb _); [rewrite (fr_wake _ s_nextchunk), (fr_finish_fix _ s_nextchunk) by fr; reflexivity|].
+    destruct (1 <? f_wait f); [reflexivity|].
+    assert (Q: s_nextchunk (fst (change_tract st (f_term f) (f_tk f) (f_dv f + 1) (f_hosts f))) = s_nextchunk st).
+    { unfold change_tract. repeat match goal with |- context [if ?b then _ else _] => destruct b | |- context [match ?x with _ => _ end] => destruct x end; reflexivity. }
+    destruct (change_tract _ _ _ _ _) as [s1 e]. cbn [fst] in Q. rewrite (fr_wake _ s_nextchunk), (fr_finish_fix _ s_nextchunk) by fr. exact Q.
+  - apply NKr_fix_reply. apply NK_refl.
+  - intros r p h app Hr Hp. apply frozen_dstep.
+    + apply (fr_fix_reply _ s_reps); fr.
+    + exact (dv_rounds _ HD r p Hr Hp).
+    + (* the durable records only move forward *)
+      unfold fix_reply. destruct (find_fix _ _) as [f|] eqn:Ff; [|apply dstep_refl].
+      destruct (negb _); [rewrite (fr_wake _ s_dtr), (fr_finish_fix _ s_dtr) by fr; apply dstep_refl|].
+      destruct (1 <? f_wait f); [apply dstep_refl|].
+      assert (S: dstep (s_dtr st) (s_dtr (fst (change_tract st (f_term f) (f_tk f) (f_dv f + 1) (f_hosts f))))).
+      { apply dstep_change_tract. intros d D N. destruct (dv_fix _ HD f (find_fix_in _ _ _ Ff)) as [K|[d0 [D0 K]]]; [left; exact K|right].
+        unfold dget in D. rewrite D in D0. injection D0 as <-. auto. }
+      destruct (change_tract _ _ _ _ _) as [s1 e]. cbn [fst] in S. rewrite (fr_wake _ s_dtr), (fr_finish_fix _ s_dtr) by fr. exact S.
+Qed.
+
+(* ------------------------------------------------------------------ slot bookkeeping of encPack *)
+Lemma zget_none_notin (m : list (Z * Z)) k : zget m k = None <-> ~ In k (map fst m).
+Proof.
+  induction m as [|[a b] m IH]; cbn; [tauto|]. destruct (k =? a) eqn:E.
+  - apply Z.eqb_eq in E. subst. split; [discriminate|intros H; exfalso; apply H; left; reflexivity].
+  - apply Z.eqb_neq in E. rewrite IH. split; [intros H [K|K]; [congruence|contradiction]|intros H K; apply H; right; exact K].
+Qed.
+
+Lemma zget_in_some (m : list (Z * Z)) k : In k (map fst m) -> exists v, zget m k = Some v.
+Proof. intros H. destruct (zget m k) as [v|] eqn:E; [eauto|]. apply zget_none_notin in E. contradiction. Qed.
+
+Lemma pigeon (l : list Z) n : NoDup l -> (forall x, In x l -> 0 <= x < n) -> Z.of_nat (length l) = n -> forall i, 0 <= i < n -> In i l.
+Proof.
+  intros N B L i Hi. set (u := map Z.of_nat (seq 0 (Z.to_nat n))).
+  assert (Hinc: incl l u). { intros x Hx. specialize (B x Hx). unfold u. apply in_map_iff. exists (Z.to_nat x). split; [lia|apply in_seq; lia]. }
+  assert (Hlen: (length u <= length l)%nat) by (unfold u; rewrite map_length, seq_length; lia).
+  apply (NoDup_length_incl N Hlen Hinc). unfold u. apply in_map_iff. exists (Z.to_nat i). split; [lia|apply in_seq; lia].
+Qed.
+
+Lemma last_err_ok errs n : last_err errs n = cl_NoError -> forall i v, 0 <= i < n -> zget errs i = Some v -> v = cl_NoError.
+Proof.
+  unfold last_err. intros H i v Hi Hz.
+  assert (G: forall l acc, fold_left (fun acc i => match zget errs (Z.of_nat i) with Some e => if e =? cl_NoError then acc else e | None => acc end) l acc = cl_NoError ->
+             acc = cl_NoError /\ forall k, In k l -> forall w, zget errs (Z.of_nat k) = Some w -> w = cl_NoError).
+  { induction l as [|a l IH]; intros acc Hf; cbn [fold_left] in Hf; [split; [exact Hf|intros k []]|].
+    destruct (IH _ Hf) as [Ha Hl]. destruct (zget errs (Z.of_nat a)) as [ea|] eqn:Ea.
+    - destruct (ea =? cl_NoError) eqn:Ee.
+      + split; [exact Ha|]. intros k [->|Hk] w Hw; [rewrite Ea in Hw; injection Hw as <-; apply Z.eqb_eq; exact Ee|exact (Hl k Hk w Hw)].
+      + exfalso. rewrite Ha in Ee. vm_compute in Ee. discriminate.
+    - split; [exact Ha|]. intros k [->|Hk] w Hw; [congruence|exact (Hl k Hk w Hw)]. }
+  destruct (G _ _ H) as [_ Hl]. apply (Hl (Z.to_nat i)); [apply in_seq; lia|]. rewrite Z2Nat.id by lia. exact Hz.
+Qed.
+
+(* ------------------------------------------------------------------ one encode operation of a round changes (phase 3) *)
+Definition pST (st : state) := (s_pieces st, s_reps st, s_stamps st, s_epoch st, s_dtr st, s_nextchunk st).
+
+Lemma stamp_of_pST st st' ts tk : pST st' = pST st -> stamp_of st' ts tk = stamp_of st ts tk.
+Proof. unfold pST. intros H. injection H as _ _ H3 H4 _ _. unfold stamp_of, epoch_of. rewrite H3, H4. reflexivity. Qed.
+
+Lemma src_pST fx st st' r e tk app : pST st' = pST st -> src fx st r e tk app -> src fx st' r e tk app.
+Proof.
+  intros HP [p [h0 [s0 [rep [Fp [Hf [Zs [Rg [Ca [C5 C4]]]]]]]]]]. pose proof (stamp_of_pST st st' h0 tk HP) as Es.
+  unfold pST in HP. injection HP as _ H2 _ _ H5 _.
+  assert (Fz: forall a, frozen st p h0 a -> frozen st' p h0 a) by (intros a; apply frozen_same; assumption).
+  exists p, h0, s0, rep. rewrite H2, Es. repeat split; try assumption; intros; apply Fz; auto.
+Qed.
+
+Section PUpd.
+Variables (fx : fixes) (st st' : state) (r : round) (pe : pent) (e e' : encop) (dn : Z) (added : list pent).
+Let r' := upd_r r e' dn.
+Hypothesis HR1 : RInv1 fx st r.
+Hypothesis HP1 : PR1 fx st r.
+Hypothesis Hatt : att_enc r (p_rpc pe) = Some e.
+Hypothesis N9 : e_stage e <> 9.
+Hypothesis Sh : same_shape e e'.
+Hypothesis HST : pST st' = pST st.
+Hypothesis Hpool : forall x, In x (s_pool st') -> (In x (s_pool st) /\ x <> pe) \/ In x added.
+Hypothesis Hadd_np : forall x, In x added -> k_kind (p_rpc x) <> K_PackTracts.
+Hypothesis Hadd_enc : forall x, In x added -> k_kind (p_rpc x) = K_RSEncode ->
+  p_rpc x = mk_encode (rd_gen r) (nth (Z.to_nat RS_N) (e_hosts e) 0) (e_base e).
+Hypothesis Hpack' : forall x, In x (s_pool st) -> x <> pe -> p_owner x = rd_op r -> k_kind (p_rpc x) = K_PackTracts -> att_enc r (p_rpc x) = Some e ->
+  exists i, 0 <= i < RS_N /\ p_rpc x = mk_pack (rd_gen r) (nth (Z.to_nat i) (e_hosts e) 0) (e_base e + i) /\ zget (e_errs e') i = None.
+Hypothesis Hpiece' : live e' -> forall i, piece_ok fx st' r' e' i.
+Hypothesis Hfill' : e_stage e' = 2 ->
+  Z.of_nat (length (e_errs e')) + e_wait e' = RS_N /\ NoDup (map fst (e_errs e')) /\ forall i v, In (i, v) (e_errs e') -> 0 <= i < RS_N.
+
+Let He : In e (rd_encs r) := att_enc_in _ _ _ Hatt.
+Let W : wf_t (rd_encs r) := fun e1 e2 tk H1 H2 => ri_wft _ _ _ HR1 e1 e2 tk H1 H2.
+
+Lemma pu_att x e2 : In e2 (rd_encs r') -> att_enc r' (p_rpc x) = Some e2 ->
+  (e2 = e' /\ att_enc r (p_rpc x) = Some e) \/ (e_base e2 <> e_base e' /\ In e2 (rd_encs r) /\ att_enc r (p_rpc x) = Some e2).
+Proof.
+  intros H2 A. destruct (att_enc_upd_base r e e' dn _ e2 W He Sh N9 A) as [y0 [A0 B0]].
+  destruct (ue_orig r pe e e' dn Hatt Sh e2 H2) as [e0 [H0 [Bb [_ [O1 O2]]]]].
+  pose proof (att_enc_in _ _ _ A0) as Hy0.
+  destruct (Z.eq_dec (e_base e2) (e_base e')) as [Eb|Eb].
+  - left. split; [exact (O2 Eb)|]. assert (y0 = e); [|subst; exact A0].
+    apply (nodup_base_eq (rd_encs r)); [exact (ri_nodupb _ _ _ HR1)|exact Hy0|exact He|]. destruct Sh as [Sb _]. congruence.
+  - right. split; [exact Eb|]. rewrite (O1 Eb) in H0. split; [exact H0|]. assert (y0 = e2); [|subst; exact A0].
+    apply (nodup_base_eq (rd_encs r)); [exact (ri_nodupb _ _ _ HR1)|exact Hy0|exact H0|exact B0].
+Qed.
+
+Lemma PR1_upd : PR1 fx st' r'.
+Proof.
+  pose proof Sh as [Sb [Sc Shh]]. pose proof HST as HST0. unfold pST in HST0. injection HST0 as S1 S2 S3 S4 S5 S6.
+  destruct HP1 as [Q1 Q2 Q3 Q4 Q5 Q6 Q7 Q8].
+  assert (Old: forall x, In x (s_pool st') -> k_kind (p_rpc x) = K_PackTracts -> In x (s_pool st) /\ x <> pe).
+  { intros x Hx K. destruct (Hpool x Hx) as [O|A]; [exact O|]. exfalso. exact (Hadd_np x A K). }
+  constructor.
+  - intros e2 H2. destruct (ue_orig r pe e e' dn Hatt Sh e2 H2) as [e0 [H0 [Bb _]]]. rewrite S6, <- Bb. exact (Q1 e0 H0).
+  - intros e2 H2 L2. destruct (ue_orig r pe e e' dn Hatt Sh e2 H2) as [e0 [H0 [Bb [_ [O1 O2]]]]].
+    destruct (Z.eq_dec (e_base e2) (e_base e')) as [Eb|Eb].
+    + rewrite (O2 Eb). rewrite Sc, Shh. exact (Q2 e He N9).
+    + rewrite (O1 Eb) in H0. exact (Q2 e2 H0 L2).
+  - intros x e2 Hx O K A. destruct (Old x Hx K) as [Hx0 Nx].
+    assert (H2: In e2 (rd_encs r')) by exact (att_enc_in _ _ _ A).
+    destruct (pu_att x e2 H2 A) as [[-> A0]|[_ [_ A0]]].
+    + destruct (Hpack' x Hx0 Nx O K A0) as [i [Hi [Er Ez]]]. exists i. rewrite Shh, Sb. auto.
+    + exact (Q3 x e2 Hx0 O K A0).
+  - intros x1 x2 H1 H2 O1 O2 K1 K2 C. destruct (Old x1 H1 K1), (Old x2 H2 K2). apply Q4; assumption.
+  - intros x e2 Hx O K A. assert (H2: In e2 (rd_encs r')) by exact (att_enc_in _ _ _ A).
+    destruct (Hpool x Hx) as [[Hx0 _]|Ha].
+    + destruct (pu_att x e2 H2 A) as [[-> A0]|[_ [_ A0]]]; [rewrite Shh, Sb; exact (Q5 x e Hx0 O K A0)|exact (Q5 x e2 Hx0 O K A0)].
+    + pose proof (Hadd_enc x Ha K) as Er. rewrite Er in A. unfold att_enc in A. cbn [k_kind mk_encode mk_rpc Cluster.Model.k_kind] in A. cbn [orb Z.eqb] in A.
+      change (nth 1 (k_aux (mk_encode (rd_gen r) (nth (Z.to_nat RS_N) (e_hosts e) 0) (e_base e))) 0) with (e_base e) in A.
+      unfold r' in A. rewrite (att_chunk_upd_self fx st r e e' dn HR1 He Sh) in A. injection A as <-. rewrite Shh, Sb. exact Er.
+  - intros p h s Hp Zs. destruct (Q6 p h s Hp Zs) as [rep [Rg Sl]]. exists rep. rewrite S2, (stamp_of_pST st st' h (pt_tk p) HST). auto.
+  - intros e2 i H2 L2. destruct (ue_orig r pe e e' dn Hatt Sh e2 H2) as [e0 [H0 [Bb [_ [O1 O2]]]]].
+    destruct (Z.eq_dec (e_base e2) (e_base e')) as [Eb|Eb]; [rewrite (O2 Eb) in *; exact (Hpiece' L2 i)|].
+    rewrite (O1 Eb) in H0. intros tk off len Ni Ps. destruct (Q7 e2 i H0 L2 tk off len Ni Ps) as [app [tgt [Pg Sr]]].
+    exists app, tgt. rewrite S1. split; [exact Pg|]. exact (src_pST fx st st' r e2 tk app HST Sr).
+  - intros e2 H2 S2'. destruct (ue_orig r pe e e' dn Hatt Sh e2 H2) as [e0 [H0 [Bb [_ [O1 O2]]]]].
+    destruct (Z.eq_dec (e_base e2) (e_base e')) as [Eb|Eb]; [rewrite (O2 Eb) in *; exact (Hfill' S2')|].
+    rewrite (O1 Eb) in H0. exact (Q8 e2 H0 S2').
+Qed.
+End PUpd.
+
+(* ------------------------------------------------------------------ assembling the global invariant after a round moved *)
+Lemma PR1_other fx st st' r2 : pST st' = pST st ->
+  (forall x, In x (s_pool st') -> p_owner x = rd_op r2 -> In x (s_pool st)) ->
+  PR1 fx st r2 -> PR1 fx st' r2.
+Proof.
+  intros HST Hp [Q1 Q2 Q3 Q4 Q5 Q6 Q7 Q8]. pose proof HST as HST0. unfold pST in HST0. injection HST0 as S1 S2 S3 S4 S5 S6.
+  constructor; rewrite ?S6; try assumption.
+  - intros x e Hx O. apply Q3; [exact (Hp x Hx O)|exact O].
+  - intros x1 x2 H1 H2 O1 O2. apply Q4; auto.
+  - intros x e Hx O. apply Q5; [exact (Hp x Hx O)|exact O].
+  - intros p h s Hp0 Zs. destruct (Q6 p h s Hp0 Zs) as [rep [Rg Sl]]. exists rep. rewrite S2, (stamp_of_pST st st' h (pt_tk p) HST). auto.
+  - intros e i He L tk off len Ni Ps. destruct (Q7 e i He L tk off len Ni Ps) as [app [tgt [Pg Sr]]]. exists app, tgt. rewrite S1.
+    split; [exact Pg|exact (src_pST fx st st' r2 e tk app HST Sr)].
+Qed.
+
+Lemma gen_eq_round (l : list round) r1 r2 : NoDup (map rd_gen l) -> In r1 l -> In r2 l -> rd_gen r1 = rd_gen r2 -> r1 = r2.
+Proof.
+  induction l as [|z l IH]; cbn; [intros _ []|]. intros N H1 H2 E. inversion N as [|? ? N1 N2]; subst.
+  destruct H1 as [->|H1], H2 as [->|H2]; auto.
+  - exfalso. apply N1. rewrite E. apply in_map. exact H2.
+  - exfalso. apply N1. rewrite <- E. apply in_map. exact H1.
+Qed.
+
+Lemma op_eq_round (l : list round) r1 r2 : NoDup (map rd_op l) -> In r1 l -> In r2 l -> rd_op r1 = rd_op r2 -> r1 = r2.
+Proof.
+  induction l as [|z l IH]; cbn; [intros _ []|]. intros N H1 H2 E. inversion N as [|? ? N1 N2]; subst.
+  destruct H1 as [->|H1], H2 as [->|H2]; auto.
+  - exfalso. apply N1. rewrite E. apply in_map. exact H2.
+  - exfalso. apply N1. rewrite <- E. apply in_map. exact H1.
+Qed.
+
+Lemma map_upd_round {A} (g : round -> A) l r' r : NoDup (map rd_op l) -> In r l -> rd_op r' = rd_op r -> g r' = g r ->
+  map g (upd_round l r') = map g l.
+Proof.
+  intros N Hr Eo Eg. unfold upd_round. rewrite map_map. apply map_ext_in. intros x Hx.
+  destruct (rd_op x =? rd_op r') eqn:E; [|reflexivity]. apply Z.eqb_eq in E.
+  assert (x = r) by (apply (op_eq_round l); [exact N|exact Hx|exact Hr|congruence]). subst x. exact Eg.
+Qed.
+
+Lemma NoDup_map_filter_gen (l : list round) f : NoDup (map rd_gen l) -> NoDup (map rd_gen (filter f l)).
+Proof. apply nodup_map_filter. Qed.
+
+Lemma in_upd_round_other l r' x : In x l -> rd_op x <> rd_op r' -> In x (upd_round l r').
+Proof.
+  intros H K. unfold upd_round. apply in_map_iff. exists x. split; [|exact H].
+  replace (rd_op x =? rd_op r') with false by (symmetry; apply Z.eqb_neq; exact K). reflexivity.
+Qed.
+
+Section Assemble.
+Variables (fx : fixes) (st st' : state) (r r' : round) (pe : pent) (added : list pent).
+Hypothesis HP : PInv fx st.
+Hypothesis HR : RInv fx st.
+Hypothesis Hr : In r (s_rounds st).
+Hypothesis Eop : rd_op r' = rd_op r.
+Hypothesis Egen : rd_gen r' = rd_gen r.
+Hypothesis HST : pST st' = pST st.
+Hypothesis Hrounds : s_rounds st' = upd_round (s_rounds st) r' \/ s_rounds st' = del_round (s_rounds st) (rd_op r).
+Hypothesis Hdel : s_rounds st' = del_round (s_rounds st) (rd_op r) ->
+  forall x, In x (s_pool st') -> p_owner x = rd_op r -> k_kind (p_rpc x) <> K_PackTracts /\ k_kind (p_rpc x) <> K_RSEncode.
+Hypothesis Hpool : forall x, In x (s_pool st') -> (In x (s_pool st) /\ x <> pe) \/ In x added.
+Hypothesis Hadd_owner : forall x, In x added -> p_owner x = rd_op r \/ (p_owner x = 0 /\ k_kind (p_rpc x) = K_GCTract).
+Hypothesis Hadd_gc : forall x, In x added -> k_kind (p_rpc x) = K_GCTract ->
+  exists e, In e (rd_encs r) /\ in_range e (chunk_of (p_rpc x)) = true /\ forall e2, In e2 (rd_encs r') -> live e2 -> e_base e2 <> e_base e.
+Hypothesis Hbases : forall e2, In e2 (rd_encs r') -> exists e0, In e0 (rd_encs r) /\ e_base e0 = e_base e2 /\ (live e2 -> live e0).
+Hypothesis Hadd_alloc : forall x, In x added -> k_kind (p_rpc x) = K_Alloc -> 0 <= nth 0 (k_aux (p_rpc x)) 0.
+Hypothesis HPR : s_rounds st' = upd_round (s_rounds st) r' -> PR1 fx st' r'.
+
+Lemma as_round r2 : In r2 (s_rounds st') -> (r2 = r' /\ s_rounds st' = upd_round (s_rounds st) r') \/ (In r2 (s_rounds st) /\ rd_op r2 <> rd_op r).
+Proof.
+  intros H2. destruct Hrounds as [Hu|Hd]; rewrite ?Hu, ?Hd in H2.
+  - destruct (Z.eq_dec (rd_op r2) (rd_op r)) as [E|E].
+    + left. split; [|exact Hu]. apply (upd_round_own _ _ _ H2). congruence.
+    + right. apply in_upd_round in H2. destruct H2 as [H2|H2]; [auto|]. subst r2. congruence.
+  - right. unfold del_round in H2. apply filter_In in H2. destruct H2 as [H2 N]. split; [exact H2|]. apply negb_true_iff, Z.eqb_neq in N. exact N.
+Qed.
+
+Lemma as_old r2 e2 : In r2 (s_rounds st') -> In e2 (rd_encs r2) ->
+  exists ro eo, In ro (s_rounds st) /\ In eo (rd_encs ro) /\ rd_gen ro = rd_gen r2 /\ e_base eo = e_base e2 /\ (live e2 -> live eo) /\
+                (ro = r -> r2 = r').
+Proof.
+  intros H2 He2. destruct (as_round r2 H2) as [[-> _]|[Ho No]].
+  - destruct (Hbases e2 He2) as [e0 [H0 [B0 L0]]]. exists r, e0. repeat split; auto.
+  - exists r2, e2. repeat split; auto. intros ->. contradiction.
+Qed.
+
+Lemma PInv_assemble : PInv fx st'.
+Proof.
+  pose proof HP as [A A' B C D Al E]. pose proof HST as HST0. unfold pST in HST0. injection HST0 as S1 S2 S3 S4 S5 S6.
+  constructor.
+  - destruct Hrounds as [Hu|Hd]; rewrite ?Hu, ?Hd; [rewrite (map_upd_round rd_gen _ r' r A' Hr Eop Egen); exact A|apply nodup_map_filter; exact A].
+  - destruct Hrounds as [Hu|Hd]; rewrite ?Hu, ?Hd; [rewrite (map_upd_round rd_op _ r' r A' Hr Eop Eop); exact A'|apply nodup_map_filter; exact A'].
+  - intros r1 r2 e1 e2 c H1 H2 He1 He2 C1 C2.
+    destruct (as_old r1 e1 H1 He1) as [r1o [e1o [G1 [G2 [G3 [G4 _]]]]]]. destruct (as_old r2 e2 H2 He2) as [r2o [e2o [K1 [K2 [K3 [K4 _]]]]]].
+    rewrite <- G3, <- K3. apply (B r1o r2o e1o e2o c G1 K1 G2 K2); [rewrite (in_range_shape e1 e1o c G4)|rewrite (in_range_shape e2 e2o c K4)]; assumption.
+  - intros x Hx Kx.
+    assert (Own: exists r0, In r0 (s_rounds st) /\ p_owner x = rd_op r0).
+    { destruct (Hpool x Hx) as [[Hx0 _]|Ha]; [exact (C x Hx0 Kx)|].
+      destruct (Hadd_owner x Ha) as [O|[_ K]]; [exists r; auto|]. exfalso. destruct Kx as [Kx|Kx]; rewrite Kx in K; vm_compute in K; discriminate. }
+    destruct Own as [r0 [H0 O0]]. destruct (Z.eq_dec (rd_op r0) (rd_op r)) as [E0|E0].
+    + destruct Hrounds as [Hu|Hd].
+      * exists r'. split; [rewrite Hu; apply (in_upd_round_self _ r r' Hr); congruence|congruence].
+      * exfalso. destruct (Hdel Hd x Hx ltac:(congruence)) as [N1 N2]. destruct Kx; contradiction.
+    + exists r0. split; [|exact O0]. destruct Hrounds as [Hu|Hd]; rewrite ?Hu, ?Hd.
+      * apply in_upd_round_other; [exact H0|congruence].
+      * unfold del_round. apply filter_In. split; [exact H0|]. apply negb_true_iff, Z.eqb_neq. exact E0.
+  - intros x Hx Kx. rewrite S6. destruct (Hpool x Hx) as [[Hx0 _]|Ha].
+    + destruct (D x Hx0 Kx) as [D1 D2]. split; [exact D1|]. intros r2 e2 H2 He2 L2.
+      destruct (as_old r2 e2 H2 He2) as [ro [eo [G1 [G2 [_ [G4 [G5 _]]]]]]]. rewrite <- (in_range_shape e2 eo _ G4). exact (D2 ro eo G1 G2 (G5 L2)).
+    + destruct (Hadd_gc x Ha Kx) as [e [He [Ir Hne]]]. pose proof (pi_ch _ _ _ (E r Hr) e He) as Ch. split.
+      * unfold in_range in Ir. apply andb_true_iff in Ir. destruct Ir as [_ Ir]. apply Z.ltb_lt in Ir. lia.
+      * intros r2 e2 H2 He2 L2. destruct (in_range e2 (chunk_of (p_rpc x))) eqn:I2; [|reflexivity]. exfalso.
+        destruct (as_old r2 e2 H2 He2) as [ro [eo [G1 [G2 [G3 [G4 [G5 G6]]]]]]].
+        assert (Io: in_range eo (chunk_of (p_rpc x)) = true) by (rewrite (in_range_shape e2 eo _ G4); exact I2).
+        pose proof (B ro r eo e _ G1 Hr G2 He Io Ir) as Eg.
+        assert (ro = r) by (apply (gen_eq_round (s_rounds st)); assumption). subst ro.
+        pose proof (ri_wfc _ _ _ (rv_rounds _ _ HR r Hr) eo e _ G2 He Io Ir) as Eb.
+        rewrite (G6 eq_refl) in He2. apply (Hne e2 He2 L2). congruence.
+  - intros x Hx Kx. destruct (Hpool x Hx) as [[Hx0 _]|Ha]; [exact (Al x Hx0 Kx)|exact (Hadd_alloc x Ha Kx)].
+  - intros r2 H2. destruct (as_round r2 H2) as [[-> Hu]|[Ho No]]; [exact (HPR Hu)|].
+    apply (PR1_other fx st st' r2 HST); [|exact (E r2 Ho)].
+    intros x Hx O. destruct (Hpool x Hx) as [[Hx0 _]|Ha]; [exact Hx0|]. exfalso.
+    destruct (Hadd_owner x Ha) as [O2|[O2 _]]; [congruence|]. pose proof (ri_pos _ _ _ (rv_rounds _ _ HR r2 Ho)). lia.
+Qed.
+End Assemble.
+
+(* ------------------------------------------------------------------ phase-3 transitions *)
+Lemma piece_ok_pST fx st s' r e i : pST s' = pST st -> piece_ok fx st r e i -> piece_ok fx s' r e i.
+Proof.
+  intros HST H tk off len Ni Ps. destruct (H tk off len Ni Ps) as [app [tgt [Pg Sr]]]. exists app, tgt.
+  pose proof HST as H0. unfold pST in H0. injection H0 as S1 _ _ _ _ _. rewrite S1. split; [exact Pg|exact (src_pST fx st s' r e tk app HST Sr)].
+Qed.
+
+Lemma in_mk_ents_rpc n rs x : In x (mk_ents n rs) -> In (p_rpc x, p_owner x) rs. Proof. apply mk_ents_in. Qed.
+
+Lemma pST_issue_all rs : forall s, pST (issue_all s rs) = pST s.
+Proof. induction rs as [|[a b] l IH]; intros s; cbn [issue_all fold_left]; [reflexivity|]. unfold issue_all in IH. rewrite IH. reflexivity. Qed.
+
+Lemma gc_list_in g b hosts : forall i0 rp o, In (rp, o) (gc_list g b i0 hosts) ->
+  o = 0 /\ exists i h, i0 <= i < i0 + Z.of_nat (length hosts) /\ rp = mk_del g h (b + i).
+Proof.
+  induction hosts as [|h t IH]; intros i0 rp o; cbn [gc_list length]; [intros []|]. intros [H|H].
+  - injection H as <- <-. split; [reflexivity|]. exists i0, h. split; [lia|reflexivity].
+  - destruct (IH (i0 + 1) rp o H) as [E [i [h' [Hi Er]]]]. split; [exact E|]. exists i, h'. split; [lia|exact Er].
+Qed.
+
+Section PP3.
+Variables (fx : fixes) (st : state) (pe : pent) (r : round) (e : encop).
+Hypothesis HP : PInv fx st.
+Hypothesis HR : RInv fx st.
+Hypothesis Hpe : In pe (s_pool st).
+Hypothesis Hown : p_owner pe = rd_op r.
+Hypothesis Hr : In r (s_rounds st).
+Hypothesis Hph : rd_phase r = 3.
+Hypothesis Hatt : att_enc r (p_rpc pe) = Some e.
+Hypothesis N9 : e_stage e <> 9.
+Let st1 := rm_pool st pe.
+Let R1 : RInv1 fx st r := rv_rounds _ _ HR r Hr.
+Let P1 : PR1 fx st r := pv_rounds _ _ HP r Hr.
+Let He : In e (rd_encs r) := att_enc_in _ _ _ Hatt.
+
+Lemma pp_upd e' dn rs :
+  same_shape e e' ->
+  (forall rp o, In (rp, o) rs -> o = rd_op r /\ k_kind rp <> K_PackTracts /\ k_kind rp <> K_GCTract /\ k_kind rp <> K_Alloc /\
+     (k_kind rp = K_RSEncode -> rp = mk_encode (rd_gen r) (nth (Z.to_nat RS_N) (e_hosts e) 0) (e_base e))) ->
+  (forall x, In x (s_pool st) -> x <> pe -> p_owner x = rd_op r -> k_kind (p_rpc x) = K_PackTracts -> att_enc r (p_rpc x) = Some e ->
+     exists i, 0 <= i < RS_N /\ p_rpc x = mk_pack (rd_gen r) (nth (Z.to_nat i) (e_hosts e) 0) (e_base e + i) /\ zget (e_errs e') i = None) ->
+  (live e' -> forall i, piece_ok fx st (upd_r r e' dn) e' i) ->
+  (e_stage e' = 2 -> Z.of_nat (length (e_errs e')) + e_wait e' = RS_N /\ NoDup (map fst (e_errs e')) /\ forall i v, In (i, v) (e_errs e') -> 0 <= i < RS_N) ->
+  PInv fx (issue_all (set_rounds st1 (upd_round (s_rounds st1) (upd_r r e' dn))) rs).
+Proof.
+  intros Sh Hrs Hpack' Hpiece' Hfill'.
+  set (s0 := set_rounds st1 (upd_round (s_rounds st1) (upd_r r e' dn))).
+  destruct (issue_all_spec rs s0) as [Q1 [Q2 Q3]]. unfold pO in Q3. injection Q3 as O1 O2 O3 O4 O5.
+  assert (HST: pST (issue_all s0 rs) = pST st) by (rewrite pST_issue_all; reflexivity).
+  assert (Hpool: forall x, In x (s_pool (issue_all s0 rs)) -> (In x (s_pool st) /\ x <> pe) \/ In x (mk_ents (s_next s0) rs)).
+  { intros x Hx. rewrite Q1 in Hx. apply in_app_or in Hx. destruct Hx as [Hx|Hx]; [left|right; exact Hx].
+    cbn in Hx. apply in_pool_remove in Hx. destruct Hx as [Hx Nx]. split; [exact Hx|]. intros ->. apply Nx. reflexivity. }
+  apply (PInv_assemble fx st (issue_all s0 rs) r (upd_r r e' dn) pe (mk_ents (s_next s0) rs) HP HR Hr eq_refl eq_refl HST).
+  - left. rewrite O5. reflexivity.
+  - intros Hd. exfalso. rewrite O5 in Hd. cbn [s_rounds s0 set_rounds st1 rm_pool set_pool] in Hd.
+    assert (In (upd_r r e' dn) (upd_round (s_rounds st) (upd_r r e' dn))) by (apply (in_upd_round_self _ r _ Hr); reflexivity).
+    rewrite Hd in H. unfold del_round in H. apply filter_In in H. destruct H as [_ H]. cbn [rd_op upd_r rd_set] in H. rewrite Z.eqb_refl in H. discriminate.
+  - exact Hpool.
+  - intros x Hx. left. apply mk_ents_in in Hx. exact (proj1 (Hrs _ _ Hx)).
+  - intros x Hx K. exfalso. apply mk_ents_in in Hx. destruct (Hrs _ _ Hx) as [_ [_ [N _]]]. contradiction.
+  - intros e2 H2. destruct (ue_orig r pe e e' dn Hatt Sh e2 H2) as [e0 [H0 [Bb [_ [K1 K2]]]]]. exists e0. split; [exact H0|]. split; [exact Bb|].
+    intros L2. destruct (Z.eq_dec (e_base e2) (e_base e')) as [Eb|Eb]; [|rewrite (K1 Eb); exact L2].
+    assert (e0 = e); [|subst; exact N9]. apply (nodup_base_eq (rd_encs r)); [exact (ri_nodupb _ _ _ R1)|exact H0|exact He|]. destruct Sh as [Sb _]. congruence.
+  - intros x Hx K. exfalso. apply mk_ents_in in Hx. destruct (Hrs _ _ Hx) as [_ [_ [_ [N _]]]]. contradiction.
+  - intros _. apply (PR1_upd fx st (issue_all s0 rs) r pe e e' dn (mk_ents (s_next s0) rs) R1 P1 Hatt N9 Sh HST Hpool).
+    + intros x Hx. apply mk_ents_in in Hx. exact (proj1 (proj2 (Hrs _ _ Hx))).
+    + intros x Hx K. apply mk_ents_in in Hx. exact (proj2 (proj2 (proj2 (proj2 (Hrs _ _ Hx)))) K).
+    + exact Hpack'.
+    + intros L i. apply (piece_ok_pST fx st); [exact HST|exact (Hpiece' L i)].
+    + exact Hfill'.
+Qed.
+
+Lemma pp_no_other x : bound e <= 1 -> In x (s_pool st) -> x <> pe -> p_owner x = rd_op r -> att_enc r (p_rpc x) = Some e -> False.
+Proof.
+  intros Hb Hx Nx Ox Ax.
+  assert (Hx1: In x (pool_remove (s_pool st) (p_id pe))).
+  { apply in_pool_remove. split; [exact Hx|]. intros E. apply Nx. exact (nodup_id_eq _ x pe (rv_nodup _ _ HR) Hx Hpe E). }
+  assert (Ay: att_to r e x = true) by (unfold att_to, owned; rewrite Ox, Z.eqb_refl, Ax, Z.eqb_refl; reflexivity).
+  pose proof (ue_rem_cnt fx st r pe e [] R1 Hpe Hown Hatt). pose proof (cnt_pos _ _ x Hx1 Ay). lia.
+Qed.
+
+Lemma pp_finish e1 ok : same_shape e e1 -> bound e <= 1 -> PInv fx (enc_finish st1 r e1 ok).
+Proof.
+  intros Sh1 Hb1. unfold enc_finish.
+  set (dn := if ok then rd_done r + 1 else rd_done r).
+  set (rs := if ok then [] else gc_list (rd_gen r) (e_base e1) 0 (e_hosts e1)).
+  set (sm := if ok then st1 else cleanup st1 (rd_gen r) e1).
+  assert (Esm: sm = issue_all st1 rs) by (unfold sm, rs; destruct ok; [reflexivity|apply cleanup_issue_all]).
+  change (rd_set r (rd_phase r) (rd_tracts r) (upd_enc (rd_encs r) (enc_over e1)) dn) with (upd_r r (enc_over e1) dn).
+  set (r' := upd_r r (enc_over e1) dn).
+  assert (Sh: same_shape e (enc_over e1)) by (eapply same_shape_trans; [exact Sh1|apply same_shape_over]).
+  destruct (issue_all_spec rs st1) as [Q1 [Q2 Q3]]. rewrite <- Esm in *. unfold pO in Q3. injection Q3 as O1 O2 O3 O4 O5.
+  assert (Hrs: forall rp o, In (rp, o) rs -> o = 0 /\ exists i h, 0 <= i < Z.of_nat (length (e_hosts e1)) /\ rp = mk_del (rd_gen r) h (e_base e1 + i)).
+  { unfold rs. destruct ok; [intros ? ? []|]. intros rp o Hin. destruct (gc_list_in _ _ _ _ _ _ Hin) as [E [i [h [Hi Er]]]]. split; [exact E|]. exists i, h. split; [lia|exact Er]. }
+  assert (Len: length (e_hosts e1) = Z.to_nat (RS_N + RS_M)).
+  { destruct Sh1 as [_ [_ Hh]]. rewrite Hh. exact (proj2 (pi_len _ _ _ P1 e He N9)). }
+  unfold round_check_over.
+  match goal with |- PInv fx (if ?b then ?sa else ?sb) => set (B := b); assert (HST: pST sa = pST st /\ pST sb = pST st) end.
+  { split; cbn [add_fin set_fin set_rounds]; rewrite Esm; change (pST (set_fin (set_rounds (issue_all st1 rs) _) _ _)) with (pST (issue_all st1 rs)) || idtac;
+      first [rewrite pST_issue_all; reflexivity | (change (pST (issue_all st1 rs) = pST st); rewrite pST_issue_all; reflexivity)]. }
+  destruct HST as [HSTa HSTb].
+  assert (Hpool: forall x, In x (s_pool sm) -> (In x (s_pool st) /\ x <> pe) \/ In x (mk_ents (s_next st1) rs)).
+  { intros x Hx. rewrite Q1 in Hx. apply in_app_or in Hx. destruct Hx as [Hx|Hx]; [left|right; exact Hx].
+    cbn in Hx. apply in_pool_remove in Hx. destruct Hx as [Hx Nx]. split; [exact Hx|]. intros ->. apply Nx. reflexivity. }
+  assert (Hao: forall x, In x (mk_ents (s_next st1) rs) -> p_owner x = rd_op r \/ (p_owner x = 0 /\ k_kind (p_rpc x) = K_GCTract)).
+  { intros x Hx. apply mk_ents_in in Hx. destruct (Hrs _ _ Hx) as [E [i [h [_ Er]]]]. right. rewrite E, Er. split; reflexivity. }
+  assert (Hagc: forall x, In x (mk_ents (s_next st1) rs) -> k_kind (p_rpc x) = K_GCTract ->
+            exists e0, In e0 (rd_encs r) /\ in_range e0 (chunk_of (p_rpc x)) = true /\ forall e2, In e2 (rd_encs r') -> live e2 -> e_base e2 <> e_base e0).
+  { intros x Hx _. apply mk_ents_in in Hx. destruct (Hrs _ _ Hx) as [_ [i [h [Hi Er]]]]. exists e. split; [exact He|]. split.
+    - rewrite Er. unfold chunk_of. cbn. destruct Sh1 as [Sb1 _]. rewrite Sb1. unfold in_range. rewrite Len in Hi. unfold RS_N, RS_M in *.
+      apply andb_true_iff. split; [apply Z.leb_le|apply Z.ltb_lt]; lia.
+    - intros e2 H2 L2 Eb. destruct (ue_orig r pe e (enc_over e1) dn Hatt Sh e2 H2) as [_ [_ [_ [_ [_ K2]]]]].
+      destruct Sh as [Sb _]. rewrite (K2 ltac:(congruence)) in L2. apply L2. reflexivity. }
+  assert (Hb: forall e2, In e2 (rd_encs r') -> exists e0, In e0 (rd_encs r) /\ e_base e0 = e_base e2 /\ (live e2 -> live e0)).
+  { intros e2 H2. destruct (ue_orig r pe e (enc_over e1) dn Hatt Sh e2 H2) as [e0 [H0 [Bb [_ [K1 K2]]]]]. exists e0. split; [exact H0|]. split; [exact Bb|].
+    intros L2. destruct (Z.eq_dec (e_base e2) (e_base (enc_over e1))) as [Eb|Eb]; [|rewrite (K1 Eb); exact L2].
+    exfalso. rewrite (K2 Eb) in L2. apply L2. reflexivity. }
+  destruct B eqn:EB.
+  - apply (PInv_assemble fx st _ r r' pe (mk_ents (s_next st1) rs) HP HR Hr eq_refl eq_refl HSTa).
+    + right. cbn [s_rounds add_fin set_fin set_rounds]. rewrite O5. reflexivity.
+    + intros _ x Hx Ox. cbn [s_pool add_fin set_fin set_rounds] in Hx.
+      destruct (Hpool x Hx) as [[Hx0 Nx]|Ha]; [|apply mk_ents_in in Ha; destruct (Hrs _ _ Ha) as [E0 _]; pose proof (ri_pos _ _ _ R1); lia].
+      destruct (ri_exp _ _ _ R1 x Hx0 Ox) as [[_ [P _]]|[[_ P]|[_ [ex [A [K _]]]]]]; try (rewrite Hph in P; discriminate).
+      destruct (Z.eq_dec (e_base ex) (e_base e)) as [Eb|Eb].
+      * exfalso. assert (ex = e) by (apply (nodup_base_eq (rd_encs r)); [exact (ri_nodupb _ _ _ R1)|exact (att_enc_in _ _ _ A)|exact He|exact Eb]). subst ex.
+        exact (pp_no_other x Hb1 Hx0 Nx Ox A).
+      * assert (Hex: In ex (rd_encs r')).
+        { unfold r', upd_r. cbn [rd_encs rd_set]. apply in_upd_enc_other; [exact (att_enc_in _ _ _ A)|]. destruct Sh as [Sb _]. cbn [e_base enc_over e_set] in *. congruence. }
+        unfold B in EB. rewrite forallb_forall in EB. pose proof (EB ex Hex) as S9. apply Z.eqb_eq in S9. rewrite K, S9. split; vm_compute; discriminate.
+    + exact Hpool.
+    + exact Hao.
+    + exact Hagc.
+    + exact Hb.
+    + intros x Hx K. exfalso. apply mk_ents_in in Hx. destruct (Hrs _ _ Hx) as [_ [i0 [h [_ Er]]]]. rewrite Er in K. vm_compute in K. discriminate.
+    + intros Hu. exfalso. cbn [s_rounds add_fin set_fin set_rounds] in Hu. rewrite O5 in Hu. cbn [s_rounds st1 rm_pool set_pool] in Hu.
+      assert (In r' (upd_round (s_rounds st) r')) by (apply (in_upd_round_self _ r _ Hr); reflexivity).
+      rewrite <- Hu in H. apply in_del_round in H. unfold del_round in Hu.
+      assert (In r' (filter (fun x => negb (rd_op x =? rd_op r')) (s_rounds st))) by (rewrite Hu; apply (in_upd_round_self _ r _ Hr); reflexivity).
+      apply filter_In in H0. destruct H0 as [_ H0]. rewrite Z.eqb_refl in H0. discriminate.
+  - apply (PInv_assemble fx st _ r r' pe (mk_ents (s_next st1) rs) HP HR Hr eq_refl eq_refl HSTb).
+    + left. cbn [s_rounds set_rounds]. rewrite O5. reflexivity.
+    + intros Hd. exfalso. cbn [s_rounds set_rounds] in Hd. rewrite O5 in Hd. cbn [s_rounds st1 rm_pool set_pool] in Hd.
+      assert (In r' (upd_round (s_rounds st) r')) by (apply (in_upd_round_self _ r _ Hr); reflexivity).
+      rewrite Hd in H. unfold del_round in H. apply filter_In in H. destruct H as [_ H]. cbn [rd_op r' upd_r rd_set] in H. rewrite Z.eqb_refl in H. discriminate.
+    + exact Hpool.
+    + exact Hao.
+    + exact Hagc.
+    + exact Hb.
+    + intros x Hx K. exfalso. apply mk_ents_in in Hx. destruct (Hrs _ _ Hx) as [_ [i0 [h [_ Er]]]]. rewrite Er in K. vm_compute in K. discriminate.
+    + intros _. apply (PR1_upd fx st _ r pe e (enc_over e1) dn (mk_ents (s_next st1) rs) R1 P1 Hatt N9 Sh HSTb Hpool).
+      * intros x Hx K. apply mk_ents_in in Hx. destruct (Hrs _ _ Hx) as [_ [i [h [_ Er]]]]. rewrite Er in K. vm_compute in K. discriminate.
+      * intros x Hx K. exfalso. apply mk_ents_in in Hx. destruct (Hrs _ _ Hx) as [_ [i [h [_ Er]]]]. rewrite Er in K. vm_compute in K. discriminate.
+      * intros x Hx Nx Ox _ Ax. exfalso. exact (pp_no_other x Hb1 Hx Nx Ox Ax).
+      * intros L. exfalso. apply L. reflexivity.
+      * cbn. intros K. discriminate.
+Qed.
+End PP3.
+
+(* ------------------------------------------------------------------ the handlers *)
+Lemma src_stage fx st r e e' tk app : e_stage e' <> 4 -> e_stage e' <> 5 -> src fx st r e tk app -> src fx st r e' tk app.
+Proof.
+  intros N4 N5 [p [h0 [s0 [rep [Fp [Hf [Zs [Rg [Ca _]]]]]]]]]. exists p, h0, s0, rep. repeat split; try assumption; intros; contradiction.
+Qed.
+
+Definition fresh_piece (st : state) (r : round) (e : encop) (slot : Z) : Prop :=
+  forall tk off len, nth_error (e_chunks e) (Z.to_nat slot) = Some (tk, off, len) ->
+    exists app tgt, pget (s_pieces st) (nth (Z.to_nat slot) (e_hosts e) 0, e_base e + slot) =
+                      Some {| pc_items := [(tk, off, len, app)]; pc_len := tgt; pc_data := true |} /\
+      exists p h0 s0 rep, find_ptr (rd_tracts r) tk = Some p /\ In h0 (pt_from p) /\ zget (pt_stamps p) h0 = Some s0 /\
+                          rget (s_reps st) (h0, tk) = Some rep /\ r_app rep = app.
+
+Section PHandlers.
+Variables (fx : fixes) (st : state) (pe : pent) (r : round) (e : encop).
+Hypothesis HP : PInv fx st.
+Hypothesis HR : RInv fx st.
+Hypothesis Hpe : In pe (s_pool st).
+Hypothesis Hown : p_owner pe = rd_op r.
+Hypothesis Hr : In r (s_rounds st).
+Hypothesis Hph : rd_phase r = 3.
+Hypothesis Hatt : att_enc r (p_rpc pe) = Some e.
+Let st1 := rm_pool st pe.
+Let R1 : RInv1 fx st r := rv_rounds _ _ HR r Hr.
+Let P1 : PR1 fx st r := pv_rounds _ _ HP r Hr.
+Let He : In e (rd_encs r) := att_enc_in _ _ _ Hatt.
+
+Lemma ph_wait_pos : e_stage e <> 9 -> 1 <= e_wait e.
+Proof.
+  intros N9. assert (F: att_to r e pe = true) by (unfold att_to, owned; rewrite Hown, Z.eqb_refl, Hatt, Z.eqb_refl; reflexivity).
+  pose proof (cnt_pos _ _ pe Hpe F). pose proof (ri_cnt _ _ _ R1 e He). unfold bound in H0.
+  replace (e_stage e =? 9) with false in H0 by (symmetry; apply Z.eqb_neq; exact N9). lia.
+Qed.
+
+Lemma pr_pack err : e_stage e = 2 -> k_kind (p_rpc pe) = K_PackTracts ->
+  (err = cl_NoError -> fresh_piece st r e (chunk_of (p_rpc pe) - e_base e)) ->
+  PInv fx (let e1 := e_set e 2 (e_wait e - 1) ((chunk_of (p_rpc pe) - e_base e, err) :: e_errs e) in
+           if 0 <? e_wait e1 then set_rounds st1 (upd_round (s_rounds st1) (rd_set r (rd_phase r) (rd_tracts r) (upd_enc (rd_encs r) e1) (rd_done r)))
+           else if negb (last_err (e_errs e1) RS_N =? cl_NoError) then enc_finish st1 r e1 false
+           else issue (set_rounds st1 (upd_round (s_rounds st1) (rd_set r (rd_phase r) (rd_tracts r) (upd_enc (rd_encs r) (e_set e1 3 1 [])) (rd_done r))))
+                      (mk_encode (rd_gen r) (nth (Z.to_nat RS_N) (e_hosts e) 0) (e_base e)) (rd_op r)).
+Proof.
+  intros S2 Kp Hfresh. assert (N9: e_stage e <> 9) by (rewrite S2; discriminate).
+  destruct (pi_pack _ _ _ P1 pe e Hpe Hown Kp Hatt) as [i0 [Hi0 [Erp Z0]]].
+  assert (Esl: chunk_of (p_rpc pe) - e_base e = i0) by (rewrite Erp; unfold chunk_of; cbn; lia).
+  rewrite Esl in *. cbv zeta. set (errs1 := (i0, err) :: e_errs e). set (e1 := e_set e 2 (e_wait e - 1) errs1).
+  destruct (pi_fill _ _ _ P1 e He S2) as [Fl [Fn Fr]].
+  pose proof (bound_stage e 2 S2 ltac:(discriminate)) as Bd.
+  assert (Oth: forall x, In x (s_pool st) -> x <> pe -> p_owner x = rd_op r -> k_kind (p_rpc x) = K_PackTracts -> att_enc r (p_rpc x) = Some e ->
+            exists i, 0 <= i < RS_N /\ p_rpc x = mk_pack (rd_gen r) (nth (Z.to_nat i) (e_hosts e) 0) (e_base e + i) /\ zget errs1 i = None).
+  { intros x Hx Nx Ox Kx Ax. destruct (pi_pack _ _ _ P1 x e Hx Ox Kx Ax) as [i [Hi [Ex Zx]]]. exists i. split; [exact Hi|]. split; [exact Ex|].
+    unfold errs1. rewrite zget_cons. destruct (i =? i0) eqn:E; [|exact Zx]. apply Z.eqb_eq in E. subst i. exfalso. apply Nx.
+    apply (pi_uniq _ _ _ P1 x pe Hx Hpe Ox Hown Kx Kp). rewrite Ex, Erp. reflexivity. }
+  assert (Pc: forall ee, e_stage ee <> 4 -> e_stage ee <> 5 -> e_chunks ee = e_chunks e -> e_hosts ee = e_hosts e -> e_base ee = e_base e -> forall dn i,
+            (forall tk off len, nth_error (e_chunks e) i = Some (tk, off, len) -> packed_slot ee (Z.of_nat i) -> zget errs1 (Z.of_nat i) = Some cl_NoError) ->
+            piece_ok fx st (upd_r r ee dn) ee i).
+  { intros ee N4 N5 Ec Eh Eb dn i Hps tk off len Ni Ps. rewrite Ec in Ni. specialize (Hps tk off len Ni Ps). unfold errs1 in Hps. rewrite zget_cons in Hps.
+    rewrite Eh, Eb. destruct (Z.of_nat i =? i0) eqn:E.
+    - apply Z.eqb_eq in E. injection Hps as Hps. assert (Ei: Z.to_nat i0 = i) by lia. destruct (Hfresh Hps tk off len ltac:(rewrite Ei; exact Ni)) as [app [tgt [Pg [p [h0 [s0 [rep Hs]]]]]]].
+      exists app, tgt. rewrite Ei, <- E in Pg. split; [exact Pg|]. destruct Hs as [Fp [Hf [Zs [Rg Ra]]]].
+      exists p, h0, s0, rep. split; [exact Fp|]. split; [exact Hf|]. split; [exact Zs|]. split; [exact Rg|]. split; [intros _; exact Ra|].
+      split; [intros K; contradiction|intros K; contradiction].
+    - destruct (pi_piece _ _ _ P1 e i He N9 tk off len Ni (or_intror (or_intror (or_intror (conj S2 Hps))))) as [app [tgt [Pg Sr]]].
+      exists app, tgt. split; [exact Pg|]. apply (src_stage fx st r e ee tk app N4 N5 Sr). }
+  destruct (0 <? e_wait e1) eqn:W0.
+  - apply Z.ltb_lt in W0. cbn [e_wait e1 e_set] in W0.
+    apply (pp_upd fx st pe r e HP HR Hr Hatt N9 e1 (rd_done r) []).
+    + apply same_shape_e_set.
+    + intros ? ? [].
+    + exact Oth.
+    + intros _ i. apply (Pc e1); try reflexivity; try (cbn; discriminate).
+      intros tk off len _ [K|[K|[K|[_ K]]]]; try (cbn in K; discriminate). exact K.
+    + intros _. cbn [e_errs e_wait e1 e_set errs1 length map]. split; [rewrite Nat2Z.inj_succ; lia|]. split.
+      * constructor; [apply zget_none_notin; exact Z0|exact Fn].
+      * intros i v [K|K]; [injection K as <- _; exact Hi0|exact (Fr i v K)].
+  - apply Z.ltb_ge in W0. cbn [e_wait e1 e_set] in W0. pose proof (ph_wait_pos N9) as Wp.
+    destruct (negb _) eqn:FE.
+    + apply (pp_finish fx st pe r e HP HR Hpe Hown Hr Hph Hatt N9 e1 false); [apply same_shape_e_set|lia].
+    + apply negb_false_iff, Z.eqb_eq in FE. cbn [e_errs e1 e_set] in FE.
+      assert (AllOk: forall i, nth_error (e_chunks e) i <> None -> zget errs1 (Z.of_nat i) = Some cl_NoError).
+      { intros i Hn. assert (Li: (i < Z.to_nat RS_N)%nat) by (rewrite <- (proj1 (pi_len _ _ _ P1 e He N9)); apply nth_error_Some; exact Hn).
+        assert (Hin: In (Z.of_nat i) (map fst errs1)).
+        { apply (pigeon (map fst errs1) RS_N).
+          - cbn [map errs1 fst]. constructor; [apply zget_none_notin; exact Z0|exact Fn].
+          - intros x Hx. cbn [map errs1 fst] in Hx. destruct Hx as [<-|Hx]; [exact Hi0|]. apply in_map_iff in Hx. destruct Hx as [[a b] [<- Hab]]. exact (Fr a b Hab).
+          - rewrite map_length. cbn [length errs1]. rewrite Nat2Z.inj_succ. lia.
+          - unfold RS_N in *. lia. }
+        destruct (zget_in_some _ _ Hin) as [v Hv]. rewrite Hv. f_equal. apply (last_err_ok _ _ FE (Z.of_nat i) v); [unfold RS_N in *; lia|exact Hv]. }
+      change (issue ?s ?rp ?o) with (issue_all s [(rp, o)]).
+      apply (pp_upd fx st pe r e HP HR Hr Hatt N9 (e_set e1 3 1 []) (rd_done r) [(mk_encode (rd_gen r) (nth (Z.to_nat RS_N) (e_hosts e) 0) (e_base e), rd_op r)]).
+      * repeat split.
+      * intros rp o [H|[]]. injection H as <- <-. split; [reflexivity|]. split; [vm_compute; discriminate|]. split; [vm_compute; discriminate|]. split; [vm_compute; discriminate|]. intros _. reflexivity.
+      * intros x Hx Nx Ox _ Ax. exfalso. apply (pp_no_other fx st pe r e HR Hpe Hown Hr Hatt x); try assumption. lia.
+      * intros _ i. apply (Pc (e_set e1 3 1 [])); try reflexivity; try (cbn; discriminate).
+        intros tk off len Ni _. apply AllOk. rewrite Ni. discriminate.
+      * cbn. intros K. discriminate.
+Qed.
+
+Lemma ph_old_piece i tk off len : e_stage e = 3 \/ e_stage e = 4 -> nth_error (e_chunks e) i = Some (tk, off, len) ->
+  exists app tgt, pget (s_pieces st) (nth i (e_hosts e) 0, e_base e + Z.of_nat i) =
+                    Some {| pc_items := [(tk, off, len, app)]; pc_len := tgt; pc_data := true |} /\ src fx st r e tk app.
+Proof.
+  intros S Ni. assert (N9: e_stage e <> 9) by (destruct S as [S|S]; rewrite S; discriminate).
+  apply (pi_piece _ _ _ P1 e i He N9 tk off len Ni). destruct S as [S|S]; [left; exact S|right; left; exact S].
+Qed.
+
+Lemma pr_encode err : e_stage e = 3 ->
+  PInv fx (if negb (err =? cl_NoError) then enc_finish st1 r e false
+           else let bl := bump_list fx r e in
+                let e1 := e_set e 4 (Z.of_nat (length bl)) [] in
+                let st1' := set_rounds st1 (upd_round (s_rounds st1) (rd_set r (rd_phase r) (rd_tracts r) (upd_enc (rd_encs r) e1) (rd_done r))) in
+                fold_left (fun s '(tk', h, stamp, nv) => issue s (mk_setversion (rd_gen r) h tk' nv (Some stamp)) (rd_op r)) bl st1').
+Proof.
+  intros S3. assert (N9: e_stage e <> 9) by (rewrite S3; discriminate).
+  pose proof (bound_stage e 3 S3 ltac:(discriminate)) as Bd. pose proof (ri_w1 _ _ _ R1 e He (or_introl S3)) as W1.
+  destruct (negb _).
+  { apply (pp_finish fx st pe r e HP HR Hpe Hown Hr Hph Hatt N9 e false); [repeat split|lia]. }
+  cbv zeta. set (bl := bump_list fx r e). set (e1 := e_set e 4 (Z.of_nat (length bl)) []).
+  rewrite fold_issue_sv.
+  apply (pp_upd fx st pe r e HP HR Hr Hatt N9 e1 (rd_done r) (sv_list (rd_gen r) (rd_op r) bl)).
+  - apply same_shape_e_set.
+  - intros rp o Hin. destruct (sv_list_in _ _ _ _ _ Hin) as [-> [tk [h [s [nv [_ ->]]]]]]. split; [reflexivity|].
+    split; [vm_compute; discriminate|]. split; [vm_compute; discriminate|]. split; [vm_compute; discriminate|]. intros K. vm_compute in K. discriminate.
+  - intros x Hx Nx Ox _ Ax. exfalso. apply (pp_no_other fx st pe r e HR Hpe Hown Hr Hatt x); try assumption. lia.
+  - intros _ i tk off len Ni _. cbn [e_chunks e1 e_set] in Ni. destruct (ph_old_piece i tk off len (or_introl S3) Ni) as [app [tgt [Pg Sr]]].
+    exists app, tgt. split; [exact Pg|]. destruct Sr as [p [h0 [s0 [rep [Fp [Hf [Zs [Rg [Ca _]]]]]]]]].
+    exists p, h0, s0, rep. split; [exact Fp|]. split; [exact Hf|]. split; [exact Zs|]. split; [exact Rg|]. split; [exact Ca|].
+    split; [cbn; intros K; discriminate|cbn; intros _ K; discriminate].
+  - cbn. intros K. discriminate.
+Qed.
+
+Lemma pr_commit err : e_stage e = 5 -> PInv fx (enc_finish st1 r e (err =? cl_NoError)).
+Proof.
+  intros S5. assert (N9: e_stage e <> 9) by (rewrite S5; discriminate).
+  pose proof (bound_stage e 5 S5 ltac:(discriminate)) as Bd. pose proof (ri_w1 _ _ _ R1 e He (or_intror S5)) as W1.
+  apply (pp_finish fx st pe r e HP HR Hpe Hown Hr Hph Hatt N9 e _); [repeat split|lia].
+Qed.
+
+Lemma pr_sv err h0 s0 nv0 : e_stage e = 4 ->
+  In (rpc_tk (p_rpc pe), h0, s0, nv0) (bump_list fx r e) -> k_ts (p_rpc pe) = h0 ->
+  (err = cl_NoError -> bumped st h0 (rpc_tk (p_rpc pe)) nv0 /\ stamp_of st h0 (rpc_tk (p_rpc pe)) = s0) ->
+  PInv fx (let bl := bump_list fx r e in
+           let e1 := e_set e 4 (e_wait e - 1) ((slot_of bl (rpc_tk (p_rpc pe)) (k_ts (p_rpc pe)) 0, err) :: e_errs e) in
+           if 0 <? e_wait e1 then set_rounds st1 (upd_round (s_rounds st1) (rd_set r (rd_phase r) (rd_tracts r) (upd_enc (rd_encs r) e1) (rd_done r)))
+           else if negb (first_err (e_errs e1) (Z.of_nat (length bl)) =? cl_NoError) then enc_finish st1 r e1 false
+           else issue (set_rounds st1 (upd_round (s_rounds st1) (rd_set r (rd_phase r) (rd_tracts r) (upd_enc (rd_encs r) (e_set e1 5 1 [])) (rd_done r))))
+                      (mk_commit (rd_gen r) (e_base e)) (rd_op r)).
+Proof.
+  intros S4 Hin0 Hts Hok. assert (N9: e_stage e <> 9) by (rewrite S4; discriminate).
+  pose proof (bound_stage e 4 S4 ltac:(discriminate)) as Bd.
+  cbv zeta. set (bl := bump_list fx r e). set (tk0 := rpc_tk (p_rpc pe)) in *.
+  set (errs1 := (slot_of bl tk0 (k_ts (p_rpc pe)) 0, err) :: e_errs e).
+  set (e1 := e_set e 4 (e_wait e - 1) errs1).
+  (* the source condition of every chunk, with the new slot recorded *)
+  assert (Src1: forall ee, e_chunks ee = e_chunks e -> e_hosts ee = e_hosts e -> e_base ee = e_base e ->
+            (e_stage ee = 4 /\ e_errs ee = errs1) \/ (e_stage ee = 5 /\ forall tk h s nv, In (tk, h, s, nv) bl -> zget errs1 (slot_of bl tk h 0) = Some cl_NoError) ->
+            forall dn i, piece_ok fx st (upd_r r ee dn) ee i).
+  { intros ee Ec Eh Eb Hst dn i tk off len Ni _. rewrite Ec in Ni. destruct (ph_old_piece i tk off len (or_intror S4) Ni) as [app [tgt [Pg Sr]]].
+    exists app, tgt. rewrite Eh, Eb. split; [exact Pg|]. destruct Sr as [p [h [s [rep [Fp [Hf [Zs [Rg [Ca [_ C4]]]]]]]]]].
+    assert (Hbl: In (tk, h, s, pt_ver p + 1) bl) by (apply (Xbump_list_intro fx r e tk off len p h s (nth_error_In _ _ Ni) Fp Hf Zs)).
+    assert (Fz: zget errs1 (slot_of bl tk h 0) = Some cl_NoError -> frozen st p h app).
+    { unfold errs1. rewrite zget_cons, Hts. destruct (slot_of bl tk h 0 =? slot_of bl tk0 h0 0) eqn:E.
+      - apply Z.eqb_eq in E. destruct (slot_of_inj bl tk h tk0 h0 0 (ex_intro _ s (ex_intro _ (pt_ver p + 1) Hbl)) (ex_intro _ s0 (ex_intro _ nv0 Hin0)) E) as [-> ->].
+        intros K. injection K as K. destruct (Hok K) as [[rep' [Rg' Rv']] Est]. fold tk0 in Rg'. rewrite Rg in Rg'. injection Rg' as <-.
+        destruct (bump_list_nv fx r e _ _ _ _ Hin0) as [p0 [F0 [N0 _]]]. fold tk0 in F0. rewrite Fp in F0. injection F0 as <-.
+        destruct (bump_list_nv fx r e _ _ _ _ Hbl) as [p1 [F1 [_ _]]]. 
+        assert (s = s0).
+        { unfold bl, bump_list in Hin0. apply in_flat_map in Hin0. destruct Hin0 as [[[tkc oc] lc] [_ H2]]. destruct (find_ptr (rd_tracts r) tkc) as [pc|] eqn:Fc; [|destruct H2].
+          apply in_flat_map in H2. destruct H2 as [hc [_ H2]]. destruct (zget (pt_stamps pc) hc) as [sc|] eqn:Zc; [|destruct H2]. destruct H2 as [H2|[]].
+          injection H2 as E1 E2 E3 _. subst tkc hc sc. rewrite Fp in Fc. injection Fc as <-. congruence. }
+        subst s. left. exists rep. rewrite (find_ptr_tk _ _ _ Fp). split; [exact Rg|]. split; [exact (Ca Est)|lia].
+      - intros K. exact (C4 S4 K). }
+    exists p, h, s, rep. split; [exact Fp|]. split; [exact Hf|]. split; [exact Zs|]. split; [exact Rg|]. split; [exact Ca|].
+    destruct Hst as [[Se Ee]|[Se Hall]].
+    - split; [intros K; rewrite Se in K; discriminate|]. intros _ Z0. apply Fz. rewrite Ee in Z0.
+      assert (Eb2: bump_list fx (upd_r r ee dn) ee = bl) by (unfold bl; rewrite bump_list_upd; apply bump_list_shape; exact Ec). rewrite Eb2 in Z0. exact Z0.
+    - split; [intros _; apply Fz; exact (Hall _ _ _ _ Hbl)|intros K; rewrite Se in K; discriminate]. }
+  destruct (0 <? e_wait e1) eqn:W0.
+  - apply Z.ltb_lt in W0. cbn [e_wait e1 e_set] in W0.
+    apply (pp_upd fx st pe r e HP HR Hr Hatt N9 e1 (rd_done r) []).
+    + apply same_shape_e_set.
+    + intros ? ? [].
+    + intros x Hx Nx Ox Kx Ax. exfalso. destruct (ri_exp _ _ _ R1 x Hx Ox) as [[K _]|[[K _]|[_ [ex [A [K _]]]]]]; try (rewrite Kx in K; vm_compute in K; discriminate).
+      rewrite Ax in A. injection A as <-. rewrite S4, Kx in K. vm_compute in K. discriminate.
+    + intros _ i. apply (Src1 e1); try reflexivity. left. split; reflexivity.
+    + cbn. intros K. discriminate.
+  - apply Z.ltb_ge in W0. cbn [e_wait e1 e_set] in W0. pose proof (ph_wait_pos N9) as Wp.
+    destruct (negb _) eqn:FE.
+    + apply (pp_finish fx st pe r e HP HR Hpe Hown Hr Hph Hatt N9 e1 false); [apply same_shape_e_set|lia].
+    + apply negb_false_iff, Z.eqb_eq in FE. cbn [e_errs e1 e_set] in FE.
+      assert (AllOk: forall tk h s nv, In (tk, h, s, nv) bl -> zget errs1 (slot_of bl tk h 0) = Some cl_NoError).
+      { intros tk h s nv Hin.
+        assert (Bu: err = cl_NoError -> bumped st h0 tk0 nv0) by (intros K; exact (proj1 (Hok K))).
+        destruct (sv_slots fx st (rm_pool st pe) r pe e h0 s0 nv0 err (rv_nodup _ _ HR) R1 Hpe He S4 Hin0 Hts Bu eq_refl
+                    (fun y Hy Ny => proj2 (in_pool_remove _ _ _) (conj Hy (fun E => Ny (nodup_id_eq _ y pe (rv_nodup _ _ HR) Hy Hpe E)))) tk h s nv Hin) as [G1 _].
+        fold bl tk0 errs1 in G1. pose proof (slot_of_spec bl tk h 0 (ex_intro _ s (ex_intro _ nv Hin))) as Rg.
+        destruct (zget errs1 (slot_of bl tk h 0)) as [v|] eqn:Zg.
+        - f_equal. apply (first_err_ok _ _ FE (slot_of bl tk h 0) v); [lia|exact Zg].
+        - exfalso. destruct (G1 eq_refl) as [y [Y1 [Y2 [Y3 [Y4 Y5]]]]]. cbn in Y1. apply in_pool_remove in Y1. destruct Y1 as [Y1 Ny].
+          assert (Ay: att_enc r (p_rpc y) = Some e).
+          { unfold att_enc. rewrite Y3. change (K_SetVersion =? K_PackTracts) with false. change (K_SetVersion =? K_RSEncode) with false.
+            change (K_SetVersion =? K_Commit) with false. change (K_SetVersion =? K_SetVersion) with true. cbn [orb].
+            rewrite Y4, find_enc_tract_eq.
+            assert (Pe: tpred tk e = true) by (unfold tpred; rewrite (bump_list_in fx r e _ _ _ _ Hin), S4; reflexivity).
+            destruct (find (tpred tk) (rd_encs r)) as [z|] eqn:Fz; [|pose proof (find_none _ _ Fz e He); congruence].
+            pose proof Fz as Fz'. apply find_some in Fz'. destruct Fz' as [Hz Pz]. unfold tpred in Pz. apply andb_true_iff in Pz.
+            f_equal. apply (nodup_base_eq (rd_encs r)); [exact (ri_nodupb _ _ _ R1)|exact Hz|exact He|].
+            apply (ri_wft _ _ _ R1 z e tk Hz He); [tauto|exact (bump_list_in fx r e _ _ _ _ Hin)]. }
+          apply (pp_no_other fx st pe r e HR Hpe Hown Hr Hatt y); try assumption; [lia|]. intros ->. apply Ny. reflexivity. }
+      change (issue ?s ?rp ?o) with (issue_all s [(rp, o)]).
+      apply (pp_upd fx st pe r e HP HR Hr Hatt N9 (e_set e1 5 1 []) (rd_done r) [(mk_commit (rd_gen r) (e_base e), rd_op r)]).
+      * repeat split.
+      * intros rp o [H|[]]. injection H as <- <-. split; [reflexivity|]. split; [vm_compute; discriminate|]. split; [vm_compute; discriminate|]. split; [vm_compute; discriminate|]. intros K. vm_compute in K. discriminate.
+      * intros x Hx Nx Ox _ Ax. exfalso. apply (pp_no_other fx st pe r e HR Hpe Hown Hr Hatt x); try assumption. lia.
+      * intros _ i. apply (Src1 (e_set e1 5 1 [])); try reflexivity. right. split; [reflexivity|exact AllOk].
+      * cbn. intros K. discriminate.
+Qed.
+End PHandlers.
+
+(* ------------------------------------------------------------------ phase 1: a Stat reply *)
+Lemma PR1_noencs fx st r : rd_encs r = [] ->
+  (forall pe1 pe2, In pe1 (s_pool st) -> In pe2 (s_pool st) -> p_owner pe1 = rd_op r -> p_owner pe2 = rd_op r ->
+     k_kind (p_rpc pe1) = K_PackTracts -> k_kind (p_rpc pe2) = K_PackTracts -> chunk_of (p_rpc pe1) = chunk_of (p_rpc pe2) -> pe1 = pe2) ->
+  (forall p h s, In p (rd_tracts r) -> zget (pt_stamps p) h = Some s ->
+     exists rep, rget (s_reps st) (h, pt_tk p) = Some rep /\ sle s (stamp_of st h (pt_tk p))) ->
+  PR1 fx st r.
+Proof.
+  intros N U S. constructor.
+  - rewrite N. intros e [].
+  - rewrite N. intros e [].
+  - intros x e _ _ _ A. exfalso. apply att_enc_in in A. rewrite N in A. destruct A.
+  - exact U.
+  - intros x e _ _ _ A. exfalso. apply att_enc_in in A. rewrite N in A. destruct A.
+  - exact S.
+  - rewrite N. intros e i [].
+  - rewrite N. intros e [].
+Qed.
+
+Lemma zget_app_inv (m : list (Z * (Z * Z))) k v k' s : zget (m ++ [(k, v)]) k' = Some s -> zget m k' = Some s \/ (k' = k /\ s = v).
+Proof.
+  induction m as [|[a b] m IH]; cbn.
+  - destruct (k' =? k) eqn:E; [intros H; injection H as <-; right; split; [apply Z.eqb_eq; exact E|reflexivity]|discriminate].
+  - destruct (k' =? a); [intros H; left; exact H|exact IH].
+Qed.
+
+Lemma PR1_tracts_eq fx st r r' : rd_op r' = rd_op r -> rd_encs r' = [] -> 
+  (forall p h s, In p (rd_tracts r') -> zget (pt_stamps p) h = Some s -> exists rep, rget (s_reps st) (h, pt_tk p) = Some rep /\ sle s (stamp_of st h (pt_tk p))) ->
+  PR1 fx st r -> PR1 fx st r'.
+Proof.
+  intros Eo N S P. apply PR1_noencs; [exact N| |exact S]. rewrite Eo. exact (pi_uniq _ _ _ P).
+Qed.
+
+Definition dummy_pe : pent := {| p_id := 0; p_rpc := mk_alloc 0 0; p_owner := 0; p_run := false; p_lose := false |}.
+
+Lemma dummy_not_in fx st x : RInv fx st -> In x (s_pool st) -> x <> dummy_pe.
+Proof. intros HR Hx E. subst x. pose proof (rv_ids _ _ HR _ Hx). cbn in H. lia. Qed.
+
+(* the round changes its phase but keeps its tracts, has no encode operations, and may issue calls that are not Pack/Encode/GC *)
+Lemma PInv_phase fx st st' r r' added :
+  PInv fx st -> RInv fx st -> In r (s_rounds st) -> rd_op r' = rd_op r -> rd_gen r' = rd_gen r -> rd_tracts r' = rd_tracts r -> rd_encs r' = [] ->
+  pST st' = pST st ->
+  (s_rounds st' = upd_round (s_rounds st) r' \/ s_rounds st' = del_round (s_rounds st) (rd_op r)) ->
+  s_pool st' = s_pool st ++ added -> (forall x, In x added -> p_owner x = rd_op r /\ notpeg (p_rpc x) = true) ->
+  (forall x, In x added -> k_kind (p_rpc x) = K_Alloc -> 0 <= nth 0 (k_aux (p_rpc x)) 0) ->
+  (forall x, In x (s_pool st) -> p_owner x = rd_op r -> notpeg (p_rpc x) = true) ->
+  PInv fx st'.
+Proof.
+  intros HP HR Hr Eo Eg Et En HST Hrd Hp Hadd Hal Hown.
+  assert (NP: forall x, notpeg (p_rpc x) = true -> k_kind (p_rpc x) <> K_PackTracts /\ k_kind (p_rpc x) <> K_RSEncode /\ k_kind (p_rpc x) <> K_GCTract).
+  { intros x N. unfold notpeg in N. apply negb_true_iff, orb_false_iff in N. destruct N as [N N3]. apply orb_false_iff in N. destruct N as [N1 N2].
+    apply Z.eqb_neq in N1, N2, N3. auto. }
+  apply (PInv_assemble fx st st' r r' dummy_pe added HP HR Hr Eo Eg HST Hrd).
+  - intros _ x Hx Ox. rewrite Hp in Hx. apply in_app_or in Hx.
+    assert (N: notpeg (p_rpc x) = true) by (destruct Hx as [Hx|Hx]; [exact (Hown x Hx Ox)|exact (proj2 (Hadd x Hx))]).
+    destruct (NP x N) as [N1 [N2 _]]. auto.
+  - intros x Hx. rewrite Hp in Hx. apply in_app_or in Hx. destruct Hx as [Hx|Hx]; [left; split; [exact Hx|exact (dummy_not_in fx st x HR Hx)]|right; exact Hx].
+  - intros x Hx. left. exact (proj1 (Hadd x Hx)).
+  - intros x Hx K. exfalso. destruct (NP x (proj2 (Hadd x Hx))) as [_ [_ N3]]. contradiction.
+  - rewrite En. intros e2 [].
+  - exact Hal.
+  - intros _. pose proof (pv_rounds _ _ HP r Hr) as P. pose proof HST as H0. unfold pST in H0. injection H0 as S1 S2 S3 S4 S5 S6.
+    apply PR1_noencs; [exact En| |].
+    + rewrite Eo. intros x1 x2 H1 H2 O1 O2 K1 K2 C. rewrite Hp in H1, H2. apply in_app_or in H1. apply in_app_or in H2.
+      assert (F: forall x, In x added -> k_kind (p_rpc x) = K_PackTracts -> False).
+      { intros x Hx K. destruct (NP x (proj2 (Hadd x Hx))) as [N1 _]. contradiction. }
+      destruct H1 as [H1|H1]; [|destruct (F x1 H1 K1)]. destruct H2 as [H2|H2]; [|destruct (F x2 H2 K2)].
+      exact (pi_uniq _ _ _ P x1 x2 H1 H2 O1 O2 K1 K2 C).
+    + rewrite Et. intros p h s Hp0 Zs. destruct (pi_stamp _ _ _ P p h s Hp0 Zs) as [rep [Rg Sl]]. exists rep. rewrite S2, (stamp_of_pST st st' h (pt_tk p) HST). auto.
+Qed.
+
+Lemma own_notpk_phase fx st r : RInv fx st -> In r (s_rounds st) -> rd_phase r = 1 \/ rd_phase r = 2 ->
+  forall x, In x (s_pool st) -> p_owner x = rd_op r -> notpeg (p_rpc x) = true.
+Proof.
+  intros HR Hr Ph x Hx Ox. destruct (ri_exp _ _ _ (rv_rounds _ _ HR r Hr) x Hx Ox) as [[K _]|[[K _]|[P _]]].
+  - unfold notpeg. rewrite K. reflexivity.
+  - unfold notpeg. rewrite K. reflexivity.
+  - destruct Ph as [Q|Q]; rewrite Q in P; discriminate.
+Qed.
+
+Lemma PInv_after_stats fx st r : PInv fx st -> RInv fx st -> In r (s_rounds st) -> rd_phase r = 1 -> rd_encs r = [] ->
+  PInv fx (round_after_stats st r).
+Proof.
+  intros HP HR Hr Ph En. pose proof (own_notpk_phase fx st r HR Hr (or_introl Ph)) as Hown.
+  unfold round_after_stats. destruct (_ =? 0).
+  - unfold round_check_over. cbn [rd_encs rd_set forallb].
+    apply (PInv_phase fx st _ r (rd_set r 9 (rd_tracts r) [] (rd_done r)) [] HP HR Hr); try reflexivity.
+    + right. reflexivity.
+    + cbn. rewrite app_nil_r. reflexivity.
+    + intros x [].
+    + intros x [].
+    + exact Hown.
+  - apply (PInv_phase fx st _ r (rd_set r 2 (rd_tracts r) [] (rd_done r)) [{| p_id := s_next st; p_rpc := mk_alloc (rd_gen r) (Z.of_nat (length (filter (fun p => 1 <=? pt_len p) (rd_tracts r))) / RS_N * (RS_N + RS_M)); p_owner := rd_op r; p_run := false; p_lose := false |}] HP HR Hr); try reflexivity.
+    + left. reflexivity.
+    + intros x [<-|[]]. split; reflexivity.
+    + intros x [<-|[]] _. cbn. unfold RS_N, RS_M. apply Z.mul_nonneg_nonneg; [apply Z.div_pos; lia|lia].
+    + exact Hown.
+Qed.
+
+Section PStat.
+Variables (fx : fixes) (st : state) (pe : pent) (r : round) (p : ptr).
+Hypothesis HP : PInv fx st.
+Hypothesis HR : RInv fx st.
+Hypothesis Hpe : In pe (s_pool st).
+Hypothesis Hown : p_owner pe = rd_op r.
+Hypothesis Hr : In r (s_rounds st).
+Hypothesis Hk : k_kind (p_rpc pe) = K_CtlStat.
+Hypothesis Hph : rd_phase r = 1.
+Hypothesis Fp : find_ptr (rd_tracts r) (rpc_tk (p_rpc pe)) = Some p.
+Let tk := rpc_tk (p_rpc pe).
+
+Lemma ps_mid pn added st' :
+  pt_tk pn = tk ->
+  (forall h s, zget (pt_stamps pn) h = Some s -> exists rep, rget (s_reps st) (h, tk) = Some rep /\ sle s (stamp_of st h tk)) ->
+  pST st' = pST st -> s_rounds st' = upd_round (s_rounds st) (rd_set r 1 (upd_ptr (rd_tracts r) pn) [] (rd_done r)) ->
+  s_pool st' = pool_remove (s_pool st) (p_id pe) ++ added -> (forall x, In x added -> p_owner x = rd_op r /\ notpk (p_rpc x) = true) ->
+  PInv fx st'.
+Proof.
+  intros T1 Hst HST Hrd Hp Hadd.
+  set (r' := rd_set r 1 (upd_ptr (rd_tracts r) pn) [] (rd_done r)).
+  pose proof (own_notpk_phase fx st r HR Hr (or_introl Hph)) as Hown'.
+  assert (Hpool: forall x, In x (s_pool st') -> (In x (s_pool st) /\ x <> pe) \/ In x added).
+  { intros x Hx. rewrite Hp in Hx. apply in_app_or in Hx. destruct Hx as [Hx|Hx]; [left|right; exact Hx].
+    apply in_pool_remove in Hx. destruct Hx as [Hx Nx]. split; [exact Hx|]. intros ->. apply Nx. reflexivity. }
+  apply (PInv_assemble fx st st' r r' pe added HP HR Hr eq_refl eq_refl HST (or_introl Hrd)).
+  - intros Hd. exfalso. rewrite Hrd in Hd.
+    assert (In r' (upd_round (s_rounds st) r')) by (apply (in_upd_round_self _ r _ Hr); reflexivity).
+    unfold r' in H. rewrite Hd in H. unfold del_round in H. apply filter_In in H. destruct H as [_ H]. cbn [rd_op rd_set] in H. rewrite Z.eqb_refl in H. discriminate.
+  - exact Hpool.
+  - intros x Hx. left. exact (proj1 (Hadd x Hx)).
+  - intros x Hx K. exfalso. destruct (Hadd x Hx) as [_ N]. unfold notpk, notpeg in N. rewrite K in N. vm_compute in N. discriminate.
+  - intros e2 [].
+  - intros x Hx K. exfalso. destruct (Hadd x Hx) as [_ N]. unfold notpk, notpeg in N. rewrite K in N. vm_compute in N. discriminate.
+  - intros _. pose proof (pv_rounds _ _ HP r Hr) as P. pose proof HST as H0. unfold pST in H0. injection H0 as S1 S2 S3 S4 S5 S6.
+    apply PR1_noencs; [reflexivity| |].
+    + cbn [rd_op r' rd_set]. intros x1 x2 H1 H2 O1 O2 K1 K2 C.
+      assert (F: forall x, In x (s_pool st') -> k_kind (p_rpc x) = K_PackTracts -> In x (s_pool st)).
+      { intros x Hx K. destruct (Hpool x Hx) as [[Hx0 _]|Ha]; [exact Hx0|]. exfalso. destruct (Hadd x Ha) as [_ N]. unfold notpk, notpeg in N. rewrite K in N. vm_compute in N. discriminate. }
+      exact (pi_uniq _ _ _ P x1 x2 (F x1 H1 K1) (F x2 H2 K2) O1 O2 K1 K2 C).
+    + cbn [rd_tracts r' rd_set]. intros q h s Hq Zs. rewrite S2, (stamp_of_pST st st' h (pt_tk q) HST).
+      apply in_upd_ptr in Hq. destruct Hq as [Hq|Hq]; [exact (pi_stamp _ _ _ P q h s Hq Zs)|]. subst q. rewrite T1. exact (Hst h s Zs).
+Qed.
+
+Lemma pr_stat h err size stamp : h = k_ts (p_rpc pe) ->
+  (err = cl_NoError -> exists rep, rget (s_reps st) (h, tk) = Some rep /\ stamp = stamp_of st h tk) ->
+  PInv fx (stat_reply fx (rm_pool st pe) r tk h err size stamp).
+Proof.
+  intros Eh Hres. unfold stat_reply. fold tk in Fp. rewrite Fp.
+  set (vmh := if err =? cl_ErrVersionMismatch then h else pt_vmh p).
+  match goal with |- context [match pt_next ?x with _ => _ end] => set (p1 := x) end.
+  pose proof (pv_rounds _ _ HP r Hr) as P. pose proof (find_ptr_in _ _ _ Fp) as Pin. pose proof (find_ptr_tk _ _ _ Fp) as Ptk.
+  assert (Sp: forall h' s, zget (pt_stamps p) h' = Some s -> exists rep, rget (s_reps st) (h', tk) = Some rep /\ sle s (stamp_of st h' tk)).
+  { intros h' s Zs. rewrite <- Ptk. exact (pi_stamp _ _ _ P p h' s Pin Zs). }
+  assert (T: pt_tk p1 = tk /\ forall h' s, zget (pt_stamps p1) h' = Some s -> exists rep, rget (s_reps st) (h', tk) = Some rep /\ sle s (stamp_of st h' tk)).
+  { unfold p1. destruct (negb (err =? cl_NoError)) eqn:Ee; [cbn; split; [exact Ptk|exact Sp]|].
+    destruct ((0 <=? pt_len p) && negb (size =? pt_len p)); cbn; [split; [exact Ptk|exact Sp]|]. split; [exact Ptk|].
+    intros h' s Zs. apply zget_app_inv in Zs. destruct Zs as [Zs|[-> ->]]; [exact (Sp h' s Zs)|].
+    apply negb_false_iff, Z.eqb_eq in Ee. destruct (Hres Ee) as [rep [Rg Es]]. exists rep. split; [exact Rg|]. rewrite Es. apply sle_refl. }
+  destruct T as [T1 T2].
+  destruct (pt_next p1) as [|h' l'] eqn:Nx.
+  - set (p2 := pt_set p1 (pt_len p1) [] (pt_stamps p1) vmh true).
+    set (r' := rd_set r 1 (upd_ptr (rd_tracts r) p2) [] (rd_done r)).
+    set (s1 := set_rounds (rm_pool st pe) (upd_round (s_rounds (rm_pool st pe)) r')).
+    assert (B: PInv fx s1).
+    { apply (ps_mid p2 [] s1 T1 T2); [reflexivity|reflexivity|cbn; rewrite app_nil_r; reflexivity|intros x []]. }
+    pose proof (rr_stat_mid fx st pe r p p2 (rd_done r) HR Hpe Hown Hr Hk Hph Fp T1) as BR. fold r' s1 in BR.
+    match goal with |- PInv fx (if _ then round_after_stats ?s2 _ else _) => assert (B2: PInv fx s2 /\ RInv fx s2 /\ s_rounds s2 = s_rounds s1) end.
+    { destruct ((pt_len p2 <? 0) && negb (vmh =? 0)); [|split; [exact B|split; [exact BR|reflexivity]]]. split; [apply PInv_start_fix; exact B|]. split.
+      - apply RInv_start_fix; [exact BR|]. split; [exact (rv_next _ _ BR)|]. intros x Hx Hid. pose proof (rv_ids _ _ BR x Hx). lia.
+      - apply (fr_start_fix _ s_rounds); fr. }
+    destruct B2 as [B2 [BR2 B3]].
+    destruct (all_stats_done r') eqn:AD; [|exact B2].
+    apply PInv_after_stats; [exact B2|exact BR2| |reflexivity|reflexivity].
+    rewrite B3. unfold s1. cbn [s_rounds set_rounds rm_pool set_pool]. apply (in_upd_round_self _ r r' Hr). reflexivity.
+  - apply (ps_mid p1 [{| p_id := s_next st; p_rpc := mk_stat (rd_gen r) h' tk (pt_ver p); p_owner := rd_op r; p_run := false; p_lose := false |}] _ T1 T2); [reflexivity|reflexivity|reflexivity|].
+    intros x [<-|[]]. split; reflexivity.
+Qed.
+End PStat.
+
+(* ------------------------------------------------------------------ phase 2: the Alloc reply *)
+Section AssembleAlloc.
+Variables (fx : fixes) (st st' : state) (r r' : round) (pe : pent) (added : list pent) (base want : Z).
+Hypothesis HP : PInv fx st.
+Hypothesis HR : RInv fx st.
+Hypothesis Hr : In r (s_rounds st).
+Hypothesis Eop : rd_op r' = rd_op r.
+Hypothesis Egen : rd_gen r' = rd_gen r.
+Hypothesis HST : pST st' = pST st.
+Hypothesis Hrounds : s_rounds st' = upd_round (s_rounds st) r' \/ s_rounds st' = del_round (s_rounds st) (rd_op r).
+Hypothesis Hdel : s_rounds st' = del_round (s_rounds st) (rd_op r) ->
+  forall x, In x (s_pool st') -> p_owner x = rd_op r -> k_kind (p_rpc x) <> K_PackTracts /\ k_kind (p_rpc x) <> K_RSEncode.
+Hypothesis Hpool : forall x, In x (s_pool st') -> (In x (s_pool st) /\ x <> pe) \/ In x added.
+Hypothesis Hadd : forall x, In x added -> p_owner x = rd_op r /\ k_kind (p_rpc x) <> K_GCTract /\ k_kind (p_rpc x) <> K_Alloc.
+Hypothesis Hnew : forall e2, In e2 (rd_encs r') -> base <= e_base e2.
+Hypothesis Hold : forall r0 e0, In r0 (s_rounds st) -> rd_op r0 <> rd_op r -> In e0 (rd_encs r0) -> e_base e0 + (RS_N + RS_M) <= base.
+Hypothesis Hgc : forall x, In x (s_pool st) -> k_kind (p_rpc x) = K_GCTract -> chunk_of (p_rpc x) < base.
+Hypothesis HPR : s_rounds st' = upd_round (s_rounds st) r' -> PR1 fx st' r'.
+
+Lemma aa_round r2 : In r2 (s_rounds st') -> (r2 = r' /\ s_rounds st' = upd_round (s_rounds st) r') \/ (In r2 (s_rounds st) /\ rd_op r2 <> rd_op r).
+Proof.
+  intros H2. destruct Hrounds as [Hu|Hd]; rewrite ?Hu, ?Hd in H2.
+  - destruct (Z.eq_dec (rd_op r2) (rd_op r)) as [E|E].
+    + left. split; [|exact Hu]. apply (upd_round_own _ _ _ H2). congruence.
+    + right. apply in_upd_round in H2. destruct H2 as [H2|H2]; [auto|]. subst r2. congruence.
+  - right. unfold del_round in H2. apply filter_In in H2. destruct H2 as [H2 N]. split; [exact H2|]. apply negb_true_iff, Z.eqb_neq in N. exact N.
+Qed.
+
+Lemma range_lo e c : in_range e c = true -> e_base e <= c < e_base e + (RS_N + RS_M).
+Proof. unfold in_range. intros H. apply andb_true_iff in H. destruct H as [H1 H2]. apply Z.leb_le in H1. apply Z.ltb_lt in H2. lia. Qed.
+
+Lemma PInv_assemble_alloc : PInv fx st'.
+Proof.
+  pose proof HP as [A A' B C D Al E]. pose proof HST as HST0. unfold pST in HST0. injection HST0 as S1 S2 S3 S4 S5 S6.
+  constructor.
+  - destruct Hrounds as [Hu|Hd]; rewrite ?Hu, ?Hd; [rewrite (map_upd_round rd_gen _ r' r A' Hr Eop Egen); exact A|apply nodup_map_filter; exact A].
+  - destruct Hrounds as [Hu|Hd]; rewrite ?Hu, ?Hd; [rewrite (map_upd_round rd_op _ r' r A' Hr Eop Eop); exact A'|apply nodup_map_filter; exact A'].
+  - intros r1 r2 e1 e2 c H1 H2 He1 He2 C1 C2. apply range_lo in C1. apply range_lo in C2.
+    destruct (aa_round r1 H1) as [[-> _]|[O1 N1]], (aa_round r2 H2) as [[-> _]|[O2 N2]].
+    + reflexivity.
+    + exfalso. pose proof (Hnew e1 He1). pose proof (Hold r2 e2 O2 N2 He2). lia.
+    + exfalso. pose proof (Hnew e2 He2). pose proof (Hold r1 e1 O1 N1 He1). lia.
+    + apply (B r1 r2 e1 e2 c O1 O2 He1 He2); unfold in_range; apply andb_true_iff; split; [apply Z.leb_le|apply Z.ltb_lt|apply Z.leb_le|apply Z.ltb_lt]; lia.
+  - intros x Hx Kx.
+    assert (Own: exists r0, In r0 (s_rounds st) /\ p_owner x = rd_op r0).
+    { destruct (Hpool x Hx) as [[Hx0 _]|Ha]; [exact (C x Hx0 Kx)|]. exists r. split; [exact Hr|exact (proj1 (Hadd x Ha))]. }
+    destruct Own as [r0 [H0 O0]]. destruct (Z.eq_dec (rd_op r0) (rd_op r)) as [E0|E0].
+    + destruct Hrounds as [Hu|Hd].
+      * exists r'. split; [rewrite Hu; apply (in_upd_round_self _ r r' Hr); congruence|congruence].
+      * exfalso. destruct (Hdel Hd x Hx ltac:(congruence)) as [N1 N2]. destruct Kx; contradiction.
+    + exists r0. split; [|exact O0]. destruct Hrounds as [Hu|Hd]; rewrite ?Hu, ?Hd.
+      * apply in_upd_round_other; [exact H0|congruence].
+      * unfold del_round. apply filter_In. split; [exact H0|]. apply negb_true_iff, Z.eqb_neq. exact E0.
+  - intros x Hx Kx. rewrite S6. destruct (Hpool x Hx) as [[Hx0 _]|Ha]; [|exfalso; exact (proj1 (proj2 (Hadd x Ha)) Kx)].
+    destruct (D x Hx0 Kx) as [D1 D2]. split; [exact D1|]. intros r2 e2 H2 He2 L2.
+    destruct (aa_round r2 H2) as [[-> _]|[O2 N2]]; [|exact (D2 r2 e2 O2 He2 L2)].
+    destruct (in_range e2 (chunk_of (p_rpc x))) eqn:I2; [|reflexivity]. exfalso. apply range_lo in I2. pose proof (Hnew e2 He2). pose proof (Hgc x Hx0 Kx). lia.
+  - intros x Hx Kx. destruct (Hpool x Hx) as [[Hx0 _]|Ha]; [exact (Al x Hx0 Kx)|exfalso; exact (proj2 (proj2 (Hadd x Ha)) Kx)].
+  - intros r2 H2. destruct (aa_round r2 H2) as [[-> Hu]|[Ho No]]; [exact (HPR Hu)|].
+    apply (PR1_other fx st st' r2 HST); [|exact (E r2 Ho)].
+    intros x Hx O. destruct (Hpool x Hx) as [[Hx0 _]|Ha]; [exact Hx0|]. exfalso. destruct (Hadd x Ha) as [O2 _]. congruence.
+Qed.
+End AssembleAlloc.
+
+Lemma packs_of_nth gen op base hosts : forall i rp o, 0 <= i -> In (rp, o) (packs_of gen op base i hosts) ->
+  exists j, i <= j < RS_N /\ (Z.to_nat (j - i) < length hosts)%nat /\ rp = mk_pack gen (nth (Z.to_nat (j - i)) hosts 0) (base + j).
+Proof.
+  induction hosts as [|h t IH]; intros i rp o Hi H; [destruct H|]. cbn [packs_of] in H. apply in_app_or in H. destruct H as [H|H].
+  - destruct (i <? RS_N) eqn:E; [|destruct H]. destruct H as [H|[]]. injection H as <- _. apply Z.ltb_lt in E.
+    exists i. split; [lia|]. replace (i - i) with 0 by lia. cbn. split; [lia|reflexivity].
+  - destruct (IH (i + 1) rp o ltac:(lia) H) as [j [Hj [Hl Er]]]. exists j. split; [lia|].
+    replace (Z.to_nat (j - i)) with (S (Z.to_nat (j - (i + 1)))) by lia. cbn [nth length]. split; [lia|exact Er].
+Qed.
+
+Lemma packs_of_chunks_sorted gen op base hosts : forall i, 0 <= i ->
+  NoDup (map (fun x : rpc * Z => chunk_of (fst x)) (packs_of gen op base i hosts)) /\
+  forall x, In x (packs_of gen op base i hosts) -> base + i <= chunk_of (fst x) < base + RS_N.
+Proof.
+  induction hosts as [|h t IH]; intros i Hi; cbn [packs_of map]; [split; [constructor|intros x []]|].
+  destruct (IH (i + 1) ltac:(lia)) as [N B]. destruct (i <? RS_N) eqn:E; cbn [app map].
+  - apply Z.ltb_lt in E. split.
+    + constructor; [|exact N]. intros K. apply in_map_iff in K. destruct K as [y [Ey Hy]]. specialize (B y Hy). cbn [fst] in Ey.
+      unfold chunk_of in Ey at 2. cbn in Ey. lia.
+    + intros x [<-|Hx]; [unfold chunk_of; cbn; lia|]. specialize (B x Hx). lia.
+  - split; [exact N|]. intros x Hx. specialize (B x Hx). lia.
+Qed.
+
+Lemma NoDup_flat_map_gen {A} (g : A -> list Z) (l : list A) :
+  NoDup l -> (forall a, In a l -> NoDup (g a)) -> (forall a b z, In a l -> In b l -> In z (g a) -> In z (g b) -> a = b) -> NoDup (flat_map g l).
+Proof.
+  induction l as [|a l IH]; intros N Hn Hd; cbn [flat_map]; [constructor|]. inversion N as [|? ? N1 N2]; subst.
+  apply NoDup_app_disj.
+  - apply Hn. left. reflexivity.
+  - apply IH; [exact N2|intros b Hb; apply Hn; right; exact Hb|intros b c z Hb Hc; apply Hd; right; assumption].
+  - intros z Hz K. apply in_flat_map in K. destruct K as [b [Hb Hzb]].
+    assert (a = b) by (apply (Hd a b z); [left; reflexivity|right; exact Hb|exact Hz|exact Hzb]). subst b. contradiction.
+Qed.
+
+Lemma mk_ents_chunk_inj rs : NoDup (map (fun x : rpc * Z => chunk_of (fst x)) rs) -> forall n x1 x2,
+  In x1 (mk_ents n rs) -> In x2 (mk_ents n rs) -> chunk_of (p_rpc x1) = chunk_of (p_rpc x2) -> x1 = x2.
+Proof.
+  induction rs as [|[rp o] rs IH]; intros N n x1 x2 H1 H2 C; [destruct H1|]. cbn [map fst] in N. inversion N as [|? ? N1 N2]; subst.
+  cbn [mk_ents] in H1, H2. destruct H1 as [<-|H1], H2 as [<-|H2].
+  - reflexivity.
+  - exfalso. apply N1. cbn [p_rpc] in C. rewrite C. apply mk_ents_in in H2. apply in_map_iff. exists (p_rpc x2, p_owner x2). auto.
+  - exfalso. apply N1. cbn [p_rpc] in C. rewrite <- C. apply mk_ents_in in H1. apply in_map_iff. exists (p_rpc x1, p_owner x1). auto.
+  - exact (IH N2 (n + 1) x1 x2 H1 H2 C).
+Qed.
+
+Section PAlloc.
+Variables (fx : fixes) (st : state) (pe : pent) (r : round) (base want : Z) (encs : list (list Z * list (tkt * Z))).
+Hypothesis HP : PInv fx st.
+Hypothesis HR : RInv fx st.
+Hypothesis Hpe : In pe (s_pool st).
+Hypothesis Hown : p_owner pe = rd_op r.
+Hypothesis Hr : In r (s_rounds st).
+Hypothesis Hk : k_kind (p_rpc pe) = K_Alloc.
+Hypothesis Hph : rd_phase r = 2.
+Hypothesis Hnd : NoDup (flat_map (fun x : list Z * list (tkt * Z) => map fst (snd x)) encs).
+Hypothesis Hlen : Z.of_nat (length encs) * (RS_N + RS_M) = want.
+Hypothesis Hshape : forall hs cs, In (hs, cs) encs -> hs = [] \/ (Z.of_nat (length hs) = RS_N + RS_M /\ Z.of_nat (length cs) = RS_N).
+Hypothesis Hres : base + want <= s_nextchunk st.
+Let eops := mk_eops r base 0 encs.
+Let r' := rd_set r 3 (rd_tracts r) eops (rd_done r).
+Let P1 : PR1 fx st r := pv_rounds _ _ HP r Hr.
+
+Lemma pa_eop e : In e eops -> exists k hs cs, nth_error encs k = Some (hs, cs) /\ e = mk_eop r base k (hs, cs).
+Proof. intros He. destruct (mk_eops_in _ _ _ _ _ He) as [k [[hs cs] [Nk ->]]]. exists k, hs, cs. auto. Qed.
+
+Lemma pa_chunks : NoDup (map (fun x : rpc * Z => chunk_of (fst x)) (pack_list (rd_gen r) (rd_op r) eops)).
+Proof.
+  unfold pack_list. rewrite flat_map_concat_map, concat_map, map_map, <- flat_map_concat_map.
+  apply NoDup_flat_map_gen.
+  - eapply NoDup_map_inv. apply (mk_eops_nodup r base 0 encs).
+  - intros a _. exact (proj1 (packs_of_chunks_sorted (rd_gen r) (rd_op r) (e_base a) (e_hosts a) 0 ltac:(lia))).
+  - intros a b z Ha Hb Za Zb. apply in_map_iff in Za. destruct Za as [xa [Ea Hxa]]. apply in_map_iff in Zb. destruct Zb as [xb [Eb Hxb]].
+    pose proof (proj2 (packs_of_chunks_sorted (rd_gen r) (rd_op r) (e_base a) (e_hosts a) 0 ltac:(lia)) xa Hxa) as Ra.
+    pose proof (proj2 (packs_of_chunks_sorted (rd_gen r) (rd_op r) (e_base b) (e_hosts b) 0 ltac:(lia)) xb Hxb) as Rb.
+    apply (nodup_base_eq eops); [apply mk_eops_nodup|exact Ha|exact Hb|].
+    apply (eops_range r base encs a b z Ha Hb); unfold in_range; apply andb_true_iff; unfold RS_N, RS_M in *; split; [apply Z.leb_le|apply Z.ltb_lt|apply Z.leb_le|apply Z.ltb_lt]; lia.
+Qed.
+
+Lemma palloc_R1 s' : pST s' = pST st ->
+  s_pool s' = pool_remove (s_pool st) (p_id pe) ++ mk_ents (s_next st) (pack_list (rd_gen r) (rd_op r) eops) ->
+  PR1 fx s' r'.
+Proof.
+  intros HST Hp. pose proof HST as H0. unfold pST in H0. injection H0 as S1 S2 S3 S4 S5 S6.
+  assert (NoOwn: forall x, In x (pool_remove (s_pool st) (p_id pe)) -> p_owner x <> rd_op r) by (apply (al_no_own fx st pe r HR Hpe Hown Hr Hk Hph)).
+  assert (Src: forall x, In x (s_pool s') -> p_owner x = rd_op r -> In x (mk_ents (s_next st) (pack_list (rd_gen r) (rd_op r) eops))).
+  { intros x Hx O. rewrite Hp in Hx. apply in_app_or in Hx. destruct Hx as [Hx|Hx]; [exfalso; exact (NoOwn x Hx O)|exact Hx]. }
+  constructor.
+  - intros e He. cbn [rd_encs r' rd_set] in He. destruct (pa_eop e He) as [k [hs [cs [Nk ->]]]]. rewrite mk_eop_base, S6.
+    assert (k < length encs)%nat by (apply nth_error_Some; congruence). unfold RS_N, RS_M in *. nia.
+  - intros e He L. cbn [rd_encs r' rd_set] in He. destruct (pa_eop e He) as [k [hs [cs [Nk ->]]]]. cbn [mk_eop e_chunks e_hosts e_stage] in *.
+    destruct (Hshape hs cs (nth_error_In _ _ Nk)) as [->|[L1 L2]]; [exfalso; apply L; reflexivity|]. rewrite map_length. unfold RS_N, RS_M in *. split; lia.
+  - intros x e Hx O K A. pose proof (Src x Hx O) as Hm. apply mk_ents_in in Hm. unfold pack_list in Hm. apply in_flat_map in Hm. destruct Hm as [e0 [He0 Hm]].
+    destruct (packs_of_nth _ _ _ _ 0 _ _ ltac:(lia) Hm) as [j [Hj [Hl Er]]]. replace (j - 0) with j in * by lia.
+    assert (A0: att_enc r' (p_rpc x) = Some e0) by (rewrite Er; apply (al_att_pack r base encs e0 j _ He0); lia).
+    rewrite A0 in A. injection A as <-. exists j. split; [lia|]. split; [exact Er|].
+    destruct (pa_eop e0 He0) as [k [hs [cs [_ ->]]]]. reflexivity.
+  - intros x1 x2 H1 H2 O1 O2 _ _ C. exact (mk_ents_chunk_inj _ pa_chunks (s_next st) x1 x2 (Src x1 H1 O1) (Src x2 H2 O2) C).
+  - intros x e Hx O K _. exfalso. pose proof (Src x Hx O) as Hm. apply mk_ents_in in Hm. unfold pack_list in Hm. apply in_flat_map in Hm. destruct Hm as [e0 [_ Hm]].
+    destruct (packs_of_nth _ _ _ _ 0 _ _ ltac:(lia) Hm) as [j [_ [_ Er]]]. rewrite Er in K. vm_compute in K. discriminate.
+  - cbn [rd_tracts r' rd_set]. intros p h s Hp0 Zs. destruct (pi_stamp _ _ _ P1 p h s Hp0 Zs) as [rep [Rg Sl]]. exists rep. rewrite S2, (stamp_of_pST st s' h (pt_tk p) HST). auto.
+  - intros e i He L tk off len _ Ps. exfalso. cbn [rd_encs r' rd_set] in He. destruct (pa_eop e He) as [k [hs [cs [_ ->]]]].
+    cbn [mk_eop e_stage e_errs] in *. destruct hs; [apply L; reflexivity|]. destruct Ps as [K|[K|[K|[_ K]]]]; discriminate.
+  - intros e He S2'. cbn [rd_encs r' rd_set] in He. destruct (pa_eop e He) as [k [hs [cs [_ ->]]]]. cbn [mk_eop e_errs e_wait length map].
+    split; [unfold RS_N; lia|]. split; [constructor|intros i v []].
+Qed.
+End PAlloc.
+
+Lemma pr_alloc fx st pe r err base want hint :
+  PInv fx st -> RInv fx st -> In pe (s_pool st) -> p_owner pe = rd_op r -> In r (s_rounds st) ->
+  k_kind (p_rpc pe) = K_Alloc -> rd_phase r = 2 ->
+  (err = cl_NoError -> base + want <= s_nextchunk st /\
+     (forall r0 e0, In r0 (s_rounds st) -> In e0 (rd_encs r0) -> e_base e0 + (RS_N + RS_M) <= base) /\
+     (forall x, In x (s_pool st) -> k_kind (p_rpc x) = K_GCTract -> chunk_of (p_rpc x) < base)) ->
+  PInv fx (alloc_reply (rm_pool st pe) r err base want hint).
+Proof.
+  intros HP HR Hpe Hown Hr Hk Hph Hres. unfold alloc_reply.
+  assert (NoOwn: forall x, In x (pool_remove (s_pool st) (p_id pe)) -> p_owner x <> rd_op r) by (apply (al_no_own fx st pe r HR Hpe Hown Hr Hk Hph)).
+  assert (Del: forall a b c, PInv fx (add_fin (set_rounds (rm_pool st pe) (del_round (s_rounds (rm_pool st pe)) (rd_op r))) a b c)).
+  { intros a b c. apply (PInv_assemble_alloc fx st (add_fin (set_rounds (rm_pool st pe) (del_round (s_rounds (rm_pool st pe)) (rd_op r))) a b c) r (rd_set r 9 (rd_tracts r) [] (rd_done r)) pe [] (s_nextchunk st) HP Hr eq_refl eq_refl eq_refl).
+    - right. reflexivity.
+    - intros _ x Hx O. exfalso. cbn in Hx. exact (NoOwn x Hx O).
+    - intros x Hx. left. cbn in Hx. apply in_pool_remove in Hx. destruct Hx as [Hx Nx]. split; [exact Hx|]. intros ->. apply Nx. reflexivity.
+    - intros x [].
+    - intros e2 [].
+    - intros r0 e0 H0 _ He0. exact (pi_ch _ _ _ (pv_rounds _ _ HP r0 H0) e0 He0).
+    - intros x Hx K. exact (proj1 (pv_gc _ _ HP x Hx K)).
+    - intros Hu. exfalso. cbn [s_rounds add_fin set_fin set_rounds rm_pool set_pool] in Hu.
+      assert (In (rd_set r 9 (rd_tracts r) [] (rd_done r)) (del_round (s_rounds st) (rd_op r))) by (rewrite Hu; apply (in_upd_round_self _ r _ Hr); reflexivity).
+      unfold del_round in H. apply filter_In in H. destruct H as [_ H]. cbn [rd_op rd_set] in H. rewrite Z.eqb_refl in H. discriminate. }
+  destruct (negb (err =? cl_NoError)) eqn:Ee.
+  { unfold round_check_over. cbn [rd_encs rd_set forallb rd_op]. apply Del. }
+  apply negb_false_iff, Z.eqb_eq in Ee. destruct (Hres Ee) as [Hn [Hold Hgc]].
+  cbv zeta. set (encs := match hint with [] => [] | n :: rest => parse_encs (Z.to_nat n) rest end).
+  match goal with |- context [if negb ?v then _ else _] => destruct (negb v) eqn:V end; [apply Del|].
+  apply negb_false_iff in V. apply andb_true_iff in V. destruct V as [V Vn]. apply andb_true_iff in V. destruct V as [Vl Vs].
+  apply nodup_fix_NoDup in Vn. apply Z.eqb_eq in Vl.
+  match goal with |- context [(fix go (i : nat) (l : list (list Z * list (tkt * Z))) {struct l} : list encop := _) O encs] =>
+    set (eops := (fix go (i : nat) (l : list (list Z * list (tkt * Z))) {struct l} : list encop := _) O encs) end.
+  assert (Ee2: eops = mk_eops r base 0 encs).
+  { unfold eops. generalize encs. generalize 0%nat. intros i l0. revert i. induction l0 as [|a t IH]; intros i; [reflexivity|]. cbn [mk_eops]. rewrite <- IH. destruct a. reflexivity. }
+  rewrite Ee2. rewrite pack_list_fold.
+  set (r' := rd_set r 3 (rd_tracts r) (mk_eops r base 0 encs) (rd_done r)).
+  set (rs := pack_list (rd_gen r) (rd_op r) (mk_eops r base 0 encs)).
+  set (s0 := set_rounds (rm_pool st pe) (upd_round (s_rounds (rm_pool st pe)) r')).
+  destruct (issue_all_spec rs s0) as [Q1 [Q2 Q3]]. unfold pO in Q3. injection Q3 as O1 O2 O3 O4 O5.
+  assert (Nd2: NoDup (flat_map (fun x : list Z * list (tkt * Z) => map fst (snd x)) encs)).
+  { erewrite flat_map_ext; [exact Vn|]. intros [hs cs]. reflexivity. }
+  assert (Hshape: forall hs cs, In (hs, cs) encs -> hs = [] \/ (Z.of_nat (length hs) = RS_N + RS_M /\ Z.of_nat (length cs) = RS_N)).
+  { intros hs cs Hin. rewrite forallb_forall in Vs. specialize (Vs (hs, cs) Hin). cbn beta iota in Vs.
+    destruct (Z.of_nat (length hs) =? 0) eqn:L0; [left; apply Z.eqb_eq in L0; destruct hs; [reflexivity|cbn in L0; lia]|right].
+    cbn [orb] in Vs. repeat (apply andb_true_iff in Vs; destruct Vs as [Vs ?]). apply Z.eqb_eq in Vs. split; [exact Vs|]. apply Z.eqb_eq. assumption. }
+  assert (HST: pST (issue_all s0 rs) = pST st) by (rewrite pST_issue_all; reflexivity).
+  assert (Pool: s_pool (issue_all s0 rs) = pool_remove (s_pool st) (p_id pe) ++ mk_ents (s_next st) rs) by (rewrite Q1; reflexivity).
+  assert (PRn: PR1 fx (issue_all s0 rs) r') by (apply (palloc_R1 fx st pe r base want encs HP HR Hpe Hown Hr Hk Hph Vl Hshape Hn _ HST Pool)).
+  assert (Hpool: forall sx, s_pool sx = s_pool (issue_all s0 rs) -> forall x, In x (s_pool sx) -> (In x (s_pool st) /\ x <> pe) \/ In x (mk_ents (s_next st) rs)).
+  { intros sx Es x Hx. rewrite Es, Pool in Hx. apply in_app_or in Hx. destruct Hx as [Hx|Hx]; [left|right; exact Hx].
+    apply in_pool_remove in Hx. destruct Hx as [Hx Nx]. split; [exact Hx|]. intros ->. apply Nx. reflexivity. }
+  assert (Hadd: forall x, In x (mk_ents (s_next st) rs) -> p_owner x = rd_op r /\ k_kind (p_rpc x) <> K_GCTract /\ k_kind (p_rpc x) <> K_Alloc).
+  { intros x Hx. apply mk_ents_in in Hx. unfold rs, pack_list in Hx. apply in_flat_map in Hx. destruct Hx as [e0 [_ Hx]].
+    destruct (packs_of_nth _ _ _ _ 0 _ _ ltac:(lia) Hx) as [j [_ [_ Er]]]. destruct (packs_of_in _ _ _ _ 0 _ _ ltac:(lia) Hx) as [Eo _].
+    split; [exact Eo|]. rewrite Er. split; vm_compute; discriminate. }
+  assert (Hnew: forall e2, In e2 (rd_encs r') -> base <= e_base e2).
+  { intros e2 H2. cbn [rd_encs r' rd_set] in H2. destruct (mk_eops_in _ _ _ _ _ H2) as [k [x [_ ->]]]. rewrite mk_eop_base. unfold RS_N, RS_M. lia. }
+  unfold round_check_over. destruct (forallb (fun e : encop => e_stage e =? 9) (rd_encs r')) eqn:EB.
+  - apply (PInv_assemble_alloc fx st _ r r' pe (mk_ents (s_next st) rs) base HP Hr eq_refl eq_refl); try assumption.
+    + right. cbn [s_rounds add_fin set_fin set_rounds]. rewrite O5. cbn [s_rounds s0 set_rounds rm_pool set_pool]. exact (del_upd_round (s_rounds st) r').
+    + intros _ x Hx O. cbn [s_pool add_fin set_fin set_rounds] in Hx. destruct (Hpool _ eq_refl x Hx) as [[Hx0 Nx]|Ha].
+      * exfalso. apply (NoOwn x); [|exact O]. apply in_pool_remove. split; [exact Hx0|]. intros E. apply Nx. exact (nodup_id_eq _ x pe (rv_nodup _ _ HR) Hx0 Hpe E).
+      * (* a Pack entry of an operation: all operations are over, so none was issued *)
+        exfalso. apply mk_ents_in in Ha. unfold rs, pack_list in Ha. apply in_flat_map in Ha. destruct Ha as [e0 [He0 Ha]].
+        destruct (packs_of_in _ _ _ _ 0 _ _ ltac:(lia) Ha) as [_ [j [h [_ [_ Hne]]]]].
+        rewrite forallb_forall in EB. pose proof (EB e0 He0) as S9. apply Z.eqb_eq in S9.
+        destruct (eops_stage r base encs e0 He0) as [[K _]|[_ K]]; [contradiction|]. rewrite K in S9. discriminate.
+    + exact (Hpool _ eq_refl).
+    + intros r0 e0 H0 _ He0. exact (Hold r0 e0 H0 He0).
+    + intros Hu. exfalso. cbn [s_rounds add_fin set_fin set_rounds] in Hu. rewrite O5 in Hu. cbn [s_rounds s0 set_rounds rm_pool set_pool] in Hu.
+      assert (In r' (upd_round (upd_round (s_rounds st) r') r')) by (apply (in_upd_round_self _ r' _); [apply (in_upd_round_self _ r _ Hr); reflexivity|reflexivity]).
+      rewrite upd_upd_round in H. rewrite <- Hu in H. unfold del_round in H. apply filter_In in H. destruct H as [_ H]. rewrite Z.eqb_refl in H. discriminate.
+  - apply (PInv_assemble_alloc fx st _ r r' pe (mk_ents (s_next st) rs) base HP Hr eq_refl eq_refl); try assumption.
+    + left. cbn [s_rounds set_rounds]. rewrite O5. cbn [s_rounds s0 set_rounds rm_pool set_pool]. apply upd_upd_round.
+    + intros Hd. exfalso. cbn [s_rounds set_rounds] in Hd. rewrite O5 in Hd. cbn [s_rounds s0 set_rounds rm_pool set_pool] in Hd. rewrite upd_upd_round in Hd.
+      assert (In r' (upd_round (s_rounds st) r')) by (apply (in_upd_round_self _ r _ Hr); reflexivity).
+      rewrite Hd in H. unfold del_round in H. apply filter_In in H. destruct H as [_ H]. cbn [rd_op r' rd_set] in H. rewrite Z.eqb_refl in H. discriminate.
+    + exact (Hpool _ eq_refl).
+    + intros r0 e0 H0 _ He0. exact (Hold r0 e0 H0 He0).
+    + intros _. eapply PR1_other; [| |exact PRn]; [reflexivity|]. intros x Hx _. exact Hx.
+Qed.
+
+(* ------------------------------------------------------------------ a reply reaches its round *)
+Record res_okP (fx : fixes) (st : state) (pe : pent) (res : list Z) : Prop := {
+  ro_stat : k_kind (p_rpc pe) = K_CtlStat -> hd cl_ErrRPC res = cl_NoError ->
+              exists rep, rget (s_reps st) (k_ts (p_rpc pe), rpc_tk (p_rpc pe)) = Some rep /\
+                          (nth 2 res 0, nth 3 res 0) = stamp_of st (k_ts (p_rpc pe)) (rpc_tk (p_rpc pe));
+  ro_alloc : k_kind (p_rpc pe) = K_Alloc -> hd cl_ErrRPC res = cl_NoError ->
+               nth 1 res 0 + nth 0 (k_aux (p_rpc pe)) 0 <= s_nextchunk st /\
+               (forall r0 e0, In r0 (s_rounds st) -> In e0 (rd_encs r0) -> e_base e0 + (RS_N + RS_M) <= nth 1 res 0) /\
+               (forall x, In x (s_pool st) -> k_kind (p_rpc x) = K_GCTract -> chunk_of (p_rpc x) < nth 1 res 0);
+  ro_pack : k_kind (p_rpc pe) = K_PackTracts -> hd cl_ErrRPC res = cl_NoError ->
+              forall r e, find_round (s_rounds st) (p_owner pe) = Some r -> att_enc r (p_rpc pe) = Some e ->
+                fresh_piece st r e (chunk_of (p_rpc pe) - e_base e);
+  ro_sv : k_kind (p_rpc pe) = K_SetVersion -> hd cl_ErrRPC res = cl_NoError -> aux_nth (p_rpc pe) 1 <> 0 ->
+            bumped st (k_ts (p_rpc pe)) (rpc_tk (p_rpc pe)) (k_ver (p_rpc pe)) /\
+            stamp_of st (k_ts (p_rpc pe)) (rpc_tk (p_rpc pe)) = (aux_nth (p_rpc pe) 2, aux_nth (p_rpc pe) 3)
+}.
+
+Lemma PInv_round_reply fx st pe r res hint :
+  PInv fx st -> RInv fx st -> In pe (s_pool st) -> find_round (s_rounds st) (p_owner pe) = Some r -> res_okP fx st pe res ->
+  PInv fx (round_reply fx (rm_pool st pe) (p_owner pe) (p_rpc pe) res hint).
+Proof.
+  intros HP HR Hpe Fr [Rs Ra Rp Rv]. pose proof (find_round_in _ _ _ Fr) as Hr. pose proof (find_round_op _ _ _ Fr) as Ho. symmetry in Ho.
+  unfold round_reply. change (s_rounds (rm_pool st pe)) with (s_rounds st). rewrite Fr.
+  set (rp := p_rpc pe) in *. pose proof (rv_rounds _ _ HR r Hr) as R1.
+  destruct (ri_exp _ _ _ R1 pe Hpe Ho) as [[K [P [p [Fp _]]]]|[[K P]|[P [e [A [K S]]]]]]; fold rp in K.
+  - rewrite K. change (K_CtlStat =? K_CtlStat) with true. cbv iota.
+    apply (pr_stat fx st pe r p HP HR Hpe Ho Hr K P Fp); [reflexivity|]. intros E. exact (Rs K E).
+  - rewrite K. change (K_Alloc =? K_CtlStat) with false. change (K_Alloc =? K_Alloc) with true. cbv iota.
+    apply (pr_alloc fx st pe r _ _ _ _ HP HR Hpe Ho Hr K P). intros E. exact (Ra K E).
+  - fold rp in A. assert (Kn: k_kind rp <> -1).
+    { destruct (att_enc_kind _ _ _ A) as [Q|[Q|[Q|Q]]]; rewrite Q; vm_compute; discriminate. }
+    destruct (stage_kind_cases _ _ K Kn) as [[S2 Q]|[[S3 Q]|[[S4 Q]|[S5 Q]]]]; rewrite Q.
+    + change (K_PackTracts =? K_CtlStat) with false. change (K_PackTracts =? K_Alloc) with false. change (K_PackTracts =? K_PackTracts) with true. cbv iota.
+      assert (A2: find_enc_chunk r (nth 1 (k_aux rp) 0) = Some e) by (unfold att_enc in A; rewrite Q in A; exact A).
+      rewrite A2, Ho. apply (pr_pack fx st pe r e HP HR Hpe Ho Hr P A _ S2 Q). intros E. exact (Rp Q E r e Fr A).
+    + change (K_RSEncode =? K_CtlStat) with false. change (K_RSEncode =? K_Alloc) with false. change (K_RSEncode =? K_PackTracts) with false.
+      change (K_RSEncode =? K_RSEncode) with true. cbv iota.
+      assert (A2: find_enc_chunk r (nth 1 (k_aux rp) 0) = Some e) by (unfold att_enc in A; rewrite Q in A; exact A).
+      rewrite A2, Ho. exact (pr_encode fx st pe r e HP HR Hpe Ho Hr P A _ S3).
+    + change (K_SetVersion =? K_CtlStat) with false. change (K_SetVersion =? K_Alloc) with false. change (K_SetVersion =? K_PackTracts) with false.
+      change (K_SetVersion =? K_RSEncode) with false. change (K_SetVersion =? K_SetVersion) with true. cbv iota.
+      assert (A2: find_enc_tract r (tkey (k_blob rp) (k_tract rp)) = Some e) by (unfold att_enc in A; rewrite Q in A; exact A).
+      rewrite A2, Ho. destruct (S Q) as [h0 [s0 [nv0 [Hin Erp]]]].
+      assert (Hts: k_ts rp = h0) by (unfold rp; rewrite Erp; reflexivity).
+      assert (Hkv: k_ver rp = nv0) by (unfold rp; rewrite Erp; reflexivity).
+      assert (Hst: (aux_nth rp 2, aux_nth rp 3) = s0) by (unfold rp; rewrite Erp; destruct s0; reflexivity).
+      refine (pr_sv fx st pe r e HP HR Hpe Ho Hr P A _ h0 s0 nv0 S4 Hin Hts _).
+      assert (Ha1: aux_nth rp 1 <> 0) by (unfold rp; rewrite Erp; destruct s0; cbn; discriminate).
+      intros E0. destruct (Rv Q E0 Ha1) as [B1 B2]. fold rp in B1, B2. rewrite Hts, Hkv in B1. rewrite Hts, Hst in B2. auto.
+    + change (K_Commit =? K_CtlStat) with false. change (K_Commit =? K_Alloc) with false. change (K_Commit =? K_PackTracts) with false.
+      change (K_Commit =? K_RSEncode) with false. change (K_Commit =? K_SetVersion) with false. change (K_Commit =? K_Commit) with true. cbv iota.
+      assert (A2: find_enc_chunk r (nth 0 (k_aux rp) 0) = Some e) by (unfold att_enc in A; rewrite Q in A; exact A).
+      rewrite A2. exact (pr_commit fx st pe r e HP HR Hpe Ho Hr P A _ S5).
+Qed.
+
+Lemma PInv_deliver fx st pe res en hint :
+  PInv fx st -> RInv fx st -> DInv st -> In pe (s_pool st) -> res_okP fx st pe res -> PInv fx (deliver fx st pe res en hint).
+Proof.
+  intros HP HR HD Hpe Hres. unfold deliver. change (set_pool st (pool_remove (s_pool st) (p_id pe)) (s_next st)) with (rm_pool st pe).
+  destruct (p_owner pe =? 0); [apply PInv_rm; exact HP|].
+  destruct (p_owner pe <? 0); [apply PInv_fix_reply; [apply DInv_pool_remove; exact HD|apply PInv_rm; exact HP]|].
+  destruct (find_wop (s_wops (rm_pool st pe)) (p_owner pe)); [apply PInv_cli_reply; apply PInv_rm; exact HP|].
+  destruct (find_round (s_rounds st) (p_owner pe)) as [r|] eqn:Fr.
+  - exact (PInv_round_reply fx st pe r res hint HP HR Hpe Fr Hres).
+  - unfold round_reply. change (s_rounds (rm_pool st pe)) with (s_rounds st). rewrite Fr. apply PInv_rm. exact HP.
+Qed.
+
+(* ------------------------------------------------------------------ the Store side: executions *)
+Lemma PInv_store fx st st' :
+  s_rounds st' = s_rounds st -> s_pool st' = s_pool st -> s_nextchunk st <= s_nextchunk st' ->
+  (forall r e i tk off len, In r (s_rounds st) -> In e (rd_encs r) -> live e -> nth_error (e_chunks e) i = Some (tk, off, len) -> packed_slot e (Z.of_nat i) ->
+     pget (s_pieces st') (nth i (e_hosts e) 0, e_base e + Z.of_nat i) = pget (s_pieces st) (nth i (e_hosts e) 0, e_base e + Z.of_nat i)) ->
+  (forall r e tk app, In r (s_rounds st) -> In e (rd_encs r) -> src fx st r e tk app -> src fx st' r e tk app) ->
+  (forall r p h s, In r (s_rounds st) -> In p (rd_tracts r) -> zget (pt_stamps p) h = Some s ->
+     (exists rep, rget (s_reps st) (h, pt_tk p) = Some rep /\ sle s (stamp_of st h (pt_tk p))) ->
+     exists rep, rget (s_reps st') (h, pt_tk p) = Some rep /\ sle s (stamp_of st' h (pt_tk p))) ->
+  PInv fx st -> PInv fx st'.
+Proof.
+  intros Hr Hp Hn Hpc Hsrc Hst [A A' B C D Al E]. constructor; rewrite ?Hr, ?Hp; try assumption.
+  - intros x Hx K. destruct (D x Hx K) as [D1 D2]. split; [lia|exact D2].
+  - intros r Hr0. destruct (E r Hr0) as [Q1 Q2 Q3 Q4 Q5 Q6 Q7 Q8]. constructor; rewrite ?Hp; try assumption.
+    + intros e He. specialize (Q1 e He). lia.
+    + intros p h s Hp0 Zs. exact (Hst r p h s Hr0 Hp0 Zs (Q6 p h s Hp0 Zs)).
+    + intros e i He L tk off len Ni Ps. destruct (Q7 e i He L tk off len Ni Ps) as [app [tgt [Pg Sr]]]. exists app, tgt.
+      rewrite (Hpc r e i tk off len Hr0 He L Ni Ps). split; [exact Pg|exact (Hsrc r e tk app Hr0 He Sr)].
+Qed.
+
+Lemma src_srel fx st st' r e tk app : srel st st' ->
+  (forall p h s, In p (rd_tracts r) -> zget (pt_stamps p) h = Some s -> exists rep, rget (s_reps st) (h, pt_tk p) = Some rep /\ sle s (stamp_of st h (pt_tk p))) ->
+  (forall p h, In p (rd_tracts r) -> frozen st p h app -> frozen st' p h app) ->
+  src fx st r e tk app -> src fx st' r e tk app.
+Proof.
+  intros S Hst Hfz [p [h0 [s0 [rep [Fp [Hf [Zs [Rg [Ca [C5 C4]]]]]]]]]].
+  pose proof (find_ptr_in _ _ _ Fp) as Pin. pose proof (find_ptr_tk _ _ _ Fp) as Ptk.
+  destruct (S h0 tk rep Rg) as [rep' [G1 [_ [G3 [G4 _]]]]].
+  destruct (Hst p h0 s0 Pin Zs) as [_ [_ Sl]]. rewrite Ptk in Sl.
+  exists p, h0, s0, rep'. split; [exact Fp|]. split; [exact Hf|]. split; [exact Zs|]. split; [exact G1|]. split.
+  - intros Es. assert (E0: stamp_of st h0 tk = s0) by (apply sle_antisym; [rewrite <- Es; exact G3|exact Sl]).
+    rewrite G4; [exact (Ca E0)|congruence].
+  - split; [intros K; apply Hfz; [exact Pin|exact (C5 K)]|intros K Z0; apply Hfz; [exact Pin|exact (C4 K Z0)]].
+Qed.
+
+Lemma stamp_srel st st' p h s : srel st st' ->
+  (exists rep, rget (s_reps st) (h, pt_tk p) = Some rep /\ sle s (stamp_of st h (pt_tk p))) ->
+  exists rep, rget (s_reps st') (h, pt_tk p) = Some rep /\ sle s (stamp_of st' h (pt_tk p)).
+Proof.
+  intros S [rep [Rg Sl]]. destruct (S h (pt_tk p) rep Rg) as [rep' [G1 [_ [G3 _]]]]. exists rep'. split; [exact G1|eapply sle_trans; eauto].
+Qed.
+
+Lemma classic_dec_dtr st p :
+  (exists d, dget st (pt_tk p) = Some d /\ d_ver d = pt_ver p /\ d_rs d = None) \/
+  ~ (exists d, dget st (pt_tk p) = Some d /\ d_ver d = pt_ver p /\ d_rs d = None).
+Proof.
+  destruct (dget st (pt_tk p)) as [d|] eqn:D; [|right; intros [d [K _]]; discriminate].
+  destruct (Z.eq_dec (d_ver d) (pt_ver p)) as [E|E]; [|right; intros [d' [K [K2 _]]]; injection K as <-; contradiction].
+  destruct (d_rs d) eqn:R; [right; intros [d' [K [_ K3]]]; injection K as <-; congruence|left; exists d; auto].
+Qed.
+
+Lemma frozen_reps st st' p h app : s_dtr st' = s_dtr st ->
+  (forall rep, rget (s_reps st) (h, pt_tk p) = Some rep -> pt_ver p + 1 <= r_ver rep ->
+     (exists d, dget st (pt_tk p) = Some d /\ d_ver d = pt_ver p /\ d_rs d = None) ->
+     exists rep', rget (s_reps st') (h, pt_tk p) = Some rep' /\ r_app rep' = r_app rep /\ r_ver rep <= r_ver rep') ->
+  frozen st p h app -> frozen st' p h app.
+Proof.
+  intros Hd H [[rep [Rg [Ra Rv]]]|No]; [|right; unfold dget in *; rewrite Hd; exact No].
+  destruct (classic_dec_dtr st p) as [Ex|Nx]; [|right; unfold dget in *; rewrite Hd; exact Nx].
+  destruct (H rep Rg Rv Ex) as [rep' [G1 [G2 G3]]]. left. exists rep'. split; [exact G1|]. split; [congruence|lia].
+Qed.
+
+Definition pRP (st : state) := (s_rounds st, s_pool st, s_nextchunk st, s_pieces st, s_dtr st).
+
+Lemma PInv_reps fx st st' : pRP st' = pRP st -> srel st st' ->
+  (forall r p h app, In r (s_rounds st) -> In p (rd_tracts r) -> frozen st p h app -> frozen st' p h app) ->
+  PInv fx st -> PInv fx st'.
+Proof.
+  intros H S Hfz HP. unfold pRP in H. injection H as H1 H2 H3 H4 H5.
+  apply (PInv_store fx st st'); [exact H1|exact H2|lia| | | |exact HP].
+  - intros. rewrite H4. reflexivity.
+  - intros r e tk app Hr He Sr. apply (src_srel fx st st' r e tk app S); [|intros p h Hp; apply (Hfz r); assumption|exact Sr].
+    intros p h s Hp Zs. exact (pi_stamp _ _ _ (pv_rounds _ _ HP r Hr) p h s Hp Zs).
+  - intros r p h s _ _ _ Hx. exact (stamp_srel st st' p h s S Hx).
+Qed.
+
+Lemma pRP_ts_write st ts tk v w o l : pRP (fst (ts_write st ts tk v w o l)) = pRP st.
+Proof.
+  unfold ts_write. destruct (rget _ _); [|reflexivity]. destruct (stamp_of st ts tk) as [e c].
+  destruct (Cluster.Model.ts_write _ _ _ _ _ _ _). reflexivity.
+Qed.
+Lemma pRP_ts_setversion st ts i tk nv c : pRP (fst (ts_setversion st ts i tk nv c)) = pRP st.
+Proof.
+  unfold ts_setversion. destruct (negb _); [reflexivity|]. destruct (nv <=? 1); [reflexivity|].
+  match goal with |- context [if ?b then _ else _] => destruct b end; [reflexivity|]. destruct (Cluster.Model.ts_setversion _ _ _ _ _). reflexivity.
+Qed.
+
+Lemma PInv_exec_write fx st e : DInv st -> PInv fx st -> In e (s_pool st) -> k_kind (p_rpc e) = K_Write ->
+  PInv fx (fst (ts_write st (k_ts (p_rpc e)) (rpc_tk (p_rpc e)) (k_ver (p_rpc e)) (Cluster.Model.k_wid (p_rpc e)) (Cluster.Model.k_off (p_rpc e)) (Cluster.Model.k_len (p_rpc e)))).
+Proof.
+  intros HD HP He Kw. apply (PInv_reps fx st); [apply pRP_ts_write|apply srel_ts_write| |exact HP].
+  intros r p h app Hr Hp. apply (frozen_reps st); [apply (fr_ts_write _ s_dtr); fr|].
+  intros rep Rg Rv [d [Dg [Dv Dr]]].
+  destruct (Xts_write_app st (k_ts (p_rpc e)) (rpc_tk (p_rpc e)) (k_ver (p_rpc e)) (Cluster.Model.k_wid (p_rpc e)) (Cluster.Model.k_off (p_rpc e)) (Cluster.Model.k_len (p_rpc e)) h (pt_tk p) rep Rg) as [rep' [G1 G2]].
+  - intros K. injection K as -> Et. destruct (dv_pool _ HD e He Kw) as [d' [D' V']]. rewrite <- Et in D'. unfold dget in Dg. rewrite Dg in D'. injection D' as <-. lia.
+  - exists rep'. split; [exact G1|]. split; [exact G2|].
+    destruct (srel_ts_write st (k_ts (p_rpc e)) (rpc_tk (p_rpc e)) (k_ver (p_rpc e)) (Cluster.Model.k_wid (p_rpc e)) (Cluster.Model.k_off (p_rpc e)) (Cluster.Model.k_len (p_rpc e)) h (pt_tk p) rep Rg) as [r2 [R1 [R2 _]]].
+    rewrite G1 in R1. injection R1 as <-. exact R2.
+Qed.
+
+Lemma PInv_exec_sv fx st ts tsid tk nv cond : PInv fx st -> PInv fx (fst (ts_setversion st ts tsid tk nv cond)).
+Proof.
+  intros HP. apply (PInv_reps fx st); [apply pRP_ts_setversion|apply srel_ts_setversion| |exact HP].
+  intros r p h app Hr Hp. apply (frozen_reps st); [apply (fr_ts_setversion _ s_dtr); fr|].
+  intros rep Rg Rv _. destruct (Xts_setversion_app st ts tsid tk nv cond h (pt_tk p) rep Rg) as [rep' [G1 G2]]. exists rep'. split; [exact G1|]. split; [exact G2|].
+  destruct (srel_ts_setversion st ts tsid tk nv cond h (pt_tk p) rep Rg) as [r2 [R1 [R2 _]]]. rewrite G1 in R1. injection R1 as <-. exact R2.
+Qed.
+
+Lemma PInv_restart fx st ts : PInv fx st -> PInv fx (restart_store st ts).
+Proof.
+  intros HP. apply (PInv_reps fx st); [reflexivity|apply srel_restart| |exact HP].
+  intros r p h app _ _. apply (frozen_same st); reflexivity.
+Qed.
+
+(* ------------------------------------------------------------------ pieces *)
+Lemma pk_eqb_eq a b : pk_eqb a b = true <-> a = b.
+Proof. destruct a, b. unfold pk_eqb. cbn. rewrite andb_true_iff, !Z.eqb_eq. split; [intros [? ?]; subst; reflexivity|intros H; injection H; auto]. Qed.
+Lemma pk_eqb_refl a : pk_eqb a a = true. Proof. apply pk_eqb_eq. reflexivity. Qed.
+
+Lemma pget_pdel m k k' : pget (pdel m k) k' = if pk_eqb k' k then None else pget m k'.
+Proof.
+  induction m as [|[x v] m IH]; cbn; [destruct (pk_eqb k' k); reflexivity|].
+  destruct (pk_eqb k x) eqn:E.
+  - rewrite IH. destruct (pk_eqb k' k) eqn:E2; [reflexivity|]. destruct (pk_eqb k' x) eqn:E3; [|reflexivity].
+    apply pk_eqb_eq in E, E3. subst. rewrite pk_eqb_refl in E2. discriminate.
+  - cbn. destruct (pk_eqb k' x) eqn:E3; [|exact IH]. destruct (pk_eqb k' k) eqn:E2; [|reflexivity].
+    apply pk_eqb_eq in E2, E3. subst. rewrite pk_eqb_refl in E. discriminate.
+Qed.
+Lemma pget_pset m k v k' : pget (pset m k v) k' = if pk_eqb k' k then Some v else pget m k'.
+Proof. unfold pset. cbn. destruct (pk_eqb k' k) eqn:E; [reflexivity|]. rewrite pget_pdel, E. reflexivity. Qed.
+
+Definition pQ (st : state) := (s_reps st, s_stamps st, s_epoch st, s_dtr st).
+Lemma src_pQ fx st st' r e tk app : pQ st' = pQ st -> src fx st r e tk app -> src fx st' r e tk app.
+Proof.
+  intros HQ [p [h0 [s0 [rep [Fp [Hf [Zs [Rg [Ca [C5 C4]]]]]]]]]]. unfold pQ in HQ. injection HQ as H1 H2 H3 H4.
+  assert (Es: stamp_of st' h0 tk = stamp_of st h0 tk) by (unfold stamp_of, epoch_of; rewrite H2, H3; reflexivity).
+  assert (Fz: forall a, frozen st p h0 a -> frozen st' p h0 a) by (intros a; apply frozen_same; assumption).
+  exists p, h0, s0, rep. rewrite H1, Es. repeat split; try assumption; intros; apply Fz; auto.
+Qed.
+
+(* a step that only touches pieces outside the packed slots of live operations *)
+Lemma PInv_pieces fx st st' :
+  s_rounds st' = s_rounds st -> s_pool st' = s_pool st -> s_nextchunk st' = s_nextchunk st -> pQ st' = pQ st ->
+  (forall r e i tk off len, In r (s_rounds st) -> In e (rd_encs r) -> live e -> nth_error (e_chunks e) i = Some (tk, off, len) -> packed_slot e (Z.of_nat i) ->
+     pget (s_pieces st') (nth i (e_hosts e) 0, e_base e + Z.of_nat i) = pget (s_pieces st) (nth i (e_hosts e) 0, e_base e + Z.of_nat i)) ->
+  PInv fx st -> PInv fx st'.
+Proof.
+  intros H1 H2 H3 HQ Hpc HP. apply (PInv_store fx st st' H1 H2); [lia|exact Hpc| | |exact HP].
+  - intros r e tk app _ _. apply src_pQ. exact HQ.
+  - intros r p h s _ _ _ [rep [Rg Sl]]. pose proof HQ as H0. unfold pQ in H0. injection H0 as Q1 Q2 Q3 Q4. exists rep. rewrite Q1.
+    split; [exact Rg|]. unfold stamp_of, epoch_of. rewrite Q2, Q3. exact Sl.
+Qed.
+
+(* a chunk id inside the range of a live operation identifies the operation (and its round) *)
+Lemma chunk_owner fx st r1 r2 e1 e2 c : PInv fx st -> RInv fx st -> In r1 (s_rounds st) -> In r2 (s_rounds st) ->
+  In e1 (rd_encs r1) -> In e2 (rd_encs r2) -> in_range e1 c = true -> in_range e2 c = true -> r1 = r2 /\ e1 = e2.
+Proof.
+  intros HP HR H1 H2 He1 He2 C1 C2. pose proof (pv_gd _ _ HP r1 r2 e1 e2 c H1 H2 He1 He2 C1 C2) as Eg.
+  assert (r1 = r2) by (apply (gen_eq_round (s_rounds st)); [exact (pv_gen _ _ HP)|exact H1|exact H2|exact Eg]). subst r2. split; [reflexivity|].
+  pose proof (rv_rounds _ _ HR r1 H1) as R1. apply (nodup_base_eq (rd_encs r1)); [exact (ri_nodupb _ _ _ R1)|exact He1|exact He2|].
+  exact (ri_wfc _ _ _ R1 e1 e2 c He1 He2 C1 C2).
+Qed.
+
+Lemma round_of_gen_eq fx st r : PInv fx st -> In r (s_rounds st) -> round_of_gen st (rd_gen r) = Some r.
+Proof.
+  intros HP Hr. unfold round_of_gen. destruct (find (fun r0 => rd_gen r0 =? rd_gen r) (s_rounds st)) as [r0|] eqn:F.
+  - apply find_some in F. destruct F as [H0 E]. apply Z.eqb_eq in E. f_equal. apply (gen_eq_round (s_rounds st)); [exact (pv_gen _ _ HP)|exact H0|exact Hr|exact E].
+  - exfalso. pose proof (find_none _ _ F r Hr) as K. cbv beta in K. rewrite Z.eqb_refl in K. discriminate.
+Qed.
+
+Lemma pack_call fx st pe : PInv fx st -> RInv fx st -> In pe (s_pool st) -> k_kind (p_rpc pe) = K_PackTracts ->
+  exists r e i, In r (s_rounds st) /\ p_owner pe = rd_op r /\ att_enc r (p_rpc pe) = Some e /\ e_stage e = 2 /\ 0 <= i < RS_N /\
+                p_rpc pe = mk_pack (rd_gen r) (nth (Z.to_nat i) (e_hosts e) 0) (e_base e + i) /\ zget (e_errs e) i = None.
+Proof.
+  intros HP HR Hpe K. destruct (pv_own _ _ HP pe Hpe (or_introl K)) as [r [Hr O]].
+  destruct (ri_exp _ _ _ (rv_rounds _ _ HR r Hr) pe Hpe O) as [[K1 _]|[[K1 _]|[_ [e [A [K1 _]]]]]]; try (rewrite K in K1; vm_compute in K1; discriminate).
+  assert (Kn: k_kind (p_rpc pe) <> -1) by (rewrite K; vm_compute; discriminate).
+  destruct (stage_kind_cases _ _ K1 Kn) as [[S Q]|[[_ Q]|[[_ Q]|[_ Q]]]]; try (rewrite K in Q; vm_compute in Q; discriminate).
+  destruct (pi_pack _ _ _ (pv_rounds _ _ HP r Hr) pe e Hpe O K A) as [i [Hi [Er Z0]]]. exists r, e, i. auto 10.
+Qed.
+
+Lemma encode_call fx st pe : PInv fx st -> RInv fx st -> In pe (s_pool st) -> k_kind (p_rpc pe) = K_RSEncode ->
+  exists r e, In r (s_rounds st) /\ In e (rd_encs r) /\ e_stage e = 3 /\ p_rpc pe = mk_encode (rd_gen r) (nth (Z.to_nat RS_N) (e_hosts e) 0) (e_base e).
+Proof.
+  intros HP HR Hpe K. destruct (pv_own _ _ HP pe Hpe (or_intror K)) as [r [Hr O]].
+  destruct (ri_exp _ _ _ (rv_rounds _ _ HR r Hr) pe Hpe O) as [[K1 _]|[[K1 _]|[_ [e [A [K1 _]]]]]]; try (rewrite K in K1; vm_compute in K1; discriminate).
+  assert (Kn: k_kind (p_rpc pe) <> -1) by (rewrite K; vm_compute; discriminate).
+  destruct (stage_kind_cases _ _ K1 Kn) as [[_ Q]|[[S Q]|[[_ Q]|[_ Q]]]]; try (rewrite K in Q; vm_compute in Q; discriminate).
+  exists r, e. split; [exact Hr|]. split; [exact (att_enc_in _ _ _ A)|]. split; [exact S|]. exact (pi_enc _ _ _ (pv_rounds _ _ HP r Hr) pe e Hpe O K A).
+Qed.
+
+Lemma slot_index_lt fx st r e i tk off len : PInv fx st -> In r (s_rounds st) -> In e (rd_encs r) -> live e ->
+  nth_error (e_chunks e) i = Some (tk, off, len) -> Z.of_nat i < RS_N.
+Proof.
+  intros HP Hr He L Ni. destruct (pi_len _ _ _ (pv_rounds _ _ HP r Hr) e He L) as [Lc _].
+  assert (i < length (e_chunks e))%nat by (apply nth_error_Some; congruence). unfold RS_N in *. lia.
+Qed.
+
+Lemma in_range_slot e i : 0 <= i < RS_N + RS_M -> in_range e (e_base e + i) = true.
+Proof. intros H. unfold in_range. apply andb_true_iff. split; [apply Z.leb_le|apply Z.ltb_lt]; lia. Qed.
+
+Lemma PInv_exec_gc fx st e : PInv fx st -> RInv fx st -> In e (s_pool st) -> k_kind (p_rpc e) = K_GCTract ->
+  PInv fx (set_pieces st (pdel (s_pieces st) (k_ts (p_rpc e), aux_nth (p_rpc e) 1))).
+Proof.
+  intros HP HR He K. apply (PInv_pieces fx st); try reflexivity; [|exact HP].
+  intros r e2 i tk off len Hr He2 L Ni Ps. cbn [s_pieces set_pieces set_store]. rewrite pget_pdel.
+  destruct (pk_eqb (nth i (e_hosts e2) 0, e_base e2 + Z.of_nat i) (k_ts (p_rpc e), aux_nth (p_rpc e) 1)) eqn:E; [|reflexivity].
+  exfalso. apply pk_eqb_eq in E. injection E as _ Ec.
+  pose proof (slot_index_lt fx st r e2 i tk off len HP Hr He2 L Ni) as Li.
+  pose proof (proj2 (pv_gc _ _ HP e He K) r e2 Hr He2 L) as F. unfold chunk_of, aux_nth in *. rewrite <- Ec in F.
+  rewrite in_range_slot in F; [discriminate|unfold RS_N, RS_M in *; lia].
+Qed.
+
+Lemma PInv_exec_encode fx st e eo : PInv fx st -> RInv fx st -> In e (s_pool st) -> k_kind (p_rpc e) = K_RSEncode ->
+  match round_of_gen st (Cluster.Model.k_gen (p_rpc e)) with Some rd => find_enc_chunk rd (aux_nth (p_rpc e) 1) | None => None end = Some eo ->
+  forall v, PInv fx (set_pieces st (fold_left (fun m i => pset m (nth i (e_hosts eo) 0, aux_nth (p_rpc e) 1 + Z.of_nat i) v) (seq (Z.to_nat RS_N) (Z.to_nat RS_M)) (s_pieces st))).
+Proof.
+  intros HP HR He K Feo v. destruct (encode_call fx st e HP HR He K) as [r [e0 [Hr [He0 [S3 Er]]]]].
+  assert (Eb: aux_nth (p_rpc e) 1 = e_base e0) by (rewrite Er; reflexivity).
+  assert (Eg: Cluster.Model.k_gen (p_rpc e) = rd_gen r) by (rewrite Er; reflexivity).
+  rewrite Eg, (round_of_gen_eq fx st r HP Hr), Eb in Feo.
+  destruct (find_enc_chunk_base fx st r e0 (rv_rounds _ _ HR r Hr) He0) as [z [Fz Bz]]. rewrite Fz in Feo. injection Feo as <-.
+  assert (z = e0) by (apply (nodup_base_eq (rd_encs r)); [exact (ri_nodupb _ _ _ (rv_rounds _ _ HR r Hr))|exact (proj1 (find_enc_chunk_in _ _ _ Fz))|exact He0|exact Bz]). subst z.
+  rewrite Eb. apply (PInv_pieces fx st); try reflexivity; [|exact HP].
+  intros r2 e2 i tk off len Hr2 He2 L Ni Ps. cbn [s_pieces set_pieces set_store].
+  pose proof (slot_index_lt fx st r2 e2 i tk off len HP Hr2 He2 L Ni) as Li.
+  assert (G: forall l m, (forall j, In j l -> (Z.to_nat RS_N <= j < Z.to_nat RS_N + Z.to_nat RS_M)%nat) ->
+             pget (fold_left (fun m i0 => pset m (nth i0 (e_hosts e0) 0, e_base e0 + Z.of_nat i0) v) l m) (nth i (e_hosts e2) 0, e_base e2 + Z.of_nat i) =
+             pget m (nth i (e_hosts e2) 0, e_base e2 + Z.of_nat i)).
+  { induction l as [|j l IH]; intros m Hl; cbn [fold_left]; [reflexivity|]. rewrite IH; [|intros j' Hj'; apply Hl; right; exact Hj'].
+    rewrite pget_pset. destruct (pk_eqb _ _) eqn:E; [|reflexivity]. exfalso. apply pk_eqb_eq in E. injection E as _ Ec.
+    pose proof (Hl j (or_introl eq_refl)) as Hj.
+    destruct (chunk_owner fx st r2 r e2 e0 (e_base e2 + Z.of_nat i) HP HR Hr2 Hr He2 He0) as [_ E2].
+    - apply in_range_slot. unfold RS_N, RS_M in *. lia.
+    - rewrite Ec. apply in_range_slot. unfold RS_N, RS_M in *. lia.
+    - subst e2. unfold RS_N, RS_M in *. lia. }
+  apply G. intros j Hj. apply in_seq in Hj. lia.
+Qed.
+
+Lemma pack_first_spec st from failed tk ver len h app : pack_first st from failed tk ver len = Some (h, app) ->
+  In h from /\ exists rep, rget (s_reps st) (h, tk) = Some rep /\ r_app rep = app /\ r_ver rep = ver.
+Proof.
+  induction from as [|a l IH]; cbn [pack_first]; [discriminate|].
+  destruct (zmem a failed); [intros H; destruct (IH H) as [H1 H2]; split; [right; exact H1|exact H2]|].
+  unfold pack_read. destruct (rget (s_reps st) (a, tk)) as [r0|] eqn:R0.
+  - destruct ((r_ver r0 =? ver) && (Cluster.Model.app_len (r_app r0) =? len)) eqn:C.
+    + intros H. injection H as <- <-. split; [left; reflexivity|]. exists r0. apply andb_true_iff in C. destruct C as [C _]. apply Z.eqb_eq in C. auto.
+    + intros H. destruct (IH H) as [H1 H2]. split; [right; exact H1|exact H2].
+  - intros H. destruct (IH H) as [H1 H2]. split; [right; exact H1|exact H2].
+Qed.
+
+Definition pack_specs (fx : fixes) (st : state) (rp : rpc) : list (tkt * Z * Z * Z * list Z) :=
+  match round_of_gen st (Cluster.Model.k_gen rp) with
+  | Some rd => match find_enc_chunk rd (aux_nth rp 1) with
+               | Some eo => match nth_error (e_chunks eo) (Z.to_nat (aux_nth rp 1 - e_base eo)) with
+                            | Some (tk', off, len) => match find_ptr (rd_tracts rd) tk' with
+                                                      | Some p => [(tk', off, len, pt_ver p, pack_from fx p)]
+                                                      | None => []
+                                                      end
+                            | None => []
+                            end
+               | None => []
+               end
+  | None => []
+  end.
+
+Lemma PInv_exec_pack fx st e extra : fx13 fx = true -> PInv fx st -> RInv fx st -> TInv st -> In e (s_pool st) -> k_kind (p_rpc e) = K_PackTracts ->
+  PInv fx (fst (ts_pack st (k_ts (p_rpc e)) (aux_nth (p_rpc e) 0) (aux_nth (p_rpc e) 1) (Cluster.Model.k_len (p_rpc e)) (pack_specs fx st (p_rpc e)) extra)) /\
+  (snd (ts_pack st (k_ts (p_rpc e)) (aux_nth (p_rpc e) 0) (aux_nth (p_rpc e) 1) (Cluster.Model.k_len (p_rpc e)) (pack_specs fx st (p_rpc e)) extra) = cl_NoError ->
+   forall r e0, find_round (s_rounds st) (p_owner e) = Some r -> att_enc r (p_rpc e) = Some e0 ->
+     fresh_piece (fst (ts_pack st (k_ts (p_rpc e)) (aux_nth (p_rpc e) 0) (aux_nth (p_rpc e) 1) (Cluster.Model.k_len (p_rpc e)) (pack_specs fx st (p_rpc e)) extra)) r e0 (chunk_of (p_rpc e) - e_base e0)).
+Proof.
+  intros H13 HP HR HT He K. destruct (pack_call fx st e HP HR He K) as [r [e0 [i [Hr [O [A [S2 [Hi [Er Z0]]]]]]]]].
+  pose proof (att_enc_in _ _ _ A) as He0. pose proof (rv_rounds _ _ HR r Hr) as R1.
+  assert (L0: live e0) by (unfold live; rewrite S2; discriminate).
+  assert (E1: aux_nth (p_rpc e) 1 = e_base e0 + i) by (rewrite Er; reflexivity).
+  assert (E0: aux_nth (p_rpc e) 0 = nth (Z.to_nat i) (e_hosts e0) 0) by (rewrite Er; reflexivity).
+  assert (Et: k_ts (p_rpc e) = nth (Z.to_nat i) (e_hosts e0) 0) by (rewrite Er; reflexivity).
+  assert (Eg: Cluster.Model.k_gen (p_rpc e) = rd_gen r) by (rewrite Er; reflexivity).
+  assert (Fc: find_enc_chunk r (e_base e0 + i) = Some e0).
+  { unfold att_enc in A. rewrite K in A. change (K_PackTracts =? K_PackTracts) with true in A. cbn [orb] in A. unfold aux_nth in E1. rewrite E1 in A. exact A. }
+  destruct (pi_len _ _ _ (pv_rounds _ _ HP r Hr) e0 He0 L0) as [Lc Lh].
+  destruct (nth_error (e_chunks e0) (Z.to_nat i)) as [[[tk' off] len]|] eqn:Ni.
+  2:{ exfalso. apply nth_error_None in Ni. unfold RS_N in *. lia. }
+  assert (Hh: e_hosts e0 <> []) by (intros Q; pose proof (ri_hosts _ _ _ R1 e0 He0 Q); congruence).
+  destruct (t_elig _ (HT r Hr) e0 tk' off len He0 Hh (nth_error_In _ _ Ni)) as [p [Fp Lp]].
+  assert (Sp: pack_specs fx st (p_rpc e) = [(tk', off, len, pt_ver p, pack_from fx p)]).
+  { unfold pack_specs. rewrite Eg, (round_of_gen_eq fx st r HP Hr), E1, Fc. replace (e_base e0 + i - e_base e0) with i by lia. rewrite Ni, Fp. reflexivity. }
+  rewrite Sp, E0, E1, Et. unfold ts_pack. rewrite Z.eqb_refl. cbn [negb pack_items].
+  (* no packed slot of a live operation lives under the key this execution writes *)
+  assert (Stable: forall pcs', (forall k, k <> (nth (Z.to_nat i) (e_hosts e0) 0, e_base e0 + i) -> pget pcs' k = pget (s_pieces st) k) -> PInv fx (set_pieces st pcs')).
+  { intros pcs' Hk. apply (PInv_pieces fx st); try reflexivity; [|exact HP].
+    intros r2 e2 i2 tk2 off2 len2 Hr2 He2 L2 Ni2 Ps2. cbn [s_pieces set_pieces set_store]. apply Hk. intros Ek. injection Ek as _ Ec.
+    pose proof (slot_index_lt fx st r2 e2 i2 tk2 off2 len2 HP Hr2 He2 L2 Ni2) as Li2.
+    destruct (chunk_owner fx st r2 r e2 e0 (e_base e2 + Z.of_nat i2) HP HR Hr2 Hr He2 He0) as [_ E2].
+    - apply in_range_slot. unfold RS_N, RS_M in *. lia.
+    - rewrite Ec. apply in_range_slot. unfold RS_N, RS_M in *. lia.
+    - subst e2. assert (Z.of_nat i2 = i) by lia. subst i. destruct Ps2 as [Q|[Q|[Q|[_ Q]]]]; congruence. }
+  destruct (pack_first st (pack_from fx p) extra tk' (pt_ver p) len) as [[h0 app]|] eqn:Pf; cbn [fst snd].
+  - split.
+    + apply Stable. intros k Nk. rewrite pget_pset. destruct (pk_eqb k _) eqn:E; [apply pk_eqb_eq in E; contradiction|reflexivity].
+    + intros _ r' e' Fr' A'. pose proof (find_round_in _ _ _ Fr') as Hr'. pose proof (find_round_op _ _ _ Fr') as Ho'.
+      assert (r' = r) by (apply (op_eq_round (s_rounds st)); [exact (pv_ops _ _ HP)|exact Hr'|exact Hr|congruence]). subst r'.
+      rewrite A in A'. injection A' as <-.
+      assert (Ech: chunk_of (p_rpc e) - e_base e0 = i) by (unfold chunk_of, aux_nth in *; lia). rewrite Ech.
+      intros tk off0 len0 Ni'. rewrite Ni in Ni'. injection Ni' as <- <- <-.
+      exists app, (Cluster.Model.k_len (p_rpc e)). cbn [s_pieces set_pieces set_store]. rewrite pget_pset, pk_eqb_refl. split; [reflexivity|].
+      destruct (pack_first_spec _ _ _ _ _ _ _ _ Pf) as [Hin [rep [Rg [Ra _]]]].
+      unfold pack_from in Hin. rewrite H13 in Hin. apply filter_In in Hin. destruct Hin as [Hf Hz].
+      destruct (zget (pt_stamps p) h0) as [s0|] eqn:Zs; [|discriminate].
+      exists p, h0, s0, rep. cbn [s_reps set_pieces set_store]. auto.
+  - split; [|intros C; exfalso; vm_compute in C; discriminate].
+    apply Stable. intros k Nk. rewrite pget_pdel. destruct (pk_eqb k _) eqn:E; [apply pk_eqb_eq in E; contradiction|reflexivity].
+Qed.
+
+Lemma PInv_dtr fx st st' : DInv st ->
+  s_rounds st' = s_rounds st -> s_pool st' = s_pool st -> s_nextchunk st <= s_nextchunk st' -> s_pieces st' = s_pieces st ->
+  s_reps st' = s_reps st -> s_stamps st' = s_stamps st -> s_epoch st' = s_epoch st -> dstep (s_dtr st) (s_dtr st') ->
+  PInv fx st -> PInv fx st'.
+Proof.
+  intros HD H1 H2 H3 H4 H5 H6 H7 Ds HP. apply (PInv_store fx st st' H1 H2 H3); [intros; rewrite H4; reflexivity| | |exact HP].
+  - intros r e tk app Hr He [p [h0 [s0 [rep [Fp [Hf [Zs [Rg [Ca [C5 C4]]]]]]]]]].
+    assert (Es: stamp_of st' h0 tk = stamp_of st h0 tk) by (unfold stamp_of, epoch_of; rewrite H6, H7; reflexivity).
+    assert (Fz: forall a, frozen st p h0 a -> frozen st' p h0 a).
+    { intros a. apply frozen_dstep; [exact H5|exact (dv_rounds _ HD r p Hr (find_ptr_in _ _ _ Fp))|exact Ds]. }
+    exists p, h0, s0, rep. rewrite H5, Es. repeat split; try assumption; intros; apply Fz; auto.
+  - intros r p h s _ _ _ [rep [Rg Sl]]. exists rep. rewrite H5. split; [exact Rg|]. unfold stamp_of, epoch_of. rewrite H6, H7. exact Sl.
+Qed.
+
+Definition pC7 (st : state) := (s_rounds st, s_pool st, s_nextchunk st, s_pieces st, s_reps st, s_stamps st, s_epoch st).
+
+Lemma pC7_commit_rs fx st op term base hosts tracts : pC7 (fst (commit_rs fx st op term base hosts tracts)) = pC7 st.
+Proof. unfold commit_rs. destruct (negb _); [reflexivity|]. destruct (negb _); reflexivity. Qed.
+
+Lemma PInv_exec fx st e extra : fx6 fx = true -> fx13 fx = true ->
+  PInv fx st -> RInv fx st -> DInv st -> TInv st -> In e (s_pool st) ->
+  PInv fx (st_of (exec_rpc fx st e extra)).
+Proof.
+  intros H6 H13 HP HR HD HT He. unfold exec_rpc, st_of.
+  destruct (k_kind (p_rpc e) =? K_Write) eqn:KW.
+  { apply Z.eqb_eq in KW. match goal with |- context [let '(a, b) := ?t in _] => destruct t as [s c] eqn:E end. cbn [fst].
+    match type of E with ?t = _ => replace s with (fst t) by (rewrite E; reflexivity) end. exact (PInv_exec_write fx st e HD HP He KW). }
+  destruct (k_kind (p_rpc e) =? K_SetVersion).
+  { match goal with |- context [let '(a, b) := ?t in _] => destruct t as [s c] eqn:E end. cbn [fst].
+    match type of E with ?t = _ => replace s with (fst t) by (rewrite E; reflexivity) end. apply PInv_exec_sv. exact HP. }
+  destruct (k_kind (p_rpc e) =? K_CtlStat). { destruct (ts_stat st _ _ _) as [[? ?] ?]. exact HP. }
+  destruct (k_kind (p_rpc e) =? K_PackTracts) eqn:KP.
+  { apply Z.eqb_eq in KP. change (match round_of_gen st (Cluster.Model.k_gen (p_rpc e)) with Some rd => _ | None => [] end) with (pack_specs fx st (p_rpc e)).
+    match goal with |- context [let '(a, b) := ?t in _] => destruct t as [s c] eqn:E end. cbn [fst].
+    match type of E with ?t = _ => replace s with (fst t) by (rewrite E; reflexivity) end.
+    exact (proj1 (PInv_exec_pack fx st e extra H13 HP HR HT He KP)). }
+  destruct (k_kind (p_rpc e) =? K_RSEncode) eqn:KE.
+  { apply Z.eqb_eq in KE.
+    destruct (round_of_gen st (Cluster.Model.k_gen (p_rpc e))) as [rd|] eqn:Frd; cbn [fst]; [|exact HP].
+    destruct (find_enc_chunk rd (aux_nth (p_rpc e) 1)) as [eo|] eqn:Feo; cbn [fst]; [|exact HP].
+    destruct (negb (k_ts (p_rpc e) =? aux_nth (p_rpc e) 0)); cbn [fst]; [exact HP|]. destruct (negb _); cbn [fst]; [exact HP|].
+    apply (PInv_exec_encode fx st e eo HP HR He KE). rewrite Frd. exact Feo. }
+  destruct (k_kind (p_rpc e) =? K_GCTract) eqn:KG.
+  { apply Z.eqb_eq in KG. destruct (negb _); cbn [fst]; [exact HP|]. exact (PInv_exec_gc fx st e HP HR He KG). }
+  destruct (k_kind (p_rpc e) =? K_StatBlob). { destruct (Cluster.Model.zget _ _); exact HP. }
+  destruct (k_kind (p_rpc e) =? K_GetTracts).
+  { repeat match goal with |- context [match ?x with _ => _ end] => destruct x | |- context [if ?b then _ else _] => destruct b end; exact HP. }
+  destruct (k_kind (p_rpc e) =? K_ReportBadTS). { exact HP. }
+  destruct (k_kind (p_rpc e) =? K_Alloc) eqn:KA.
+  { apply Z.eqb_eq in KA. destruct (find_round _ _) as [rd|]; cbn [fst]; [|exact HP].
+    destruct (negb _); cbn [fst]; [exact HP|].
+    apply (PInv_dtr fx st); try reflexivity; [exact HD| |apply dstep_refl|exact HP].
+    cbn [s_nextchunk set_ghost set_dur]. pose proof (pv_alloc _ _ HP e He KA). unfold aux_nth. lia. }
+  destruct (k_kind (p_rpc e) =? K_Commit).
+  { destruct (find_round _ _) as [rd|]; cbn [fst]; [|exact HP].
+    destruct (find_enc_chunk _ _) as [eo|]; cbn [fst]; [|exact HP].
+    match goal with |- context [commit_rs ?a ?b ?c ?d ?e0 ?f ?g] =>
+      pose proof (pC7_commit_rs a b c d e0 f g) as M; pose proof (dstep_commit_rs a b c d e0 f g H6) as S; destruct (commit_rs a b c d e0 f g) as [s1 c1] end.
+    cbn [fst] in *. unfold pC7 in M. injection M as M1 M2 M3 M4 M5 M6 M7.
+    apply (PInv_dtr fx st); try assumption. lia. }
+  exact HP.
+Qed.
+
+(* ------------------------------------------------------------------ what an execution tells about its result *)
+Lemma ts_setversion_match st ts tsid tk nv s st1 : ts_setversion st ts tsid tk nv (Some s) = (st1, cl_NoError) ->
+  stamp_of st1 ts tk = s.
+Proof.
+  unfold ts_setversion. destruct (negb (ts =? tsid)); [intros H; injection H as _ H; exfalso; vm_compute in H; discriminate|].
+  destruct (nv <=? 1); [intros H; injection H as _ H; exfalso; vm_compute in H; discriminate|].
+  destruct (rget (s_reps st) (ts, tk)) as [r0|]; [|intros H; injection H as _ H; exfalso; vm_compute in H; discriminate].
+  destruct (negb (stamp_eqb s (stamp_of st ts tk))) eqn:E; [intros H; injection H as _ H; exfalso; vm_compute in H; discriminate|].
+  apply negb_false_iff in E. unfold stamp_eqb in E. apply andb_true_iff in E. destruct E as [E1 E2]. apply Z.eqb_eq in E1, E2.
+  destruct (Cluster.Model.ts_setversion (s_reps st) ts tsid tk nv) as [reps c]. intros H. injection H as <- _.
+  change (stamp_of (set_reps st reps) ts tk) with (stamp_of st ts tk). destruct s, (stamp_of st ts tk). cbn in *. congruence.
+Qed.
+
+Lemma exec_res_okP fx st e extra : fx13 fx = true -> PInv fx st -> RInv fx st -> TInv st -> In e (s_pool st) ->
+  res_okP fx (st_of (exec_rpc fx st e extra)) e (res_of (exec_rpc fx st e extra)).
+Proof.
+  intros H13 HP HR HT He. constructor.
+  - intros K. unfold exec_rpc, st_of, res_of. rewrite K. change (K_CtlStat =? K_Write) with false. change (K_CtlStat =? K_SetVersion) with false.
+    change (K_CtlStat =? K_CtlStat) with true. cbv iota zeta. unfold ts_stat.
+    change (tkey (k_blob (p_rpc e)) (k_tract (p_rpc e))) with (rpc_tk (p_rpc e)).
+    destruct (rget (s_reps st) (k_ts (p_rpc e), rpc_tk (p_rpc e))) as [r0|] eqn:R0; cbn [fst snd hd nth].
+    + destruct (r_ver r0 =? k_ver (p_rpc e)); cbn [fst snd hd nth]; intros _; exists r0; (split; [exact R0|]); destruct (stamp_of st _ _); reflexivity.
+    + intros C. exfalso. vm_compute in C. discriminate.
+  - intros K. unfold exec_rpc, st_of, res_of. rewrite K.
+    change (K_Alloc =? K_Write) with false. change (K_Alloc =? K_SetVersion) with false. change (K_Alloc =? K_CtlStat) with false.
+    change (K_Alloc =? K_PackTracts) with false. change (K_Alloc =? K_RSEncode) with false. change (K_Alloc =? K_GCTract) with false.
+    change (K_Alloc =? K_StatBlob) with false. change (K_Alloc =? K_GetTracts) with false. change (K_Alloc =? K_ReportBadTS) with false.
+    change (K_Alloc =? K_Alloc) with true. cbv iota.
+    destruct (find_round _ _) as [rd|]; cbn [fst snd hd]; [|intros C; exfalso; vm_compute in C; discriminate].
+    destruct (negb _); cbn [fst snd hd nth]; [intros C; exfalso; vm_compute in C; discriminate|]. intros _.
+    cbn [s_nextchunk s_rounds s_pool set_ghost set_dur]. unfold aux_nth. split; [lia|]. split.
+    + intros r0 e0 H0 He0. exact (pi_ch _ _ _ (pv_rounds _ _ HP r0 H0) e0 He0).
+    + intros x Hx Kx. exact (proj1 (pv_gc _ _ HP x Hx Kx)).
+  - intros K. unfold exec_rpc, st_of, res_of. rewrite K.
+    change (K_PackTracts =? K_Write) with false. change (K_PackTracts =? K_SetVersion) with false. change (K_PackTracts =? K_CtlStat) with false.
+    change (K_PackTracts =? K_PackTracts) with true. cbv iota.
+    change (match round_of_gen st (Cluster.Model.k_gen (p_rpc e)) with Some rd => _ | None => [] end) with (pack_specs fx st (p_rpc e)).
+    destruct (PInv_exec_pack fx st e extra H13 HP HR HT He K) as [_ Fr].
+    destruct (ts_pack st (k_ts (p_rpc e)) (aux_nth (p_rpc e) 0) (aux_nth (p_rpc e) 1) (Cluster.Model.k_len (p_rpc e)) (pack_specs fx st (p_rpc e)) extra) as [s1 c1] eqn:E.
+    cbn [fst snd hd] in *. intros C r e0 Frd A. apply (Fr C r e0); [|exact A].
+    assert (Er: s_rounds s1 = s_rounds st) by (replace s1 with (fst (s1, c1)) by reflexivity; rewrite <- E; apply (fr_ts_pack _ s_rounds); fr).
+    rewrite <- Er. exact Frd.
+  - intros K C Ha. pose proof (exec_sv_ok fx st e extra K C) as B. split; [exact B|].
+    unfold exec_rpc, st_of, res_of in *. rewrite K in *. change (K_SetVersion =? K_Write) with false in *. change (K_SetVersion =? K_SetVersion) with true in *. cbv iota in *.
+    replace (aux_nth (p_rpc e) 1 =? 0) with false in * by (symmetry; apply Z.eqb_neq; exact Ha).
+    match goal with |- context [ts_setversion ?a ?b ?c ?d ?e0 ?f] => destruct (ts_setversion a b c d e0 f) as [s1 c1] eqn:E end.
+    cbn [fst snd hd] in *. subst c1. exact (ts_setversion_match _ _ _ _ _ _ _ E).
+Qed.
+
+(* ------------------------------------------------------------------ a duplicate execution (mode 3) *)
+Lemma pack_first_pieces st pcs from failed tk ver len : pack_first (set_pieces st pcs) from failed tk ver len = pack_first st from failed tk ver len.
+Proof. induction from as [|h l IH]; cbn [pack_first]; [reflexivity|]. rewrite IH. reflexivity. Qed.
+Lemma pack_items_pieces st pcs specs failed : pack_items (set_pieces st pcs) specs failed = pack_items st specs failed.
+Proof.
+  induction specs as [|[[[[tk off] len] ver] from] l IH]; cbn [pack_items]; [reflexivity|]. rewrite pack_first_pieces, IH. reflexivity.
+Qed.
+
+Lemma exec_pack_eq fx st e extra : k_kind (p_rpc e) = K_PackTracts ->
+  exec_rpc fx st e extra =
+  (fst (ts_pack st (k_ts (p_rpc e)) (aux_nth (p_rpc e) 0) (aux_nth (p_rpc e) 1) (Cluster.Model.k_len (p_rpc e)) (pack_specs fx st (p_rpc e)) extra),
+   [snd (ts_pack st (k_ts (p_rpc e)) (aux_nth (p_rpc e) 0) (aux_nth (p_rpc e) 1) (Cluster.Model.k_len (p_rpc e)) (pack_specs fx st (p_rpc e)) extra)], None,
+   dump_piece (fst (ts_pack st (k_ts (p_rpc e)) (aux_nth (p_rpc e) 0) (aux_nth (p_rpc e) 1) (Cluster.Model.k_len (p_rpc e)) (pack_specs fx st (p_rpc e)) extra)) (k_ts (p_rpc e)) (aux_nth (p_rpc e) 1)).
+Proof.
+  intros K. unfold exec_rpc. rewrite K.
+  change (K_PackTracts =? K_Write) with false. change (K_PackTracts =? K_SetVersion) with false. change (K_PackTracts =? K_CtlStat) with false.
+  change (K_PackTracts =? K_PackTracts) with true. cbv iota.
+  change (match round_of_gen st (Cluster.Model.k_gen (p_rpc e)) with Some rd => _ | None => [] end) with (pack_specs fx st (p_rpc e)).
+  cbv zeta. destruct (ts_pack _ _ _ _ _ _ _) as [s1 c1]. reflexivity.
+Qed.
+
+Lemma exec_pack_twice fx st e extra : k_kind (p_rpc e) = K_PackTracts ->
+  res_of (exec_rpc fx (st_of (exec_rpc fx st e extra)) e extra) = res_of (exec_rpc fx st e extra).
+Proof.
+  intros K. rewrite (exec_pack_eq fx st e extra K). unfold st_of at 1. cbn [fst]. rewrite (exec_pack_eq fx _ e extra K). unfold res_of. cbn [fst snd].
+  f_equal. set (s1 := fst (ts_pack st _ _ _ _ _ _)).
+  assert (Er: s_rounds s1 = s_rounds st) by (apply (fr_ts_pack _ s_rounds); fr).
+  assert (Es: pack_specs fx s1 (p_rpc e) = pack_specs fx st (p_rpc e)) by (unfold pack_specs, round_of_gen; rewrite Er; reflexivity).
+  rewrite Es. unfold s1, ts_pack. destruct (negb _); [reflexivity|].
+  destruct (pack_items st _ _) eqn:E; cbn [fst snd]; rewrite pack_items_pieces, E; reflexivity.
+Qed.
+
+Lemma ts_setversion_stamps st ts tsid tk nv cond :
+  s_stamps (fst (ts_setversion st ts tsid tk nv cond)) = s_stamps st /\ s_epoch (fst (ts_setversion st ts tsid tk nv cond)) = s_epoch st.
+Proof.
+  unfold ts_setversion. destruct (negb (ts =? tsid)); [auto|]. destruct (nv <=? 1); [auto|].
+  destruct (match cond with None => false | Some s => _ end); [auto|].
+  destruct (Cluster.Model.ts_setversion (s_reps st) ts tsid tk nv) as [reps c]. cbn. auto.
+Qed.
+
+Lemma res_okP_exec2 fx s e extra res : PInv fx s -> In e (s_pool s) -> k_kind (p_rpc e) <> K_PackTracts ->
+  res_okP fx s e res -> res_okP fx (st_of (exec_rpc fx s e extra)) e res.
+Proof.
+  intros HP He NK0 [Rs Ra Rp Rv]. constructor.
+  - intros K C. replace (st_of (exec_rpc fx s e extra)) with s; [exact (Rs K C)|].
+    unfold exec_rpc, st_of. rewrite K. change (K_CtlStat =? K_Write) with false. change (K_CtlStat =? K_SetVersion) with false.
+    change (K_CtlStat =? K_CtlStat) with true. cbv iota zeta. destruct (ts_stat _ _ _ _) as [[c sz] stp]. reflexivity.
+  - intros K C. destruct (Ra K C) as [A1 [A2 A3]].
+    pose proof (pR_exec_rpc fx s e extra) as P1. unfold pR in P1. injection P1 as Q1 _ Q3 _ _ _.
+    assert (N: s_nextchunk s <= s_nextchunk (st_of (exec_rpc fx s e extra))).
+    { unfold exec_rpc, st_of. rewrite K.
+      change (K_Alloc =? K_Write) with false. change (K_Alloc =? K_SetVersion) with false. change (K_Alloc =? K_CtlStat) with false.
+      change (K_Alloc =? K_PackTracts) with false. change (K_Alloc =? K_RSEncode) with false. change (K_Alloc =? K_GCTract) with false.
+      change (K_Alloc =? K_StatBlob) with false. change (K_Alloc =? K_GetTracts) with false. change (K_Alloc =? K_ReportBadTS) with false.
+      change (K_Alloc =? K_Alloc) with true. cbv iota.
+      destruct (find_round _ _) as [rd|]; cbn [fst]; [|lia]. destruct (negb _); cbn [fst]; [lia|].
+      cbn [s_nextchunk set_ghost set_dur]. pose proof (pv_alloc _ _ HP e He K). unfold aux_nth. lia. }
+    rewrite Q1, Q3. split; [lia|]. split; assumption.
+  - intros K. exfalso. exact (NK0 K).
+  - intros K C Ha. destruct (Rv K C Ha) as [B1 B2]. split; [exact (bumped_srel _ _ (srel_exec_rpc fx s e extra) _ _ _ B1)|].
+    rewrite <- B2. unfold exec_rpc, st_of. rewrite K. change (K_SetVersion =? K_Write) with false. change (K_SetVersion =? K_SetVersion) with true. cbv iota.
+    match goal with |- context [ts_setversion ?a ?b ?c ?d ?e0 ?f] => pose proof (ts_setversion_stamps a b c d e0 f) as Q;
+      destruct (ts_setversion a b c d e0 f) as [s1 c1] end.
+    cbn [fst] in *. destruct Q as [Q1 Q2]. unfold stamp_of, epoch_of. rewrite Q1, Q2. reflexivity.
+Qed.
+
+Lemma res_okP_err fx st pe res : hd cl_ErrRPC res <> cl_NoError -> res_okP fx st pe res.
+Proof. intros N. constructor; intros _ C; exfalso; exact (N C). Qed.
+
+Lemma PInv_mark_run fx st e b : PInv fx st -> RInv fx st -> In e (s_pool st) -> k_kind (p_rpc e) = K_FixVersion ->
+  PInv fx (set_pool st (map (mark_run e b) (s_pool st)) (s_next st)).
+Proof.
+  intros HP HR He Ke. apply (PInv_pPJ_NK fx st); [reflexivity| |exact HP].
+  intros x Hx. cbn [s_pool set_pool] in Hx. apply in_map_iff in Hx. destruct Hx as [y [<- Hy]].
+  unfold mark_run. destruct (p_id y =? p_id e) eqn:E; [|left; exact Hy]. right. cbn [p_rpc].
+  apply Z.eqb_eq in E. rewrite (nodup_id_eq _ y e (rv_nodup _ _ HR) Hy He E). unfold notpk, notpeg. rewrite Ke. reflexivity.
+Qed.
+
+Lemma PInv_step_exec fx st mode l : fx6 fx = true -> fx13 fx = true ->
+  PInv fx st -> RInv fx st -> DInv st -> TInv st -> PInv fx (fst (step_exec fx st mode l)).
+Proof.
+  intros H6 H13 HP HR HD HT. unfold step_exec. destruct (Cluster.Model.parse_rpc l) as [[rp r1]|]; [|exact HP].
+  destruct (match r1 with [] => _ | n :: t => _ end) as [extra r2].
+  destruct (find_pent (s_pool st) rp) as [e|] eqn:Fe; [|exact HP].
+  apply find_pent_in in Fe. destruct Fe as [He Eq].
+  destruct (mode =? 4).
+  { cbn [fst]. apply PInv_deliver; try assumption. apply res_okP_err. cbn. apply lost_err_ne. }
+  destruct (k_kind rp =? K_FixVersion) eqn:Kf.
+  { cbn [fst]. apply Z.eqb_eq in Kf. assert (Ke: k_kind (p_rpc e) = K_FixVersion) by (rewrite (rpc_eqb_kind _ _ Eq); exact Kf).
+    match goal with |- context [map ?f (s_pool st)] => change f with (mark_run e (mode =? 2)) end.
+    apply PInv_start_fix. apply PInv_mark_run; assumption. }
+  pose proof (RInv_exec fx st e extra HR) as R1. pose proof (PInv_exec fx st e extra H6 H13 HP HR HD HT He) as P1.
+  pose proof (DInv_exec_rpc fx st e extra H6 HD) as D1. pose proof (exec_res_okP fx st e extra H13 HP HR HT He) as N1.
+  pose proof (pR_exec_rpc fx st e extra) as Q1. pose proof (exec_pack_twice fx st e extra) as W1.
+  unfold st_of, res_of in *.
+  destruct (exec_rpc fx st e extra) as [[[st1 res] en] dump] eqn:X1. cbn [fst snd] in *.
+  assert (Qp: s_pool st1 = s_pool st /\ s_rounds st1 = s_rounds st) by (unfold pR in Q1; injection Q1 as A1 _ A3 _ _ _; auto).
+  destruct Qp as [Qp Qr]. assert (He1: In e (s_pool st1)) by (rewrite Qp; exact He).
+  assert (T1: TInv st1) by (eapply TInv_same; [exact Qr|exact HT]).
+  destruct (mode =? 3) eqn:M3.
+  - pose proof (RInv_exec fx st1 e extra R1) as R2. pose proof (PInv_exec fx st1 e extra H6 H13 P1 R1 D1 T1 He1) as P2.
+    pose proof (DInv_exec_rpc fx st1 e extra H6 D1) as D2. pose proof (exec_res_okP fx st1 e extra H13 P1 R1 T1 He1) as N2.
+    pose proof (res_okP_exec2 fx st1 e extra res P1 He1) as N3.
+    pose proof (pR_exec_rpc fx st1 e extra) as Q2. unfold st_of, res_of in *.
+    destruct (exec_rpc fx st1 e extra) as [[[s' res2] en2] d'] eqn:X2. cbn [fst snd] in *.
+    assert (He2: In e (s_pool s')) by (unfold pR in Q2; injection Q2 as -> _ _ _ _ _; exact He1).
+    replace (if mode =? 2 then [lost_err rp] else res) with res by (destruct (mode =? 2) eqn:M2; [apply Z.eqb_eq in M2, M3; lia|reflexivity]).
+    apply PInv_deliver; try assumption.
+    destruct (Z.eq_dec (k_kind (p_rpc e)) K_PackTracts) as [Kp|Kp]; [rewrite <- (W1 Kp); exact N2|exact (N3 Kp N1)].
+  - apply PInv_deliver; try assumption. destruct (mode =? 2); [apply res_okP_err; cbn; apply lost_err_ne|exact N1].
+Qed.
+
+Lemma PInv_step_restart fx st ts : PInv fx st -> RInv fx st -> DInv st -> PInv fx (fst (step_restart fx st ts)).
+Proof.
+  intros HP HR HD.
+  assert (G: PInv fx (fst (step_restart fx st ts)) /\ DInv (fst (step_restart fx st ts))); [|exact (proj1 G)].
+  apply (restart_ind fx st ts (fun s => PInv fx s /\ DInv s) HR).
+  - split; [exact (PInv_restart fx st ts HP)|eapply DInv_pD; [|exact HD]; reflexivity].
+  - intros s e Rs He [Ps Ds]. split.
+    + apply PInv_deliver; try assumption. apply res_okP_err. cbn. vm_compute. discriminate.
+    + apply DInv_deliver; [exact Ds|apply en_okD_none].
+Qed.
+
+(* ------------------------------------------------------------------ a new round *)
+Definition pC6 (st : state) := (s_rounds st, s_pool st, s_pieces st, s_reps st, s_stamps st, s_epoch st).
+
+Lemma update_class_nextchunk st op term blob cls : s_nextchunk (fst (update_class st op term blob cls)) = s_nextchunk st.
+Proof.
+  unfold update_class. destruct (negb _); [reflexivity|]. destruct (zget _ _); [|reflexivity]. destruct (negb _); reflexivity.
+Qed.
+
+Lemma add_tracts_nostamps st gen blob p : In p (add_tracts st gen blob) -> pt_stamps p = [].
+Proof.
+  unfold add_tracts. intros H. apply in_flat_map in H. destruct H as [tk [_ H]].
+  destruct (dget st tk) as [d|]; [|destruct H]. destruct (d_rs d); [destruct H|]. destruct H as [<-|[]]. reflexivity.
+Qed.
+
+Lemma round_start_fold st op (F : state * list ptr * list Z -> Z -> state * list ptr * list Z) :
+  F = (fun '(s, acc, o) blob =>
+         match Cluster.Model.zget (s_blobs s) blob with
+         | None => (s, acc, o)
+         | Some b =>
+             if b_cls b =? b_tgt b then (s, acc, o)
+             else if all_rs s blob then
+               let '(s', _) := update_class s op (s_term st) blob (b_tgt b) in
+               (s', acc, o ++ [blob; match Cluster.Model.zget (s_blobs s') blob with Some b' => b_cls b' | None => -1 end])
+             else if b_cls b =? c14_ClassREPLICATED then (s, acc ++ add_tracts s (s_gen st) blob, o)
+             else (s, acc, o)
+         end) ->
+  forall l acc,
+    (pC6 (fst (fst acc)) = pC6 st /\ s_nextchunk (fst (fst acc)) = s_nextchunk st /\ dstep (s_dtr st) (s_dtr (fst (fst acc))) /\
+     forall p, In p (snd (fst acc)) -> pt_stamps p = []) ->
+    pC6 (fst (fst (fold_left F l acc))) = pC6 st /\ s_nextchunk (fst (fst (fold_left F l acc))) = s_nextchunk st /\
+    dstep (s_dtr st) (s_dtr (fst (fst (fold_left F l acc)))) /\ forall p, In p (snd (fst (fold_left F l acc))) -> pt_stamps p = [].
+Proof.
+  intros EF. induction l as [|a l IH]; intros acc Hacc; cbn [fold_left]; [exact Hacc|].
+  apply IH. destruct acc as [[s a0] o]. cbn [fst snd] in Hacc. destruct Hacc as [H1 [H2 [H3 H4]]]. rewrite EF. cbn [fst snd].
+  assert (Keep: pC6 s = pC6 st /\ s_nextchunk s = s_nextchunk st /\ dstep (s_dtr st) (s_dtr s) /\ forall p, In p a0 -> pt_stamps p = []) by auto.
+  destruct (zget (s_blobs s) a); [|exact Keep].
+  destruct (b_cls b =? b_tgt b); [exact Keep|].
+  destruct (all_rs s a).
+  - pose proof (fr_update_class _ pC6 ltac:(fr) ltac:(fr) s op (s_term st) a (b_tgt b)) as M.
+    pose proof (update_class_nextchunk s op (s_term st) a (b_tgt b)) as N.
+    pose proof (dstep_update_class s op (s_term st) a (b_tgt b)) as S.
+    destruct (update_class s op (s_term st) a (b_tgt b)) as [s' c']. cbn [fst snd] in *.
+    split; [rewrite M; exact H1|]. split; [rewrite N; exact H2|]. split; [exact (dstep_trans _ _ _ H3 S)|exact H4].
+  - destruct (b_cls b =? c14_ClassREPLICATED); cbn [fst snd]; [|exact Keep].
+    split; [exact H1|]. split; [exact H2|]. split; [exact H3|].
+    intros p Hp. apply in_app_or in Hp. destruct Hp as [Hp|Hp]; [exact (H4 p Hp)|exact (add_tracts_nostamps _ _ _ _ Hp)].
+Qed.
+
+Lemma PInv_new_round fx st r : PInv fx st -> rd_encs r = [] -> (forall p, In p (rd_tracts r) -> pt_stamps p = []) ->
+  (forall r0, In r0 (s_rounds st) -> rd_op r0 <> rd_op r) -> (forall r0, In r0 (s_rounds st) -> rd_gen r0 <> rd_gen r) ->
+  (forall x, In x (s_pool st) -> p_owner x <> rd_op r) ->
+  PInv fx (set_rounds st (s_rounds st ++ [r])).
+Proof.
+  intros [A A' B C D Al E] En Ns Fo Fg Fp.
+  assert (NDapp: forall (f : round -> Z), NoDup (map f (s_rounds st)) -> (forall r0, In r0 (s_rounds st) -> f r0 <> f r) -> NoDup (map f (s_rounds st ++ [r]))).
+  { intros f N Hf. rewrite map_app. cbn [map]. apply NoDup_app_disj; [exact N|constructor; [intros []|constructor]|].
+    intros k H1 [<-|[]]. apply in_map_iff in H1. destruct H1 as [r0 [E0 H0]]. exact (Hf r0 H0 E0). }
+  constructor; cbn [s_rounds s_pool s_nextchunk set_rounds].
+  - exact (NDapp rd_gen A Fg).
+  - exact (NDapp rd_op A' Fo).
+  - intros r1 r2 e1 e2 c H1 H2 He1 He2. apply in_app_or in H1, H2.
+    destruct H1 as [H1|[<-|[]]]; [|rewrite En in He1; destruct He1]. destruct H2 as [H2|[<-|[]]]; [|rewrite En in He2; destruct He2].
+    exact (B r1 r2 e1 e2 c H1 H2 He1 He2).
+  - intros pe Hpe K. destruct (C pe Hpe K) as [r0 [H0 O0]]. exists r0. split; [apply in_or_app; left; exact H0|exact O0].
+  - intros pe Hpe K. destruct (D pe Hpe K) as [D1 D2]. split; [exact D1|]. intros r0 e0 H0 He0. apply in_app_or in H0.
+    destruct H0 as [H0|[<-|[]]]; [exact (D2 r0 e0 H0 He0)|rewrite En in He0; destruct He0].
+  - exact Al.
+  - intros r0 H0. apply in_app_or in H0. destruct H0 as [H0|[<-|[]]].
+    + apply (PR1_other fx st); [reflexivity|intros x Hx _; exact Hx|exact (E r0 H0)].
+    + constructor; cbn [s_rounds s_pool s_nextchunk set_rounds]; try (rewrite En; intros e0 []).
+      * intros pe e0 Hpe O. exfalso. exact (Fp pe Hpe O).
+      * intros pe1 pe2 Hpe _ O. exfalso. exact (Fp pe1 Hpe O).
+      * intros pe e0 Hpe O. exfalso. exact (Fp pe Hpe O).
+      * intros p h s Hp Z. rewrite (Ns p Hp) in Z. discriminate.
+      * intros [].
+      * intros [].
+Qed.
+
+Definition rs_F (st : state) (op : Z) : state * list ptr * list Z -> Z -> state * list ptr * list Z :=
+  fun '(s, acc, o) blob =>
+    match Cluster.Model.zget (s_blobs s) blob with
+    | None => (s, acc, o)
+    | Some b =>
+        if b_cls b =? b_tgt b then (s, acc, o)
+        else if all_rs s blob then
+          let '(s', _) := update_class s op (s_term st) blob (b_tgt b) in
+          (s', acc, o ++ [blob; match Cluster.Model.zget (s_blobs s') blob with Some b' => b_cls b' | None => -1 end])
+        else if b_cls b =? c14_ClassREPLICATED then (s, acc ++ add_tracts s (s_gen st) blob, o)
+        else (s, acc, o)
+    end.
+
+Definition rs_round (st : state) (op : Z) (tracts : list ptr) : round :=
+  {| rd_op := op; rd_gen := s_gen st; rd_term := s_term st; rd_phase := 1; rd_tracts := tracts; rd_encs := []; rd_done := 0 |}.
+
+Lemma round_start_eq st op :
+  round_start st op =
+  (let '(st1, tracts, obs) := fold_left (rs_F st op) (blob_ids st) (st, [], []) in
+   let r := rs_round st op tracts in
+   let st3 := issue_all (set_rounds st1 (s_rounds st1 ++ [r])) (stat_list (s_gen st) op tracts) in
+   ((if all_stats_done r then round_after_stats st3 r else st3), obs)).
+Proof.
+  unfold round_start. fold (rs_F st op). destruct (fold_left (rs_F st op) (blob_ids st) (st, [], [])) as [[st1 tracts] obs].
+  cbv zeta. rewrite fold_stat_issue. reflexivity.
+Qed.
+
+Lemma RInv_round_start_mid fx st op st1 tracts obs : RInv fx st -> op_fresh st op = true ->
+  fold_left (rs_F st op) (blob_ids st) (st, [], []) = (st1, tracts, obs) ->
+  pR st1 = pR st /\ RInv fx (issue_all (set_rounds st1 (s_rounds st1 ++ [rs_round st op tracts])) (stat_list (s_gen st) op tracts)).
+Proof.
+  intros HI Hop EF. destruct (op_fresh_spec st op Hop) as [Pos [Fw [Frd Fp]]].
+  set (F := rs_F st op) in *.
+  assert (J: forall l acc, NoDup l ->
+             (pR2 (fst (fst acc)) = pR2 st /\ NoDup (map pt_tk (snd (fst acc))) /\
+              (forall p, In p (snd (fst acc)) -> ~ In (fst (pt_tk p)) l) /\ (forall p, In p (snd (fst acc)) -> ptr_init p)) ->
+             pR2 (fst (fst (fold_left F l acc))) = pR2 st /\ NoDup (map pt_tk (snd (fst (fold_left F l acc)))) /\
+             (forall p, In p (snd (fst (fold_left F l acc))) -> ptr_init p)).
+  { induction l as [|a l IH]; intros acc N Hacc; cbn [fold_left]; [tauto|].
+    inversion N as [|? ? N1 N2]; subst. apply IH; [exact N2|].
+    destruct acc as [[s a0] o]. cbn [fst snd] in Hacc. destruct Hacc as [H1 [H2 [H3 H4]]]. unfold F, rs_F. cbn [fst snd].
+    assert (Keep: pR2 s = pR2 st /\ NoDup (map pt_tk a0) /\ (forall p, In p a0 -> ~ In (fst (pt_tk p)) l) /\ (forall p, In p a0 -> ptr_init p)).
+    { split; [exact H1|]. split; [exact H2|]. split; [|exact H4]. intros p Hp K. apply (H3 p Hp). right. exact K. }
+    destruct (zget (s_blobs s) a); [|exact Keep].
+    destruct (b_cls b =? b_tgt b); [exact Keep|].
+    destruct (all_rs s a).
+    - pose proof (fr_update_class _ pR2 ltac:(fr) ltac:(fr) s op (s_term st) a (b_tgt b)) as M.
+      destruct (update_class s op (s_term st) a (b_tgt b)) as [s' c']. cbn [fst snd] in *.
+      destruct Keep as [_ K2]. split; [rewrite M; exact H1|exact K2].
+    - destruct (b_cls b =? c14_ClassREPLICATED); cbn [fst snd]; [|exact Keep].
+      destruct (add_tracts_keys s (s_gen st) a) as [AK1 AK2]. split; [exact H1|]. split; [|split].
+      + rewrite map_app. apply NoDup_app_disj; [exact H2|exact AK1|].
+        intros k Hk1 Hk2. apply in_map_iff in Hk1. destruct Hk1 as [p [E1 Hp]]. apply in_map_iff in Hk2. destruct Hk2 as [q [E2 Hq]].
+        apply (H3 p Hp). left. rewrite E1, <- E2. symmetry. exact (AK2 q Hq).
+      + intros p Hp K. apply in_app_or in Hp. destruct Hp as [Hp|Hp]; [apply (H3 p Hp); right; exact K|].
+        rewrite (AK2 p Hp) in K. contradiction.
+      + intros p Hp. apply in_app_or in Hp. destruct Hp as [Hp|Hp]; [exact (H4 p Hp)|eapply add_tracts_init; exact Hp]. }
+  specialize (J (blob_ids st) (st, [], []) (blob_ids_NoDup st)). cbn [fst snd] in J.
+  destruct J as [J1 [J2 J3]]; [split; [reflexivity|]; split; [constructor|]; split; intros p []|].
+  rewrite EF in J1, J2, J3. cbn [fst snd] in *.
+  assert (JR: pR st1 = pR st) by (exact (f_equal fst J1)).
+  assert (Jreps: s_reps st1 = s_reps st) by (exact (f_equal snd J1)).
+  assert (B1: RInv fx st1) by (exact (RInv_same fx st st1 JR Jreps HI)).
+  split; [exact JR|].
+  pose proof JR as JR'. unfold pR in JR'. injection JR' as Jpool Jnext Jrounds Jwops Jfix Jnfix.
+  set (r := rs_round st op tracts).
+  apply (RInv_new_round fx st1 r).
+  - exact B1.
+  - rewrite Jrounds. exact Frd.
+  - intros rp o Hin. exact (proj1 (stat_list_in _ _ _ _ _ Hin)).
+  - destruct (issue_all_spec (stat_list (s_gen st) op tracts) (set_rounds st1 (s_rounds st1 ++ [r]))) as [P1 [P2 P3]].
+    unfold pO in P3. injection P3 as Q1 Q2 Q3 Q4 Q5.
+    apply (new_R1 fx _ (s_gen st) (s_term st) op tracts (s_pool st1) (s_next st1)); [exact J2|exact J3|exact Pos| | |exact P1].
+    + rewrite Q2. cbn [s_wops set_rounds]. rewrite Jwops. exact Fw.
+    + rewrite Jpool. exact Fp.
+Qed.
+
+Lemma pPJ_issue_all rs : forall s, pPJ (issue_all s rs) = pPJ s.
+Proof. induction rs as [|[a b] l IH]; intros s; cbn [issue_all fold_left]; [reflexivity|]. unfold issue_all in IH. rewrite IH. reflexivity. Qed.
+
+Lemma NKr_issue_all st rs : (forall rp o, In (rp, o) rs -> notpk rp = true) -> forall s, NK st s -> NK st (issue_all s rs).
+Proof.
+  induction rs as [|[a b] l IH]; intros Hn s K; cbn [issue_all fold_left]; [exact K|].
+  apply (IH (fun rp o H => Hn rp o (or_intror H))). apply NKr_issue; [exact (Hn a b (or_introl eq_refl))|exact K].
+Qed.
+
+Lemma PInv_round_start fx st op : PInv fx st -> RInv fx st -> DInv st -> op_fresh st op = true ->
+  (forall r0, In r0 (s_rounds st) -> rd_gen r0 <> s_gen st) -> PInv fx (fst (round_start st op)).
+Proof.
+  intros HP HR HD Hop Hg. destruct (op_fresh_spec st op Hop) as [Pos [Fw [Frd Fp]]]. rewrite round_start_eq.
+  destruct (fold_left (rs_F st op) (blob_ids st) (st, [], [])) as [[st1 tracts] obs] eqn:EF.
+  destruct (RInv_round_start_mid fx st op st1 tracts obs HR Hop EF) as [JR R3].
+  pose proof (round_start_fold st op (rs_F st op) eq_refl (blob_ids st) (st, [], [])) as J. rewrite EF in J. cbn [fst snd] in J.
+  destruct J as [C6 [N [Ds Ns]]]; [split; [reflexivity|]; split; [reflexivity|]; split; [apply dstep_refl|intros p []]|].
+  unfold pC6 in C6. injection C6 as E1 E2 E3 E4 E5 E6.
+  assert (P1: PInv fx st1) by (apply (PInv_dtr fx st st1 HD); try assumption; lia).
+  set (r := rs_round st op tracts) in *. cbv zeta.
+  assert (P2: PInv fx (set_rounds st1 (s_rounds st1 ++ [r]))).
+  { apply PInv_new_round; [exact P1|reflexivity|exact Ns| | |]; rewrite ?E1, ?E2; [exact Frd|exact Hg|exact Fp]. }
+  assert (P3: PInv fx (issue_all (set_rounds st1 (s_rounds st1 ++ [r])) (stat_list (s_gen st) op tracts))).
+  { apply (PInv_pPJ_NK fx (set_rounds st1 (s_rounds st1 ++ [r]))); [apply pPJ_issue_all| |exact P2].
+    apply NKr_issue_all; [|apply NK_refl]. intros rp o Hin. destruct (stat_list_in _ _ _ _ _ Hin) as [_ [p [h [rest [_ [_ ->]]]]]]. reflexivity. }
+  cbn [fst]. destruct (all_stats_done r); [|exact P3].
+  apply PInv_after_stats; [exact P3|exact R3| |reflexivity|reflexivity].
+  destruct (issue_all_spec (stat_list (s_gen st) op tracts) (set_rounds st1 (s_rounds st1 ++ [r]))) as [_ [_ Q3]].
+  unfold pO in Q3. injection Q3 as _ _ _ _ Q5. rewrite Q5. cbn [s_rounds set_rounds]. apply in_or_app. right. left. reflexivity.
+Qed.
+
+(* ------------------------------------------------------------------ steps *)
+(* the scheduling restriction: a curator incarnation runs one round at a time (PackTracts/RSEncode look the round up by incarnation) *)
+Definition gen_free (st : state) : bool := forallb (fun r => negb (rd_gen r =? s_gen st)) (s_rounds st).
+Definition ev_gen_ok (st : state) (ev : list Z) : bool := match ev with c :: _ => if c =? 80 then gen_free st else true | [] => true end.
+
+Lemma gen_free_spec st : gen_free st = true -> forall r0, In r0 (s_rounds st) -> rd_gen r0 <> s_gen st.
+Proof. unfold gen_free. intros H r0 H0 E. rewrite forallb_forall in H. specialize (H r0 H0). apply negb_true_iff, Z.eqb_neq in H. contradiction. Qed.
+
+Lemma NK_pool st st' : s_pool st' = s_pool st -> NK st st'.
+Proof. intros H. apply NKr_eq with (s := st); [exact H|apply NK_refl]. Qed.
+
+Lemma PInv_step fx st ev : fx6 fx = true -> fx13 fx = true -> ev_run ev = true -> ev_gen_ok st ev = true ->
+  PInv fx st -> RInv fx st -> DInv st -> TInv st -> PInv fx (fst (step_fx fx st ev)).
+Proof.
+  intros H6 H13 Hev Hg HP0 HR0 HD0 HT0. unfold step_fx.
+  assert (HP: PInv fx (begin_event st)) by (apply (PInv_pPJ_NK fx st); [reflexivity|apply NK_pool; reflexivity|exact HP0]).
+  assert (HR: RInv fx (begin_event st)) by (eapply RInv_same; [| |exact HR0]; reflexivity).
+  assert (HD: DInv (begin_event st)) by (eapply DInv_pD; [|exact HD0]; reflexivity).
+  assert (HT: TInv (begin_event st)) by (eapply TInv_same; [|exact HT0]; reflexivity).
+  assert (Hg': ev_gen_ok (begin_event st) ev = true) by exact Hg.
+  clear Hg HP0 HR0 HD0 HT0. set (s := begin_event st) in *.
+  destruct ev as [|c a]; [exact HP|]. cbn [ev_run existsb] in Hev. cbn [ev_gen_ok] in Hg'.
+  destruct (c =? 1) eqn:C1; [apply Z.eqb_eq in C1; subst c; discriminate|].
+  destruct (c =? 2) eqn:C2; [apply Z.eqb_eq in C2; subst c; discriminate|].
+  destruct (c =? 20) eqn:C20; [apply Z.eqb_eq in C20; subst c; discriminate|].
+  destruct (c =? 21) eqn:C21; [apply Z.eqb_eq in C21; subst c; discriminate|].
+  destruct (c =? 22).
+  { destruct a as [|blob [|tract [|]]]; try exact HP. destruct (dget s _); exact HP. }
+  destruct (c =? 3).
+  { destruct a as [|op [|cli [|blob [|tract [|off [|len [|wid [|]]]]]]]]; try exact HP.
+    destruct (negb (op_fresh s op) || (len <=? 0)); cbn [fst]; [exact HP|].
+    apply (PInv_pPJ_NK fx s); [reflexivity| |exact HP]. apply NKr_issue; [reflexivity|]. apply NK_pool; reflexivity. }
+  destruct (c =? 6).
+  { destruct a as [|blob [|tract [|ver [|badts [|]]]]]; try exact HP. cbn [fst]. apply PInv_start_fix. exact HP. }
+  destruct (c =? 7).
+  { destruct a; [exact HP|apply PInv_step_exec; assumption]. }
+  destruct (c =? 9).
+  { destruct a as [|ts [|]]; try exact HP. apply PInv_step_restart; assumption. }
+  destruct (c =? 10). { cbn [fst]. apply (PInv_pPJ_NK fx s); [reflexivity|apply NK_pool; reflexivity|exact HP]. }
+  destruct (c =? 11).
+  { destruct a as [|ts [|]]; try exact HP. cbn [fst]. apply (PInv_pPJ_NK fx s); [reflexivity|apply NK_pool; reflexivity|exact HP]. }
+  destruct (c =? 80).
+  { destruct a as [|op [|]]; try exact HP.
+    destruct (negb (op_fresh s op)) eqn:Fo; [exact HP|]. apply negb_false_iff in Fo.
+    pose proof (PInv_round_start fx s op HP HR HD Fo (gen_free_spec s Hg')) as M. destruct (round_start s op) as [st1 obs]. exact M. }
+  destruct (c =? 30).
+  { destruct a as [|blob [|tract [|off [|len [|nt tries]]]]]; exact HP. }
+  destruct (c =? 81) eqn:C81; [apply Z.eqb_eq in C81; subst c; discriminate|].
+  destruct (c =? 82); [exact HP|].
+  destruct (c =? 31).
+  { destruct a as [|blob [|]]; try exact HP. destruct (Cluster.Model.zget _ _); exact HP. }
+  exact HP.
 Qed.
